@@ -1,13 +1,21 @@
-(* Proofs about Model/KTasks.v (C06).
+(* Proofs about Model/KTasks.v (C06).  Three inductive invariants of every run of the model (all programs,
+   schedules, root fires, tick counts), each preserved by every transition:
 
-   Main result: an inductive invariant [IC] of every run of the model (all programs, schedules, root fires,
-   tick counts) that ties the table of temporary handlers and the task set to the phase of every wait state:
+   [IC]  ties the table of temporary handlers and the task set to the phase of every wait state:
      - which of <name>, <name>_done, generate_events handlers of a wait are installed is a function of its phase;
      - accounting: (#times the waiting handler was resumed) + (1 if the wait is still live) +
        (1 if its TimeoutError is pending as a task) = 1, always;
      - a timeout fires exactly after tmo0+1 generate_events dispatches seen by the wait.
-   The invariant is proved for runs in which the machinery itself does not crash ([bad] stays false);
-   [bad] is part of the observable compared with the implementation on every case. *)
+   [EX]  (with IC: [Full]) ranges of every table index, ownership of generators (a handler generator is either the
+     object of exactly one task, or the parent of exactly one wait that has not resumed it, and is suspended
+     accordingly), counting (waitingHandlers of an event = its handler-generator tasks + 2 x its handlers suspended
+     in waits), the gate (passed at most once, only when dispatched and the count is 0; afterwards the event is
+     never written again), uniqueness of queued <name>_done, and the shape of the log.  Consequences: [bad] is
+     unreachable (run_no_crash); resumptions deliver the callee's final value (resume_value) after the callee's
+     last handler step (resume_after_finish).
+   [EL]  what is pending where: a flagged wait has its task, an armed wait on an object has that event queued, a
+     wait that has seen its event e either finds e still holding counts or has e_done queued; waits are younger
+     than the waits of the events they wait for.  Consequence: quiescent_all_resumed. *)
 From Coq Require Import List ZArith Bool Arith Lia.
 From Circ Require Import Model.KTasks.
 Import ListNotations.
@@ -200,7 +208,8 @@ Record sid_ok (hs : list th) (ts : list task) (sid : nat) (st : wst) : Prop := {
   so_tmo : s_timedout st = true -> s_ph st = Dead /\ s_timeout st = 0;
   so_time : wst_time_ok st;
   so_credit : (s_resumes st + alive (s_ph st) + count_rt sid ts = 1)%nat;
-  so_rt : (0 < count_rt sid ts)%nat -> s_timedout st = true }.
+  so_rt : (0 < count_rt sid ts)%nat -> s_timedout st = true;
+  so_seen : s_ph st = Seen -> s_run st = true }.
 
 Definition task_ok (ss : list wst) (t : task) : Prop :=
   match t_ref t with
@@ -275,7 +284,7 @@ Lemma sid_ok_ext : forall hs ts hs' ts' sid st,
   count_rt sid ts' = count_rt sid ts ->
   sid_ok hs' ts' sid st.
 Proof.
-  intros hs ts hs' ts' sid st [A B C D E F G G2] Hh Hc.
+  intros hs ts hs' ts' sid st [A B C D E F G G2 G3] Hh Hc.
   constructor; auto.
   - rewrite (Hh (THEv sid)) by reflexivity. assumption.
   - rewrite (Hh (THDone sid)) by reflexivity. assumption.
@@ -410,7 +419,8 @@ Proof.
       + discriminate.
       + unfold wst_time_ok. simpl. split; [auto|]. intros. lia.
       + rewrite Z0. reflexivity.
-      + rewrite Z0. lia. }
+      + rewrite Z0. lia.
+      + discriminate. }
   split; [assumption|].
   intros t Ht. apply task_ok_app. auto.
 Qed.
@@ -448,7 +458,7 @@ Proof.
   unfold rem_th_k. destruct (has_th (THEv sid) w) eqn:Hh; [|left; reflexivity].
   apply has_th_In in Hh. right.
   change (IC3 (filter (fun u => negb (th_eqb (THEv sid) u)) (ths w)) (upd_nth sid (wst_seen tok) (wsts w)) (tasks w)).
-  pose proof H as [A [B [C [D E]]]]. pose proof (C sid st Hs) as [O1 O2 O3 O4 O5 O6 O7 O8].
+  pose proof H as [A [B [C [D E]]]]. pose proof (C sid st Hs) as [O1 O2 O3 O4 O5 O6 O7 O8 O9].
   assert (Ph : s_ph st = Armed) by (apply O1; assumption).
   apply (IC_local (ths w) (wsts w) (tasks w) _ _ sid (wst_seen tok) st); auto.
   - apply NoDup_del. assumption.
@@ -465,6 +475,7 @@ Proof.
     + exact O6.
     + rewrite Ph in O7. exact O7.
     + exact O8.
+    + reflexivity.
   - intros t Ht. apply task_ok_upd; [auto|intro; split; reflexivity|].
     intros _ st0 Hs0 F. rewrite Hs in Hs0. inversion Hs0. subst. congruence.
 Qed.
@@ -482,7 +493,7 @@ Proof.
   destruct (nth_error (wsts w) sid) as [st|] eqn:Hs; [|left; reflexivity].
   destruct (onat_eqb (s_event st) (Some tok)) eqn:Ev; [|right; assumption].
   apply onat_eqb_eq in Ev.
-  pose proof H as [A [B [C [D E]]]]. pose proof (C sid st Hs) as [O1 O2 O3 O4 O5 O6 O7 O8].
+  pose proof H as [A [B [C [D E]]]]. pose proof (C sid st Hs) as [O1 O2 O3 O4 O5 O6 O7 O8 O9].
   assert (Pd : s_ph st <> Dead) by (apply O2; assumption).
   assert (Pa : s_ph st <> Armed). { intro X. apply O4 in X. destruct X as [_ X]. congruence. }
   set (t := mk_task (s_tevent st) (RWait sid) (Some (s_parent st))).
@@ -523,6 +534,7 @@ Proof.
       * exact O6.
       * rewrite T3. destruct (s_ph st); try contradiction; exact O7.
       * rewrite T3. exact O8.
+      * discriminate.
   - apply Z.leb_gt in Tm. right.
     change (IC3 (ths (reg_task t w)) (upd_nth sid (wst_phase Flagged) (wsts (reg_task t w))) ts').
     replace (ths (reg_task t w)) with (ths w) by (unfold reg_task; destruct (existsb (task_eqb t) (tasks w)); reflexivity).
@@ -537,6 +549,7 @@ Proof.
     * exact O6.
     * rewrite T3. destruct (s_ph st); try contradiction; exact O7.
     * rewrite T3. exact O8.
+    * discriminate.
 Qed.
 
 Lemma on_done_keeps_done : forall tok w sid s, In (THDone s) (ths w) -> In (THDone s) (ths (on_done tok w sid)).
@@ -565,7 +578,7 @@ Lemma on_tick_fire : forall w sid st hs1,
       (tasks (reg_task (mk_task (s_tevent st) (RTimeout sid) (Some (s_parent st))) w)).
 Proof.
   intros w sid st hs1 H Hs T0 ND Hsub Hoth Nev Hd Ht.
-  pose proof H as [A [B [C [D E]]]]. pose proof (C sid st Hs) as [O1 O2 O3 O4 O5 O6 O7 O8].
+  pose proof H as [A [B [C [D E]]]]. pose proof (C sid st Hs) as [O1 O2 O3 O4 O5 O6 O7 O8 O9].
   set (t := mk_task (s_tevent st) (RTimeout sid) (Some (s_parent st))).
   assert (Ph : s_ph st = Armed \/ s_ph st = Seen). { apply Hsub in Ht. apply O3 in Ht. tauto. }
   assert (Al : alive (s_ph st) = 1%nat) by (destruct Ph as [X|X]; rewrite X; reflexivity).
@@ -595,6 +608,7 @@ Proof.
         assert (0 <= s_tmo0 st) by lia. specialize (P2 H0). lia.
     + rewrite count_rt_app. unfold count_rt at 2. simpl. rewrite Rt. simpl. lia.
     + reflexivity.
+    + discriminate.
   - intros s' Hne. apply count_rt_snoc_other. apply (is_rt_other sid); [assumption|congruence].
   - apply NoDup_snoc; assumption.
   - intros u Hu. apply in_app_iff in Hu. destruct Hu as [Hu|[Hu|[]]].
@@ -615,7 +629,7 @@ Lemma on_tick_Inv : forall w sid, IC w -> Inv (on_tick w sid).
 Proof.
   intros w sid H. unfold on_tick. destruct (bad w) eqn:Bw; [left; assumption|].
   destruct (nth_error (wsts w) sid) as [st|] eqn:Hs; [|left; reflexivity].
-  pose proof H as [A [B [C [D E]]]]. pose proof (C sid st Hs) as [O1 O2 O3 O4 O5 O6 O7 O8].
+  pose proof H as [A [B [C [D E]]]]. pose proof (C sid st Hs) as [O1 O2 O3 O4 O5 O6 O7 O8 O9].
   destruct (s_timeout st =? 0) eqn:T0.
   - apply Z.eqb_eq in T0. cbv zeta. set (t := mk_task (s_tevent st) (RTimeout sid) (Some (s_parent st))).
     destruct (s_run st) eqn:Rn.
@@ -705,7 +719,7 @@ Proof.
     + apply IC_event_done. apply IC_mod_evt. apply (IC_unreg_gen _ _ g); assumption.
   - (* the wait generator, registered by _on_done *)
     destruct Tok as [st [Hs [Ph Tq]]]. rewrite Hs.
-    pose proof (C sid st Hs) as [O1 O2 O3 O4 O5 O6 O7 O8].
+    pose proof (C sid st Hs) as [O1 O2 O3 O4 O5 O6 O7 O8 O9].
     assert (Hd : In (THDone sid) (ths w)). { apply O2. rewrite Ph. discriminate. }
     apply has_th_In in Hd. rewrite Hd.
     destruct (match s_event st with Some e => Some e | None => s_callval st end) as [e|]; [|left; reflexivity].
@@ -728,6 +742,7 @@ Proof.
       * exact O6.
       * rewrite count_rt_unreg_other by apply Rt. unfold alive. lia.
       * rewrite count_rt_unreg_other by apply Rt. exact O8.
+      * discriminate.
     + intros s' _. apply count_rt_unreg_other. apply Rt.
     + apply NoDup_filter. assumption.
     + intros u Hu. apply In_unreg in Hu. destruct Hu as [Hu Hne].
@@ -743,7 +758,7 @@ Proof.
     destruct Tok as [st [Hs Tq]].
     rewrite Tq at 1. simpl t_parent. right. apply continue_parent_IC.
     change (IC3 (ths w) (upd_nth sid wst_thrown (wsts w)) (filter (fun u => negb (task_eqb t u)) (tasks w))).
-    pose proof (C sid st Hs) as [O1 O2 O3 O4 O5 O6 O7 O8].
+    pose proof (C sid st Hs) as [O1 O2 O3 O4 O5 O6 O7 O8 O9].
     assert (Rt : is_rt sid t = true). { unfold is_rt. rewrite R. simpl. apply Nat.eqb_refl. }
     assert (Uq : forall u, In u (tasks w) -> is_rt sid u = true -> u = t).
     { intros u Hu Ru. unfold is_rt in Ru. apply tref_eqb_eq in Ru. pose proof (E u Hu) as Uok. unfold task_ok in Uok.
@@ -982,8 +997,8 @@ Proof.
   split; [assumption|]. intro h. split.
   - intro Hin. pose proof (R h Hin) as L. apply nth_error_Some in L.
     destruct (nth_error (wsts w) (sid_of h)) as [st|] eqn:E; [|congruence]. exists st. split; [reflexivity|].
-    destruct (C _ _ E) as [O1 O2 O3 _ _ _ _ _]. destruct h; simpl in *; [apply O1|apply O2|apply O3]; assumption.
-  - intros [st [E W]]. destruct (C _ _ E) as [O1 O2 O3 _ _ _ _ _]. destruct h; simpl in *; [apply O1|apply O2|apply O3]; assumption.
+    destruct (C _ _ E) as [O1 O2 O3 _ _ _ _ _ _]. destruct h; simpl in *; [apply O1|apply O2|apply O3]; assumption.
+  - intros [st [E W]]. destruct (C _ _ E) as [O1 O2 O3 _ _ _ _ _ _]. destruct h; simpl in *; [apply O1|apply O2|apply O3]; assumption.
 Qed.
 
 Lemma no_residue_all_dead : forall p g scheds roots n, let w := run p g scheds roots n in bad w = false ->
@@ -1022,7 +1037,7 @@ Lemma timeout_not_early : forall p g scheds roots n sid st, let w := run p g sch
   Z.of_nat (s_ticks st) = s_tmo0 st + 1 /\ s_ph st = Dead.
 Proof.
   intros p g scheds roots n sid st w B Hs H. destruct (run_IC _ _ _ _ _ B) as [_ [_ [C _]]].
-  destruct (C _ _ Hs) as [_ _ _ _ O5 O6 _ O8].
+  destruct (C _ _ Hs) as [_ _ _ _ O5 O6 _ O8 _].
   assert (T : s_timedout st = true) by (destruct H; auto).
   unfold wst_time_ok in O6. rewrite T in O6. split; [assumption|apply O5; assumption].
 Qed.
@@ -1032,7 +1047,7 @@ Lemma live_countdown : forall p g scheds roots n sid st, let w := run p g scheds
   0 <= s_timeout st /\ s_timeout st + Z.of_nat (s_ticks st) = s_tmo0 st.
 Proof.
   intros p g scheds roots n sid st w B Hs T L. destruct (run_IC _ _ _ _ _ B) as [_ [_ [C _]]].
-  destruct (C _ _ Hs) as [_ _ _ _ _ O6 _ _]. unfold wst_time_ok in O6. rewrite T in O6. apply O6. assumption.
+  destruct (C _ _ Hs) as [_ _ _ _ _ O6 _ _ _]. unfold wst_time_ok in O6. rewrite T in O6. apply O6. assumption.
 Qed.
 
 Lemma wait_task_flagged : forall p g scheds roots n t sid, let w := run p g scheds roots n in bad w = false ->
@@ -1042,7 +1057,7 @@ Lemma wait_task_flagged : forall p g scheds roots n t sid, let w := run p g sche
 Proof.
   intros p g scheds roots n t sid w B Ht R. destruct (run_IC _ _ _ _ _ B) as [_ [_ [C [_ E]]]]. fold w in C, E.
   specialize (E t Ht). unfold task_ok in E. rewrite R in E. destruct E as [st [Hs [Ph _]]].
-  exists st. destruct (C _ _ Hs) as [O1 O2 O3 _ _ _ _ _]. repeat split; try assumption.
+  exists st. destruct (C _ _ Hs) as [O1 O2 O3 _ _ _ _ _ _]. repeat split; try assumption.
   - apply O2. rewrite Ph. discriminate.
   - intro X. apply O1 in X. congruence.
   - intro X. apply O3 in X. destruct X as [[X|X] _]; congruence.
@@ -1060,3 +1075,2760 @@ Definition prog_genraise : program :=
   [ [HGen true [SCall 1%nat (-1); SYield (Some 7)]]; [HGen true [SYield (Some 9); SRaise]] ].
 Definition prog_raise_resumed : program :=
   [ [HGen true [SCall 1%nat (-1); SYield (Some 7)]]; [HGen true [SCall 2%nat (-1); SRaise]]; [HPlain (Some 5) false] ].
+
+(* ================================================================== second invariant: the machinery never crashes *)
+
+Definition qtok_ok (n : nat) (q : qitem) : Prop :=
+  match q with QGenEv => True | QUser t | QDone t | QSucc t => (t < n)%nat end.
+Definition owning (st : wst) : bool := Nat.eqb (s_resumes st) 0.
+Definition is_gen (r : tref) : bool := match r with RGen _ => true | _ => false end.
+Definition gen_for (tok : nat) (t : task) : bool := Nat.eqb (t_ev t) tok && is_gen (t_ref t).
+Definition cnt_gen (tok : nat) (ts : list task) : nat := length (filter (gen_for tok) ts).
+Definition owns (tok : nat) (s : wst) : bool := Nat.eqb (s_tevent s) tok && owning s.
+Definition cnt_own (tok : nat) (ss : list wst) : nat := length (filter (owns tok) ss).
+Definition udq (q : qitem) : bool := match q with QUser _ | QDone _ => true | _ => false end.
+Definition b2n (b : bool) : nat := if b then 1%nat else 0%nat.
+
+(* handler entries of the log and the event instance they belong to *)
+Definition htok (x : lent) : option nat :=
+  match x with
+  | LPlain t _ | LStep t _ _ | LRes t _ _ _ _ _ | LTmo t _ _ | LTmoUncaught t _ _ | LEnd t _ => Some t
+  | _ => None
+  end.
+Fixpoint ord_ok (l : list lent) : Prop :=       (* newest first *)
+  match l with
+  | [] => True
+  | x :: r => (forall tok hi k e vals err, In (LRes tok hi k e vals err) r -> htok x <> Some e) /\ ord_ok r
+  end.
+
+Section Fields.
+Variable X : list qitem.
+Variable n : nat.                      (* number of event instances *)
+Variables (es : list evt) (gs : list gen) (ss : list wst) (ts : list task) (q : list qitem) (lg : list lent).
+
+Definition F_q : Prop := forall x, In x (X ++ q) -> qtok_ok n x.
+Definition F_gi : Prop := forall g gn, nth_error gs g = Some gn -> g_rest gn = None -> g_atcall gn = false.
+Definition F_task : Prop := forall t, In t ts -> (t_ev t < n)%nat /\
+  forall g, t_ref t = RGen g -> exists gn, nth_error gs g = Some gn /\ g_tok gn = t_ev t /\ g_atcall gn = false.
+Definition F_wst : Prop := forall sid st, nth_error ss sid = Some st ->
+  (s_tevent st < n)%nat /\ (forall e, s_event st = Some e -> (e < n)%nat) /\
+  (forall e, s_callval st = Some e -> (e < n)%nat).
+Definition F_own : Prop := forall sid st, nth_error ss sid = Some st -> owning st = true ->
+  (exists gn, nth_error gs (s_parent st) = Some gn /\ g_tok gn = s_tevent st /\ g_atcall gn = true) /\
+  (forall t, In t ts -> t_ref t <> RGen (s_parent st)) /\
+  (forall sid' st', sid' <> sid -> nth_error ss sid' = Some st' -> owning st' = true -> s_parent st' <> s_parent st).
+Definition F_cnt : Prop := forall tok ev, nth_error es tok = Some ev ->
+  e_waiting ev = Z.of_nat (cnt_gen tok ts) + 2 * Z.of_nat (cnt_own tok ss).
+Definition gate_ok (ev : evt) : Prop :=
+  (e_dispatched ev = false -> e_gate ev = O /\ e_waiting ev = 0) /\
+  ((1 <= e_gate ev)%nat -> e_waiting ev = 0 /\ e_dispatched ev = true).
+Definition F_gate : Prop := forall tok ev, nth_error es tok = Some ev -> gate_ok ev.
+Definition F_quser : Prop := forall tok ev, In (QUser tok) (X ++ q) -> nth_error es tok = Some ev -> e_dispatched ev = false.
+Definition F_qdone : Prop := forall tok ev, In (QDone tok) (X ++ q) -> nth_error es tok = Some ev -> (1 <= e_gate ev)%nat.
+Definition F_qnodup : Prop := NoDup (filter udq (X ++ q)).
+Definition F_flag : Prop := forall sid st, nth_error ss sid = Some st -> s_ph st = Flagged ->
+  exists e ev, s_event st = Some e /\ nth_error es e = Some ev /\ (1 <= e_gate ev)%nat /\ ~ In (QDone e) (X ++ q).
+Definition F_res : Prop := forall tok hi k e vals err, In (LRes tok hi k e vals err) lg ->
+  exists ev, nth_error es e = Some ev /\ (1 <= e_gate ev)%nat /\ e_vals ev = vals /\ e_errors ev = err.
+Definition F_ord : Prop := ord_ok lg.
+End Fields.
+
+Definition EXc (X : list qitem) (es : list evt) (gs : list gen) (ss : list wst) (ts : list task) (q : list qitem) (lg : list lent) : Prop :=
+  F_q X (length es) q /\ F_gi gs /\ F_task (length es) gs ts /\ F_wst (length es) ss /\ F_own gs ss ts /\ F_cnt es ss ts /\
+  F_gate es /\ F_quser X es q /\ F_qdone X es q /\ F_qnodup X q /\ F_flag X es ss q /\ F_res es lg /\ F_ord lg.
+
+Definition EX (X : list qitem) (w : world) : Prop :=
+  EXc X (evs w) (gens w) (wsts w) (tasks w) (queue w) (wlog w).
+
+(* ---------------------------------------------------------------- counting lemmas *)
+
+Lemma filter_len_snoc : forall {A} (P : A -> bool) l x,
+  length (filter P (l ++ [x])) = (length (filter P l) + b2n (P x))%nat.
+Proof. intros. rewrite filter_app, app_length. simpl. destruct (P x); simpl; lia. Qed.
+
+Lemma filter_len_upd : forall {A} (P : A -> bool) (f : A -> A) l i x, nth_error l i = Some x ->
+  (length (filter P (upd_nth i f l)) + b2n (P x) = length (filter P l) + b2n (P (f x)))%nat.
+Proof.
+  intros A P f l. induction l as [|y r IH]; intros i x H; destruct i; simpl in *; try discriminate.
+  - inversion H; subst. destruct (P x), (P (f x)); simpl; lia.
+  - specialize (IH i x H). destruct (P y); simpl; lia.
+Qed.
+
+Lemma filter_len_remove : forall (P : task -> bool) l t, NoDup l -> In t l ->
+  (length (filter P (filter (fun u => negb (task_eqb t u)) l)) + b2n (P t) = length (filter P l))%nat.
+Proof.
+  intros P l t ND. induction l as [|y r IH]; intro Hin; [destruct Hin|]. inversion ND; subst. simpl.
+  destruct (task_eqb t y) eqn:E.
+  - apply task_eqb_eq in E. subst y. simpl.
+    assert (Hr : filter (fun u => negb (task_eqb t u)) r = r).
+    { clear -H1. induction r as [|z r IH]; simpl; [reflexivity|].
+      destruct (task_eqb t z) eqn:E; [apply task_eqb_eq in E; subst; exfalso; apply H1; left; reflexivity|].
+      simpl. rewrite IH; [reflexivity|]. intro. apply H1. right. assumption. }
+    rewrite Hr. destruct (P t); simpl; lia.
+  - destruct Hin as [Hin|Hin]; [subst; assert (task_eqb t t = true) by (apply task_eqb_eq; reflexivity); congruence|].
+    specialize (IH H2 Hin). simpl. destruct (P y); simpl; lia.
+Qed.
+
+Lemma filter_len_remove_absent : forall (P : task -> bool) l t, ~ In t l ->
+  filter (fun u => negb (task_eqb t u)) l = l.
+Proof.
+  intros P l t. induction l as [|z r IH]; intro H; simpl; [reflexivity|].
+  destruct (task_eqb t z) eqn:E; [apply task_eqb_eq in E; subst; exfalso; apply H; left; reflexivity|].
+  simpl. rewrite IH; [reflexivity|]. intro. apply H. right. assumption.
+Qed.
+
+Lemma nth_error_app_old : forall {A} (l m : list A) i x, nth_error l i = Some x -> nth_error (l ++ m) i = Some x.
+Proof. intros. rewrite nth_error_app1; [assumption|]. apply nth_error_Some. congruence. Qed.
+
+Lemma nth_error_lt : forall {A} (l : list A) i x, nth_error l i = Some x -> (i < length l)%nat.
+Proof. intros. apply nth_error_Some. congruence. Qed.
+
+Lemma nth_error_upd_same : forall {A} (f : A -> A) l i x, nth_error l i = Some x -> nth_error (upd_nth i f l) i = Some (f x).
+Proof. intros. rewrite nth_error_upd_nth, Nat.eqb_refl, H. reflexivity. Qed.
+
+Lemma nth_error_upd_other : forall {A} (f : A -> A) l i j, i <> j -> nth_error (upd_nth i f l) j = nth_error l j.
+Proof. intros. rewrite nth_error_upd_nth. apply Nat.eqb_neq in H. rewrite H. reflexivity. Qed.
+
+Lemma nth_error_upd_inv : forall {A} (f : A -> A) l i j y, nth_error (upd_nth i f l) j = Some y ->
+  (i = j /\ exists x, nth_error l j = Some x /\ y = f x) \/ (i <> j /\ nth_error l j = Some y).
+Proof.
+  intros A f l i j y H. rewrite nth_error_upd_nth in H. destruct (Nat.eqb i j) eqn:E.
+  - apply Nat.eqb_eq in E. left. split; [assumption|]. destruct (nth_error l j); simpl in H; [|discriminate].
+    inversion H. eauto.
+  - apply Nat.eqb_neq in E. right. auto.
+Qed.
+
+(* ---------------------------------------------------------------- what resuming a generator does *)
+
+Definition ext_of (w w' : world) (nms : list nat) (ls : list lent) : Prop :=
+  ths w' = ths w /\ wsts w' = wsts w /\ tasks w' = tasks w /\
+  evs w' = evs w ++ map new_evt nms /\
+  queue w' = queue w ++ map QUser (seq (length (evs w)) (length nms)) /\
+  wlog w' = ls ++ wlog w.
+
+Definition not_res (x : lent) : Prop := forall t h k e v er, x <> LRes t h k e v er.
+
+Lemma ext_refl : forall w, ext_of w w [] [].
+Proof. intro w. unfold ext_of. simpl. rewrite !app_nil_r. auto 10. Qed.
+
+Lemma ext_trans_fire : forall w nm b h w' nms ls,
+  ext_of (fst (fire_user nm b h w)) w' nms ls ->
+  ext_of w w' (nm :: nms) (ls ++ [LFire (length (evs w)) nm b h]).
+Proof.
+  intros w nm b h w' nms ls [A [B [C [D [E F]]]]]. unfold ext_of. simpl in *.
+  repeat split; try assumption.
+  - rewrite D. rewrite <- app_assoc. reflexivity.
+  - rewrite E. rewrite app_length. simpl. rewrite <- app_assoc. simpl.
+    replace (length (evs w) + 1)%nat with (S (length (evs w))) by lia. reflexivity.
+  - rewrite F. rewrite <- app_assoc. reflexivity.
+Qed.
+
+Lemma ext_log : forall w w' nms ls x, ext_of (add_log x w) w' nms ls -> ext_of w w' nms (ls ++ [x]).
+Proof.
+  intros w w' nms ls x [A [B [C [D [E F]]]]]. unfold ext_of. simpl in *. repeat split; try assumption.
+  rewrite F. rewrite <- app_assoc. reflexivity.
+Qed.
+
+Lemma ext_len : forall w w' nms ls, ext_of w w' nms ls -> (length (evs w) <= length (evs w'))%nat.
+Proof. intros w w' nms ls [_ [_ [_ [D _]]]]. rewrite D, app_length. lia. Qed.
+
+Lemma run_steps_spec : forall sts tok hi k w w' r k' rest,
+  run_steps tok hi k sts w = (w', r, k', rest) ->
+  exists nms ls, ext_of w w' nms ls /\ gens w' = gens w /\ bad w' = bad w /\
+    (forall x, In x ls -> (htok x = None \/ htok x = Some tok) /\ not_res x) /\
+    (forall nm obj tmo cv, r = GWait nm obj tmo cv ->
+       (forall t, obj = Some t -> (t < length (evs w'))%nat) /\ (forall t, cv = Some t -> (t < length (evs w'))%nat)) /\
+    (rest = None -> is_wait r = false).
+Proof.
+  induction sts as [|s sts IH]; intros tok hi k w w' r k' rest H; simpl in H.
+  - injection H as Hw Hr Hk Hrest. subst w' r k' rest.
+    exists [], [LEnd tok hi]. split; [apply ext_log with (ls := []); apply ext_refl|].
+    split; [reflexivity|]. split; [reflexivity|]. split.
+    + intros x [Hx|[]]; subst; split; [simpl; auto|intros ? ? ? ? ? ?; discriminate].
+    + split; [discriminate|reflexivity].
+  - set (w0 := add_log (LStep tok hi k) w) in *.
+    assert (Lstep : forall x, In x [LStep tok hi k] -> (htok x = None \/ htok x = Some tok) /\ not_res x).
+    { intros x [Hx|[]]; subst; split; [simpl; auto|intros ? ? ? ? ? ?; discriminate]. }
+    assert (Lfire : forall h x, In x ([LFire (length (evs w0)) h tok 1] ++ [LStep tok hi k]) \/
+                                In x ([LFire (length (evs w0)) h tok 2] ++ [LStep tok hi k]) \/
+                                In x ([LFire (length (evs w0)) h tok 3] ++ [LStep tok hi k]) ->
+                                (htok x = None \/ htok x = Some tok) /\ not_res x).
+    { intros h x [Hx|[Hx|Hx]]; destruct Hx as [Hx|[Hx|[]]]; subst; split; try (simpl; auto; fail); intros ? ? ? ? ? ?; discriminate. }
+    destruct s as [v|nm tmo|nm|nm tmo fire| |nm].
+    + injection H as Hw Hr Hk Hrest. subst w' r k' rest.
+      exists [], [LStep tok hi k]. split; [apply ext_log with (ls := []); apply ext_refl|].
+      split; [reflexivity|]. split; [reflexivity|]. split; [exact Lstep|]. split; discriminate.
+    + injection H as Hw Hr Hk Hrest. subst w' r k' rest.
+      exists [nm], ([LFire (length (evs w0)) nm tok 1] ++ [LStep tok hi k]).
+      split. { apply ext_log. apply (ext_trans_fire w0 nm tok 1 _ [] []). apply ext_refl. }
+      split; [reflexivity|]. split; [reflexivity|].
+      split. { intros x Hx. apply (Lfire nm). auto. }
+      split; [|discriminate].
+      intros nm' obj tmo' cv Hr. inversion Hr; subst obj cv. simpl. rewrite app_length. simpl.
+      split; intros t Ht; inversion Ht; lia.
+    + injection H as Hw Hr Hk Hrest. subst w' r k' rest.
+      exists [nm], ([LFire (length (evs w0)) nm tok 2] ++ [LStep tok hi k]).
+      split. { apply ext_log. apply (ext_trans_fire w0 nm tok 2 _ [] []). apply ext_refl. }
+      split; [reflexivity|]. split; [reflexivity|].
+      split. { intros x Hx. apply (Lfire nm). auto. }
+      split; [|discriminate].
+      intros nm' obj tmo' cv Hr. inversion Hr; subst obj cv. simpl. rewrite app_length. simpl.
+      split; intros t Ht; inversion Ht; lia.
+    + destruct fire.
+      * injection H as Hw Hr Hk Hrest. subst w' r k' rest.
+        exists [nm], ([LFire (length (evs w0)) nm tok 3] ++ [LStep tok hi k]).
+        split. { apply ext_log. apply (ext_trans_fire w0 nm tok 3 _ [] []). apply ext_refl. }
+        split; [reflexivity|]. split; [reflexivity|].
+        split. { intros x Hx. apply (Lfire nm). auto. }
+        split; [|discriminate].
+        intros nm' obj tmo' cv Hr. inversion Hr; subst. split; intros t Ht; discriminate.
+      * injection H as Hw Hr Hk Hrest. subst w' r k' rest.
+        exists [], [LStep tok hi k]. split; [apply ext_log with (ls := []); apply ext_refl|].
+        split; [reflexivity|]. split; [reflexivity|]. split; [exact Lstep|]. split; [|discriminate].
+        intros nm' obj tmo' cv Hr. inversion Hr; subst. split; intros t Ht; discriminate.
+    + injection H as Hw Hr Hk Hrest. subst w' r k' rest.
+      exists [], [LStep tok hi k]. split; [apply ext_log with (ls := []); apply ext_refl|].
+      split; [reflexivity|]. split; [reflexivity|]. split; [exact Lstep|]. split; [discriminate|reflexivity].
+    + specialize (IH tok hi (S k) (fst (fire_user nm tok 0 w0)) w' r k' rest H).
+      destruct IH as [nms [ls [E [G [B [L [W R]]]]]]].
+      exists (nm :: nms), ((ls ++ [LFire (length (evs w0)) nm tok 0]) ++ [LStep tok hi k]).
+      split. { apply ext_log. apply ext_trans_fire. exact E. }
+      split; [exact G|]. split; [exact B|]. split; [|split; assumption].
+      intros x Hx. apply in_app_iff in Hx. destruct Hx as [Hx|Hx]; [|apply Lstep; assumption].
+      apply in_app_iff in Hx. destruct Hx as [Hx|[Hx|[]]]; [apply L; assumption|].
+      subst x. split; [simpl; auto|intros ? ? ? ? ? ?; discriminate].
+Qed.
+
+Definition proto_ok (how : rkind) (gn : gen) : Prop :=
+  g_rest gn = None \/ match how with RNext => g_atcall gn = false | _ => g_atcall gn = true end.
+
+Lemma upd_nth_id : forall {A} (l : list A) i, upd_nth i (fun x => x) l = l.
+Proof. intros A l. induction l as [|x r IH]; intros [|i]; simpl; try reflexivity. rewrite IH. reflexivity. Qed.
+
+Lemma gen_resume_spec : forall gid how w w1 r gn, gen_resume gid how w = (w1, r) ->
+  nth_error (gens w) gid = Some gn ->
+  exists nms ls f, ext_of w w1 nms ls /\ gens w1 = upd_nth gid f (gens w) /\
+    g_tok (f gn) = g_tok gn /\
+    ((g_rest gn = None -> g_atcall gn = false) ->
+       g_atcall (f gn) = is_wait r /\ (g_rest (f gn) = None -> g_atcall (f gn) = false)) /\
+    (forall x, In x ls -> htok x = None \/ htok x = Some (g_tok gn)) /\
+    (forall t h k e v er, In (LRes t h k e v er) ls ->
+       how = RSend e /\ exists ev, nth_error (evs w) e = Some ev /\ v = e_vals ev /\ er = e_errors ev) /\
+    (forall nm obj tmo cv, r = GWait nm obj tmo cv ->
+       (forall t, obj = Some t -> (t < length (evs w1))%nat) /\ (forall t, cv = Some t -> (t < length (evs w1))%nat)) /\
+    (proto_ok how gn -> (forall e, how = RSend e -> (e < length (evs w))%nat) -> bad w1 = bad w).
+Proof.
+  intros gid how w w1 r gn H Hg. unfold gen_resume in H. rewrite Hg in H.
+  destruct (g_rest gn) as [sts|] eqn:Rest.
+  2:{ injection H as Hw Hr. subst w1 r. exists [], [], (fun x => x).
+      split; [apply ext_refl|]. split; [rewrite upd_nth_id; reflexivity|]. split; [reflexivity|].
+      split. { intro A. specialize (A eq_refl). split; [rewrite A; destruct how; reflexivity|auto]. }
+      split; [intros x []|]. split; [intros ? ? ? ? ? ? []|]. split; [|reflexivity].
+      intros nm obj tmo cv Hr. destruct how; discriminate. }
+  set (w0 := match how with
+             | RNext => if g_atcall gn then set_bad w else w
+             | RSend _ => if g_atcall gn then w else set_bad w
+             | RThrow => if g_atcall gn then w else set_bad w end) in *.
+  assert (E0 : ext_of w w0 [] [] /\ gens w0 = gens w /\ (proto_ok how gn -> bad w0 = bad w)).
+  { unfold w0. destruct how; destruct (g_atcall gn) eqn:AC;
+      (split; [unfold ext_of; simpl; rewrite ?app_nil_r; repeat split; reflexivity|]; split; [reflexivity|]);
+      intros [P|P]; try congruence; reflexivity. }
+  destruct E0 as [E0 [G0 B0]].
+  (* the common tail: run the steps from a world wp that extends w by lp *)
+  assert (Tail : forall wp lp, ext_of w wp [] lp -> gens wp = gens w ->
+            (forall x, In x lp -> htok x = None \/ htok x = Some (g_tok gn)) ->
+            forall w2 r2 k2 rest2, run_steps (g_tok gn) (g_hi gn) (g_k gn) sts wp = (w2, r2, k2, rest2) ->
+            exists nms ls, ext_of w (mod_gen gid (fun _ => {| g_tok := g_tok gn; g_hi := g_hi gn; g_catch := g_catch gn; g_k := S k2;
+                                       g_cur := k2; g_atcall := is_wait r2; g_rest := rest2 |}) w2) nms (ls ++ lp) /\
+              gens w2 = gens w /\ bad w2 = bad wp /\
+              (forall x, In x (ls ++ lp) -> htok x = None \/ htok x = Some (g_tok gn)) /\
+              (forall x, In x ls -> not_res x) /\
+              (forall nm obj tmo cv, r2 = GWait nm obj tmo cv ->
+                 (forall t, obj = Some t -> (t < length (evs w2))%nat) /\ (forall t, cv = Some t -> (t < length (evs w2))%nat)) /\
+              (rest2 = None -> is_wait r2 = false)).
+  { intros wp lp Ep Gp Lp w2 r2 k2 rest2 Hrun.
+    destruct (run_steps_spec _ _ _ _ _ _ _ _ _ Hrun) as [nms [ls [E [G [B [L [Wt R]]]]]]].
+    exists nms, ls. destruct Ep as [p1 [p2 [p3 [p4 [p5 p6]]]]]. destruct E as [e1 [e2 [e3 [e4 [e5 e6]]]]].
+    simpl in p4, p5. rewrite app_nil_r in p4, p5.
+    split. { unfold ext_of. simpl. split; [congruence|]. split; [congruence|]. split; [congruence|].
+             split; [rewrite e4, p4; reflexivity|]. split; [rewrite e5, p4, p5; reflexivity|].
+             rewrite e6, p6, app_assoc. reflexivity. }
+    split; [congruence|]. split; [assumption|]. split.
+    { intros x Hx. apply in_app_iff in Hx. destruct Hx as [Hx|Hx]; [apply L; assumption|apply Lp; assumption]. }
+    split; [intros x Hx; apply L; assumption|]. split; assumption. }
+  destruct how as [|e|].
+  - destruct (run_steps (g_tok gn) (g_hi gn) (g_k gn) sts w0) as [[[w2 r2] k2] rest2] eqn:Run.
+    injection H as Hw Hr. subst w1 r.
+    destruct (Tail w0 [] E0 G0 (fun x (F : In x []) => match F with end) _ _ _ _ Run) as [nms [ls [E [G [B [L [NR [Wt R]]]]]]]].
+    rewrite app_nil_r in *.
+    exists nms, ls, (fun _ => {| g_tok := g_tok gn; g_hi := g_hi gn; g_catch := g_catch gn; g_k := S k2;
+                                 g_cur := k2; g_atcall := is_wait r2; g_rest := rest2 |}).
+    split; [exact E|]. split; [simpl; rewrite G; reflexivity|]. split; [reflexivity|].
+    split; [intros _; simpl; split; [reflexivity|exact R]|]. split; [exact L|].
+    split. { intros t h k e v er Hin. exfalso. apply (NR _ Hin t h k e v er). reflexivity. }
+    split; [exact Wt|]. intros P _. simpl. rewrite B. apply B0. exact P.
+  - destruct (nth_error (evs w0) e) as [ev|] eqn:Ee.
+    + set (x0 := LRes (g_tok gn) (g_hi gn) (g_cur gn) e (e_vals ev) (e_errors ev)) in *.
+      destruct (run_steps (g_tok gn) (g_hi gn) (g_k gn) sts (add_log x0 w0)) as [[[w2 r2] k2] rest2] eqn:Run.
+      injection H as Hw Hr. subst w1 r.
+      assert (Ep : ext_of w (add_log x0 w0) [] [x0]).
+      { destruct E0 as [p1 [p2 [p3 [p4 [p5 p6]]]]]. unfold ext_of. simpl in *. repeat split; try assumption. rewrite p6. reflexivity. }
+      assert (Lp : forall x, In x [x0] -> htok x = None \/ htok x = Some (g_tok gn)).
+      { intros x [Hx|[]]. subst x. right. reflexivity. }
+      destruct (Tail _ [x0] Ep G0 Lp _ _ _ _ Run) as [nms [ls [E [G [B [L [NR [Wt R]]]]]]]].
+      exists nms, (ls ++ [x0]), (fun _ => {| g_tok := g_tok gn; g_hi := g_hi gn; g_catch := g_catch gn; g_k := S k2;
+                                   g_cur := k2; g_atcall := is_wait r2; g_rest := rest2 |}).
+      split; [exact E|]. split; [simpl; rewrite G; reflexivity|]. split; [reflexivity|].
+      split; [intros _; simpl; split; [reflexivity|exact R]|]. split; [exact L|].
+      split. { intros t h k e' v er Hin. apply in_app_iff in Hin. destruct Hin as [Hin|[Hin|[]]].
+               - exfalso. apply (NR _ Hin t h k e' v er). reflexivity.
+               - unfold x0 in Hin. inversion Hin; subst. split; [reflexivity|]. exists ev. split; [|auto].
+                 destruct E0 as [_ [_ [_ [p4 _]]]]. simpl in p4. rewrite app_nil_r in p4. rewrite <- p4. exact Ee. }
+      split; [exact Wt|]. intros P _. simpl. rewrite B. simpl. apply B0. exact P.
+    + destruct (run_steps (g_tok gn) (g_hi gn) (g_k gn) sts (set_bad w0)) as [[[w2 r2] k2] rest2] eqn:Run.
+      injection H as Hw Hr. subst w1 r.
+      assert (Ep : ext_of w (set_bad w0) [] []).
+      { destruct E0 as [p1 [p2 [p3 [p4 [p5 p6]]]]]. unfold ext_of. simpl in *. repeat split; assumption. }
+      destruct (Tail _ [] Ep G0 (fun x (F : In x []) => match F with end) _ _ _ _ Run) as [nms [ls [E [G [B [L [NR [Wt R]]]]]]]].
+      rewrite app_nil_r in *.
+      exists nms, ls, (fun _ => {| g_tok := g_tok gn; g_hi := g_hi gn; g_catch := g_catch gn; g_k := S k2;
+                                   g_cur := k2; g_atcall := is_wait r2; g_rest := rest2 |}).
+      split; [exact E|]. split; [simpl; rewrite G; reflexivity|]. split; [reflexivity|].
+      split; [intros _; simpl; split; [reflexivity|exact R]|]. split; [exact L|].
+      split. { intros t h k e' v er Hin. exfalso. apply (NR _ Hin t h k e' v er). reflexivity. }
+      split; [exact Wt|]. intros _ Rg. exfalso. specialize (Rg e eq_refl).
+      destruct E0 as [_ [_ [_ [p4 _]]]]. simpl in p4. rewrite app_nil_r in p4. rewrite p4 in Ee.
+      apply nth_error_None in Ee. lia.
+  - destruct (g_catch gn).
+    + set (x0 := LTmo (g_tok gn) (g_hi gn) (g_cur gn)) in *.
+      destruct (run_steps (g_tok gn) (g_hi gn) (g_k gn) sts (add_log x0 w0)) as [[[w2 r2] k2] rest2] eqn:Run.
+      injection H as Hw Hr. subst w1 r.
+      assert (Ep : ext_of w (add_log x0 w0) [] [x0]).
+      { destruct E0 as [p1 [p2 [p3 [p4 [p5 p6]]]]]. unfold ext_of. simpl in *. repeat split; try assumption. rewrite p6. reflexivity. }
+      assert (Lp : forall x, In x [x0] -> htok x = None \/ htok x = Some (g_tok gn)).
+      { intros x [Hx|[]]. subst x. right. reflexivity. }
+      destruct (Tail _ [x0] Ep G0 Lp _ _ _ _ Run) as [nms [ls [E [G [B [L [NR [Wt R]]]]]]]].
+      exists nms, (ls ++ [x0]), (fun _ => {| g_tok := g_tok gn; g_hi := g_hi gn; g_catch := true; g_k := S k2;
+                                   g_cur := k2; g_atcall := is_wait r2; g_rest := rest2 |}).
+      split; [exact E|]. split; [simpl; rewrite G; reflexivity|]. split; [reflexivity|].
+      split; [intros _; simpl; split; [reflexivity|exact R]|]. split; [exact L|].
+      split. { intros t h k e' v er Hin. apply in_app_iff in Hin. destruct Hin as [Hin|[Hin|[]]].
+               - exfalso. apply (NR _ Hin t h k e' v er). reflexivity.
+               - discriminate. }
+      split; [exact Wt|]. intros P _. simpl. rewrite B. simpl. apply B0. exact P.
+    + injection H as Hw Hr. subst w1 r.
+      exists [], [LTmoUncaught (g_tok gn) (g_hi gn) (g_cur gn)], gen_finish.
+      split. { destruct E0 as [p1 [p2 [p3 [p4 [p5 p6]]]]]. unfold ext_of. simpl in *. repeat split; try assumption. rewrite p6. reflexivity. }
+      split; [simpl; rewrite G0; reflexivity|]. split; [reflexivity|].
+      split; [intros _; simpl; auto|].
+      split. { intros x [Hx|[]]. subst x. right. reflexivity. }
+      split. { intros t h k e' v er [Hin|[]]. discriminate. }
+      split; [intros; discriminate|]. intros P _. simpl. apply B0. exact P.
+Qed.
+
+(* ---------------------------------------------------------------- field-wise transfer lemmas *)
+
+Lemma cnt_gen_zero : forall tok ts, (forall t, In t ts -> t_ev t <> tok) -> cnt_gen tok ts = O.
+Proof.
+  intros tok ts H. unfold cnt_gen. induction ts as [|x r IH]; simpl; [reflexivity|].
+  unfold gen_for at 1. destruct (Nat.eqb (t_ev x) tok) eqn:E.
+  - apply Nat.eqb_eq in E. exfalso. apply (H x); [left; reflexivity|assumption].
+  - simpl. apply IH. intros t Ht. apply H. right. assumption.
+Qed.
+Lemma cnt_own_zero : forall tok ss, (forall s, In s ss -> s_tevent s <> tok) -> cnt_own tok ss = O.
+Proof.
+  intros tok ss H. unfold cnt_own. induction ss as [|x r IH]; simpl; [reflexivity|].
+  unfold owns at 1. destruct (Nat.eqb (s_tevent x) tok) eqn:E.
+  - apply Nat.eqb_eq in E. exfalso. apply (H x); [left; reflexivity|assumption].
+  - simpl. apply IH. intros t Ht. apply H. right. assumption.
+Qed.
+
+Lemma nth_error_news : forall es nms i ev, nth_error (es ++ map new_evt nms) i = Some ev ->
+  nth_error es i = Some ev \/ ((length es <= i)%nat /\ exists nm, ev = new_evt nm).
+Proof.
+  intros es nms i ev H. destruct (Nat.lt_ge_cases i (length es)) as [L|L].
+  - left. rewrite nth_error_app1 in H by assumption. assumption.
+  - right. split; [assumption|]. rewrite nth_error_app2 in H by assumption.
+    apply nth_error_In in H. apply in_map_iff in H. destruct H as [nm [H _]]. eauto.
+Qed.
+
+Lemma In_seq_users : forall x a n, In x (map QUser (seq a n)) -> exists t, x = QUser t /\ (a <= t < a + n)%nat.
+Proof. intros x a n H. apply in_map_iff in H. destruct H as [t [E H]]. apply in_seq in H. eauto. Qed.
+
+Lemma filter_udq_users : forall a n, filter udq (map QUser (seq a n)) = map QUser (seq a n).
+Proof. intros a n. revert a. induction n; intro a; simpl; [reflexivity|]. rewrite IHn. reflexivity. Qed.
+
+Lemma NoDup_app_intro : forall {A} (l m : list A), NoDup l -> NoDup m -> (forall x, In x l -> ~ In x m) -> NoDup (l ++ m).
+Proof.
+  intros A l m Hl Hm Hd. induction l as [|x r IH]; simpl; [assumption|]. inversion Hl; subst. constructor.
+  - rewrite in_app_iff. intros [H|H]; [contradiction|]. apply (Hd x); [left; reflexivity|assumption].
+  - apply IH; [assumption|]. intros y Hy. apply Hd. right. assumption.
+Qed.
+
+Lemma NoDup_map_inj : forall {A B} (f : A -> B) l, (forall x y, f x = f y -> x = y) -> NoDup l -> NoDup (map f l).
+Proof.
+  intros A B f l Hinj H. induction H; simpl; constructor; [|assumption].
+  intro Hin. apply in_map_iff in Hin. destruct Hin as [y [E Hy]]. apply Hinj in E. subst. contradiction.
+Qed.
+
+(* ordering of the log: adding entries of an event instance that has not passed its gate *)
+Lemma ord_ext : forall es t0 ev0 ls lg, F_ord lg -> F_res es lg ->
+  (ls = [] \/ (nth_error es t0 = Some ev0 /\ e_gate ev0 = O)) ->
+  (forall x, In x ls -> htok x = None \/ htok x = Some t0) ->
+  (forall t h k e v er, In (LRes t h k e v er) ls -> exists ev, nth_error es e = Some ev /\ (1 <= e_gate ev)%nat) ->
+  F_ord (ls ++ lg).
+Proof.
+  intros es t0 ev0 ls lg Ho Hr HG Hl Hres. unfold F_ord in *. induction ls as [|x r IH]; simpl; [assumption|].
+  destruct HG as [HG|[H0 G0]]; [discriminate|].
+  split.
+  - intros tok hi k e vals err Hin Hx.
+    assert (Ge : exists ev, nth_error es e = Some ev /\ (1 <= e_gate ev)%nat).
+    { apply in_app_iff in Hin. destruct Hin as [Hin|Hin].
+      - apply (Hres tok hi k e vals err). right. assumption.
+      - destruct (Hr _ _ _ _ _ _ Hin) as [ev [A [B _]]]. eauto. }
+    destruct Ge as [ev [A B]]. destruct (Hl x (or_introl eq_refl)) as [N|N]; [congruence|].
+    rewrite N in Hx. inversion Hx. subst e. rewrite H0 in A. inversion A. subst. lia.
+  - destruct r as [|y r']; [simpl; assumption|]. apply IH; [right; auto|intros z Hz; apply Hl; right; assumption|].
+    intros t h k e v er Hin. apply (Hres t h k e v er). right. assumption.
+Qed.
+
+(* Stage A: events appended, QUser entries pushed, log entries of the active instance t0 added *)
+Lemma EX_ext : forall X es gs ss ts q lg nms ls t0 ev0,
+  EXc X es gs ss ts q lg ->
+  (ls = [] \/ (nth_error es t0 = Some ev0 /\ e_gate ev0 = O)) ->
+  (forall x, In x ls -> htok x = None \/ htok x = Some t0) ->
+  (forall t h k e v er, In (LRes t h k e v er) ls ->
+     exists ev, nth_error es e = Some ev /\ (1 <= e_gate ev)%nat /\ e_vals ev = v /\ e_errors ev = er) ->
+  EXc X (es ++ map new_evt nms) gs ss ts (q ++ map QUser (seq (length es) (length nms))) (ls ++ lg).
+Proof.
+  intros X es gs ss ts q lg nms ls t0 ev0 [Hq [Hgi [Htask [Hwst [Hown [Hcnt [Hgate [Hqu [Hqd [Hnd [Hfl [Hres Hord]]]]]]]]]]]] HG Hl Hlr.
+  assert (Len : length (es ++ map new_evt nms) = (length es + length nms)%nat) by (rewrite app_length, map_length; reflexivity).
+  assert (Pend : forall x, In x (X ++ q ++ map QUser (seq (length es) (length nms))) ->
+                 In x (X ++ q) \/ exists t, x = QUser t /\ (length es <= t < length es + length nms)%nat).
+  { intros x Hx. rewrite app_assoc in Hx. apply in_app_iff in Hx. destruct Hx as [Hx|Hx]; [left; assumption|].
+    right. apply In_seq_users. assumption. }
+  unfold EXc. rewrite Len. repeat match goal with |- _ /\ _ => split end.
+  - intros x Hx. apply Pend in Hx. destruct Hx as [Hx|[t [E R]]].
+    + specialize (Hq x Hx). destruct x; simpl in *; lia.
+    + subst x. simpl. lia.
+  - assumption.
+  - intros t Ht. destruct (Htask t Ht) as [A B]. split; [lia|assumption].
+  - intros sid st Hs. destruct (Hwst sid st Hs) as [A [B C]]. split; [lia|].
+    split; intros e He; [specialize (B e He)|specialize (C e He)]; lia.
+  - assumption.
+  - intros tok ev Hev. apply nth_error_news in Hev. destruct Hev as [Hev|[L [nm E]]]; [exact (Hcnt _ _ Hev)|].
+    subst ev. simpl. rewrite cnt_gen_zero, cnt_own_zero; [reflexivity| |].
+    + intros s Hs. apply In_nth_error in Hs. destruct Hs as [sid Hs]. destruct (Hwst sid s Hs) as [A _]. lia.
+    + intros t Ht. destruct (Htask t Ht) as [A _]. lia.
+  - intros tok ev Hev. apply nth_error_news in Hev. destruct Hev as [Hev|[L [nm E]]]; [exact (Hgate _ _ Hev)|].
+    subst ev. unfold gate_ok. simpl. split; [auto|lia].
+  - intros tok ev Hin Hev. apply nth_error_news in Hev. destruct Hev as [Hev|[L [nm E]]].
+    + apply Pend in Hin. destruct Hin as [Hin|[t [E R]]]; [eauto|]. inversion E; subst t.
+      apply nth_error_lt in Hev. lia.
+    + subst ev. reflexivity.
+  - intros tok ev Hin Hev. apply Pend in Hin. destruct Hin as [Hin|[t [E R]]]; [|discriminate].
+    apply nth_error_news in Hev. destruct Hev as [Hev|[L [nm E]]]; [eauto|].
+    specialize (Hq _ Hin). simpl in Hq. lia.
+  - unfold F_qnodup in *. rewrite app_assoc, filter_app, filter_udq_users.
+    apply NoDup_app_intro; [assumption| |].
+    + apply NoDup_map_inj; [intros x y E; inversion E; reflexivity|apply seq_NoDup].
+    + intros x Hx Hx'. apply filter_In in Hx. destruct Hx as [Hx _]. apply In_seq_users in Hx'.
+      destruct Hx' as [t [E R]]. subst x. specialize (Hq _ Hx). simpl in Hq. lia.
+  - intros sid st Hs Ph. destruct (Hfl sid st Hs Ph) as [e [ev [A [B [C D]]]]]. exists e, ev.
+    split; [assumption|]. split; [apply nth_error_app_old; assumption|]. split; [assumption|].
+    intro Hin. apply Pend in Hin. destruct Hin as [Hin|[t [E R]]]; [contradiction|discriminate].
+  - intros tok hi k e vals err Hin. apply in_app_iff in Hin. destruct Hin as [Hin|Hin].
+    + destruct (Hlr _ _ _ _ _ _ Hin) as [ev [A B]]. exists ev. split; [apply nth_error_app_old; assumption|assumption].
+    + destruct (Hres _ _ _ _ _ _ Hin) as [ev [A B]]. exists ev. split; [apply nth_error_app_old; assumption|assumption].
+  - apply (ord_ext es t0 ev0); try assumption.
+    intros t h k e v er Hin. destruct (Hlr _ _ _ _ _ _ Hin) as [ev [A [B _]]]. eauto.
+Qed.
+
+(* ---------------------------------------------------------------- events updated at one index *)
+
+Section EvtUpd.
+Variables (X : list qitem) (es : list evt) (tev : nat) (F : evt -> evt) (ev0 : evt).
+Hypothesis H0 : nth_error es tev = Some ev0.
+
+Lemma upd_evt_inv : forall tok ev, nth_error (upd_nth tev F es) tok = Some ev ->
+  (tok = tev /\ ev = F ev0) \/ (tok <> tev /\ nth_error es tok = Some ev).
+Proof.
+  intros tok ev H. apply nth_error_upd_inv in H. destruct H as [[E [x [A B]]]|[E A]].
+  - left. subst tok. rewrite H0 in A. inversion A. subst. auto.
+  - right. auto.
+Qed.
+
+Lemma F_gate_upd : F_gate es -> gate_ok (F ev0) -> F_gate (upd_nth tev F es).
+Proof. intros H G tok ev Hev. apply upd_evt_inv in Hev. destruct Hev as [[A B]|[A B]]; [subst; assumption|eauto]. Qed.
+
+Lemma F_quser_upd : forall q, F_quser X es q -> (e_dispatched (F ev0) = true -> e_dispatched ev0 = true \/ ~ In (QUser tev) (X ++ q)) ->
+  F_quser X (upd_nth tev F es) q.
+Proof.
+  intros q H G tok ev Hin Hev. apply upd_evt_inv in Hev. destruct Hev as [[A B]|[A B]]; [|eauto].
+  subst. destruct (e_dispatched (F ev0)) eqn:D; [|reflexivity]. destruct (G eq_refl) as [G1|G1]; [|contradiction].
+  rewrite (H tev ev0 Hin H0) in G1. discriminate.
+Qed.
+
+Lemma F_qdone_upd : forall q, F_qdone X es q -> (e_gate ev0 <= e_gate (F ev0))%nat -> F_qdone X (upd_nth tev F es) q.
+Proof.
+  intros q H G tok ev Hin Hev. apply upd_evt_inv in Hev. destruct Hev as [[A B]|[A B]]; [|eauto].
+  subst. specialize (H tev ev0 Hin H0). lia.
+Qed.
+
+Lemma F_flag_upd : forall ss q, F_flag X es ss q -> (e_gate ev0 <= e_gate (F ev0))%nat -> F_flag X (upd_nth tev F es) ss q.
+Proof.
+  intros ss q H G sid st Hs Ph. destruct (H sid st Hs Ph) as [e [ev [A [B [C D]]]]].
+  destruct (Nat.eq_dec e tev) as [E|E].
+  - subst e. rewrite H0 in B. inversion B. subst ev. exists tev, (F ev0).
+    split; [assumption|]. split; [apply nth_error_upd_same; assumption|]. split; [lia|assumption].
+  - exists e, ev. split; [assumption|]. split; [rewrite nth_error_upd_other by congruence; assumption|auto].
+Qed.
+
+Lemma F_res_upd : forall lg, F_res es lg ->
+  ((1 <= e_gate ev0)%nat -> (1 <= e_gate (F ev0))%nat /\ e_vals (F ev0) = e_vals ev0 /\ e_errors (F ev0) = e_errors ev0) ->
+  F_res (upd_nth tev F es) lg.
+Proof.
+  intros lg H G tok hi k e vals err Hin. destruct (H _ _ _ _ _ _ Hin) as [ev [A [B [C D]]]].
+  destruct (Nat.eq_dec e tev) as [E|E].
+  - subst e. rewrite H0 in A. inversion A. subst ev. destruct (G B) as [G1 [G2 G3]].
+    exists (F ev0). split; [apply nth_error_upd_same; assumption|]. split; [assumption|]. split; congruence.
+  - exists ev. split; [rewrite nth_error_upd_other by congruence; assumption|auto].
+Qed.
+
+Lemma F_cnt_upd : forall ss ts ss' ts', F_cnt es ss ts ->
+  (forall tok, tok <> tev -> cnt_gen tok ts' = cnt_gen tok ts /\ cnt_own tok ss' = cnt_own tok ss) ->
+  e_waiting (F ev0) = Z.of_nat (cnt_gen tev ts') + 2 * Z.of_nat (cnt_own tev ss') ->
+  F_cnt (upd_nth tev F es) ss' ts'.
+Proof.
+  intros ss ts ss' ts' H Ho Ht tok ev Hev. apply upd_evt_inv in Hev. destruct Hev as [[A B]|[A B]].
+  - subst. assumption.
+  - destruct (Ho tok A) as [C1 C2]. rewrite C1, C2. apply H. assumption.
+Qed.
+End EvtUpd.
+
+(* ---------------------------------------------------------------- counts under the changes processTask makes *)
+
+Lemma cnt_gen_remove : forall tok ts t, NoDup ts -> In t ts ->
+  (cnt_gen tok (filter (fun u => negb (task_eqb t u)) ts) + b2n (gen_for tok t) = cnt_gen tok ts)%nat.
+Proof. intros. unfold cnt_gen. apply filter_len_remove; assumption. Qed.
+Lemma cnt_gen_snoc : forall tok ts t, cnt_gen tok (ts ++ [t]) = (cnt_gen tok ts + b2n (gen_for tok t))%nat.
+Proof. intros. unfold cnt_gen. apply filter_len_snoc. Qed.
+Lemma cnt_own_snoc : forall tok ss s, cnt_own tok (ss ++ [s]) = (cnt_own tok ss + b2n (owns tok s))%nat.
+Proof. intros. unfold cnt_own. apply filter_len_snoc. Qed.
+Lemma cnt_own_upd : forall tok ss sid f st, nth_error ss sid = Some st ->
+  (cnt_own tok (upd_nth sid f ss) + b2n (owns tok st) = cnt_own tok ss + b2n (owns tok (f st)))%nat.
+Proof. intros. unfold cnt_own. apply filter_len_upd. assumption. Qed.
+
+Lemma gen_for_gen : forall tok tev g p, gen_for tok (mk_task tev (RGen g) p) = Nat.eqb tev tok.
+Proof. intros. unfold gen_for. simpl. rewrite andb_true_r. reflexivity. Qed.
+Lemma gen_for_other : forall tok t, is_gen (t_ref t) = false -> gen_for tok t = false.
+Proof. intros. unfold gen_for. rewrite H. apply andb_false_r. Qed.
+
+Definition vals_only (F : evt -> evt) : Prop :=
+  forall ev, e_waiting (F ev) = e_waiting ev /\ e_gate (F ev) = e_gate ev /\ e_dispatched (F ev) = e_dispatched ev.
+
+Lemma vals_only_oval : forall v, vals_only (add_oval v).
+Proof. intros [v|] ev; simpl; auto. Qed.
+Lemma vals_only_err : vals_only add_err.
+Proof. intro ev; simpl; auto. Qed.
+Lemma vals_only_alert : vals_only set_alert.
+Proof. intro ev; simpl; auto. Qed.
+
+Lemma F_gi_upd : forall gs g f gn, F_gi gs -> nth_error gs g = Some gn ->
+  (g_rest (f gn) = None -> g_atcall (f gn) = false) -> F_gi (upd_nth g f gs).
+Proof.
+  intros gs g f gn H Hg Hf g0 gn0 H0 R. apply nth_error_upd_inv in H0. destruct H0 as [[E [x [A B]]]|[E A]].
+  - subst g0. rewrite Hg in A. inversion A. subst. auto.
+  - eauto.
+Qed.
+
+(* events whose only change is in value / alert; generators other than g untouched, g keeps "not at a call" *)
+Lemma EX_vals : forall X es gs ss ts q lg tev F ev0,
+  EXc X es gs ss ts q lg -> nth_error es tev = Some ev0 -> vals_only F ->
+  (e_gate ev0 = O \/ (e_vals (F ev0) = e_vals ev0 /\ e_errors (F ev0) = e_errors ev0)) ->
+  EXc X (upd_nth tev F es) gs ss ts q lg.
+Proof.
+  intros X es gs ss ts q lg tev F ev0 [Hq [Hgi [Htask [Hwst [Hown [Hcnt [Hgate [Hqu [Hqd [Hnd [Hfl [Hres Hord]]]]]]]]]]]] H0 VO G.
+  destruct (VO ev0) as [V1 [V2 V3]].
+  unfold EXc. rewrite length_upd_nth. repeat match goal with |- _ /\ _ => split end; try assumption.
+  - apply (F_cnt_upd es tev F ev0 H0 ss ts); [assumption|auto|]. rewrite V1. apply Hcnt. assumption.
+  - apply (F_gate_upd es tev F ev0 H0); [assumption|]. specialize (Hgate tev ev0 H0). unfold gate_ok in *. rewrite V1, V2, V3. assumption.
+  - apply (F_quser_upd X es tev F ev0 H0); [assumption|]. rewrite V3. auto.
+  - apply (F_qdone_upd X es tev F ev0 H0); [assumption|lia].
+  - apply (F_flag_upd X es tev F ev0 H0); [assumption|lia].
+  - apply (F_res_upd es tev F ev0 H0); [assumption|]. intro L. destruct G as [G|[G1 G2]]; [lia|]. split; [lia|auto].
+Qed.
+
+(* the generator g is stepped and stays the object of its own RGen task *)
+Lemma EX_gen_same : forall X es gs ss ts q lg g f gn t,
+  EXc X es gs ss ts q lg -> In t ts -> t_ref t = RGen g -> nth_error gs g = Some gn ->
+  g_tok (f gn) = g_tok gn -> g_atcall (f gn) = false ->
+  EXc X es (upd_nth g f gs) ss ts q lg.
+Proof.
+  intros X es gs ss ts q lg g f gn t [Hq [Hgi [Htask [Hwst [Hown [Hcnt [Hgate [Hqu [Hqd [Hnd [Hfl [Hres Hord]]]]]]]]]]]] Hin R Hg F1 F2.
+  unfold EXc. repeat match goal with |- _ /\ _ => split end; try assumption.
+  - apply (F_gi_upd gs g f gn); auto.
+  - intros u Hu. destruct (Htask u Hu) as [A B]. split; [assumption|]. intros g0 R0. destruct (B g0 R0) as [gn0 [C [D E]]].
+    destruct (Nat.eq_dec g0 g) as [Eg|Eg].
+    + subst g0. rewrite Hg in C. inversion C. subst gn0. exists (f gn). split; [apply nth_error_upd_same; assumption|]. split; congruence.
+    + exists gn0. split; [rewrite nth_error_upd_other by congruence; assumption|auto].
+  - intros sid st Hs Ow. destruct (Hown sid st Hs Ow) as [[gn0 [A [B C]]] [D E]].
+    split; [|split; assumption]. exists gn0. split; [|auto].
+    rewrite nth_error_upd_other; [assumption|]. intro Eg. apply (D t Hin). congruence.
+Qed.
+
+Lemma active_gate : forall es ss ts tev ev0, F_cnt es ss ts -> F_gate es -> nth_error es tev = Some ev0 ->
+  (0 < cnt_gen tev ts + cnt_own tev ss)%nat -> e_dispatched ev0 = true /\ e_gate ev0 = O.
+Proof.
+  intros es ss ts tev ev0 Hc Hg H0 P. specialize (Hc tev ev0 H0). destruct (Hg tev ev0 H0) as [G1 G2].
+  split.
+  - destruct (e_dispatched ev0); [reflexivity|]. destruct (G1 eq_refl). lia.
+  - destruct (e_gate ev0) eqn:E; [reflexivity|]. assert (L : (1 <= S n)%nat) by lia. destruct (G2 L). lia.
+Qed.
+
+Lemma gate_ok_active : forall ev d, e_dispatched ev = true -> e_gate ev = O -> gate_ok (add_wait d ev).
+Proof. intros ev d D G. unfold gate_ok. simpl. rewrite D, G. split; [discriminate|lia]. Qed.
+
+Lemma cnt_pos_gen : forall tev ts t, In t ts -> gen_for tev t = true -> (0 < cnt_gen tev ts)%nat.
+Proof.
+  intros tev ts t Hin G. unfold cnt_gen. induction ts as [|x r IH]; [destruct Hin|]. simpl.
+  destruct Hin as [E|Hin]; [subst; rewrite G; simpl; lia|]. destruct (gen_for tev x); simpl; [lia|auto].
+Qed.
+
+(* the events of the standard shape "waiting changes, nothing else" *)
+Lemma evt_fields_wait : forall X es ss q lg tev d ev0,
+  nth_error es tev = Some ev0 -> e_dispatched ev0 = true -> e_gate ev0 = O ->
+  F_gate es -> F_quser X es q -> F_qdone X es q -> F_flag X es ss q -> F_res es lg ->
+  F_gate (upd_nth tev (add_wait d) es) /\ F_quser X (upd_nth tev (add_wait d) es) q /\
+  F_qdone X (upd_nth tev (add_wait d) es) q /\ F_flag X (upd_nth tev (add_wait d) es) ss q /\
+  F_res (upd_nth tev (add_wait d) es) lg.
+Proof.
+  intros X es ss q lg tev d ev0 H0 D G Hgate Hqu Hqd Hfl Hres.
+  split; [apply (F_gate_upd es tev _ ev0 H0); [assumption|apply gate_ok_active; assumption]|].
+  split; [apply (F_quser_upd X es tev _ ev0 H0); [assumption|simpl; auto]|].
+  split; [apply (F_qdone_upd X es tev _ ev0 H0); [assumption|simpl; lia]|].
+  split; [apply (F_flag_upd X es tev _ ev0 H0); [assumption|simpl; lia]|].
+  apply (F_res_upd es tev _ ev0 H0); [assumption|]. intro L. lia.
+Qed.
+
+(* L3: a handler generator ends: its task is removed and one waitingHandlers count released *)
+Lemma EX_task_done : forall X es gs ss ts q lg t tev g ev0,
+  EXc X es gs ss ts q lg -> NoDup ts -> In t ts -> t_ref t = RGen g -> t_ev t = tev ->
+  nth_error es tev = Some ev0 ->
+  EXc X (upd_nth tev (add_wait (-1)) es) gs ss (filter (fun u => negb (task_eqb t u)) ts) q lg.
+Proof.
+  intros X es gs ss ts q lg t tev g ev0 [Hq [Hgi [Htask [Hwst [Hown [Hcnt [Hgate [Hqu [Hqd [Hnd [Hfl [Hres Hord]]]]]]]]]]]] ND Hin R Te H0.
+  assert (Gf : gen_for tev t = true). { unfold gen_for. rewrite Te, Nat.eqb_refl, R. reflexivity. }
+  destruct (active_gate es ss ts tev ev0 Hcnt Hgate H0) as [D G]. { pose proof (cnt_pos_gen tev ts t Hin Gf). lia. }
+  destruct (evt_fields_wait X es ss q lg tev (-1) ev0 H0 D G Hgate Hqu Hqd Hfl Hres) as [P1 [P2 [P3 [P4 P5]]]].
+  unfold EXc. rewrite length_upd_nth. repeat match goal with |- _ /\ _ => split end; try assumption.
+  - intros u Hu. apply In_unreg in Hu. apply Htask. tauto.
+  - intros sid st Hs Ow. destruct (Hown sid st Hs Ow) as [A [B C]]. split; [assumption|]. split; [|assumption].
+    intros u Hu. apply In_unreg in Hu. apply B. tauto.
+  - apply (F_cnt_upd es tev _ ev0 H0 ss ts); [assumption| |].
+    + intros tok Ne. split; [|reflexivity]. pose proof (cnt_gen_remove tok ts t ND Hin) as C.
+      assert (gen_for tok t = false). { unfold gen_for. rewrite Te. apply Nat.eqb_neq in Ne. rewrite Nat.eqb_sym, Ne. reflexivity. }
+      rewrite H in C. simpl in C. lia.
+    + unfold add_wait; cbn [e_waiting]. rewrite (Hcnt tev ev0 H0). pose proof (cnt_gen_remove tev ts t ND Hin) as C. rewrite Gf in C. simpl in C. lia.
+Qed.
+
+(* L7: a task that is not a handler generator (wait generator, pending TimeoutError) leaves the set *)
+Lemma EX_remove_nongen : forall X es gs ss ts q lg t,
+  EXc X es gs ss ts q lg -> is_gen (t_ref t) = false ->
+  EXc X es gs ss (filter (fun u => negb (task_eqb t u)) ts) q lg.
+Proof.
+  intros X es gs ss ts q lg t [Hq [Hgi [Htask [Hwst [Hown [Hcnt [Hgate [Hqu [Hqd [Hnd [Hfl [Hres Hord]]]]]]]]]]]] Ng.
+  unfold EXc. repeat match goal with |- _ /\ _ => split end; try assumption.
+  - intros u Hu. apply In_unreg in Hu. apply Htask. tauto.
+  - intros sid st Hs Ow. destruct (Hown sid st Hs Ow) as [A [B C]]. split; [assumption|]. split; [|assumption].
+    intros u Hu. apply In_unreg in Hu. apply B. tauto.
+  - intros tok ev Hev. rewrite (Hcnt tok ev Hev). f_equal. f_equal. unfold cnt_gen.
+    clear -Ng. induction ts as [|x r IH]; simpl; [reflexivity|]. destruct (task_eqb t x) eqn:E; simpl.
+    + apply task_eqb_eq in E. subst x. rewrite (gen_for_other tok t Ng). assumption.
+    + destruct (gen_for tok x); simpl; congruence.
+Qed.
+
+(* L11: such a task enters the set *)
+Lemma EX_add_nongen : forall X es gs ss ts q lg t,
+  EXc X es gs ss ts q lg -> is_gen (t_ref t) = false -> (t_ev t < length es)%nat ->
+  EXc X es gs ss (ts ++ [t]) q lg.
+Proof.
+  intros X es gs ss ts q lg t [Hq [Hgi [Htask [Hwst [Hown [Hcnt [Hgate [Hqu [Hqd [Hnd [Hfl [Hres Hord]]]]]]]]]]]] Ng Rg.
+  unfold EXc. repeat match goal with |- _ /\ _ => split end; try assumption.
+  - intros u Hu. apply in_app_iff in Hu. destruct Hu as [Hu|[Hu|[]]]; [auto|]. subst u. split; [assumption|].
+    intros g R. rewrite R in Ng. discriminate.
+  - intros sid st Hs Ow. destruct (Hown sid st Hs Ow) as [A [B C]]. split; [assumption|]. split; [|assumption].
+    intros u Hu. apply in_app_iff in Hu. destruct Hu as [Hu|[Hu|[]]]; [auto|]. subst u. intro R. rewrite R in Ng. discriminate.
+  - intros tok ev Hev. rewrite (Hcnt tok ev Hev), cnt_gen_snoc, (gen_for_other tok t Ng). simpl. f_equal. f_equal. lia.
+Qed.
+
+Lemma F_flag_snoc : forall X es ss q nw, F_flag X es ss q -> s_ph nw <> Flagged -> F_flag X es (ss ++ [nw]) q.
+Proof.
+  intros X es ss q nw H N sid st Hs Ph. apply nth_error_snoc in Hs. destruct Hs as [[Hs _]|[_ E]]; [eauto|]. subst. contradiction.
+Qed.
+
+Lemma F_flag_upd_wst : forall X es ss q sid R st, F_flag X es ss q -> nth_error ss sid = Some st ->
+  s_ph (R st) <> Flagged -> F_flag X es (upd_nth sid R ss) q.
+Proof.
+  intros X es ss q sid R st H Hs N s2 st2 H2 Ph. apply nth_error_upd_inv in H2. destruct H2 as [[E [x [A B]]]|[E A]].
+  - subst s2. rewrite Hs in A. inversion A. subst. contradiction.
+  - eauto.
+Qed.
+
+Definition keeps_ids (R : wst -> wst) : Prop :=
+  forall st, s_tevent (R st) = s_tevent st /\ s_parent (R st) = s_parent st /\ s_event (R st) = s_event st /\ s_callval (R st) = s_callval st.
+
+Lemma F_wst_upd : forall n ss sid R, F_wst n ss -> keeps_ids R -> F_wst n (upd_nth sid R ss).
+Proof.
+  intros n ss sid R H K s2 st2 H2. apply nth_error_upd_inv in H2. destruct H2 as [[E [x [A B]]]|[E A]]; [|eauto].
+  subst. destruct (K x) as [K1 [K2 [K3 K4]]]. rewrite K1, K3, K4. eauto.
+Qed.
+
+Lemma F_wst_snoc : forall n ss nw, F_wst n ss -> (s_tevent nw < n)%nat -> (forall e, s_event nw = Some e -> (e < n)%nat) ->
+  (forall e, s_callval nw = Some e -> (e < n)%nat) -> F_wst n (ss ++ [nw]).
+Proof.
+  intros n ss nw H A B C sid st Hs. apply nth_error_snoc in Hs. destruct Hs as [[Hs _]|[_ E]]; [eauto|]. subst. auto.
+Qed.
+
+(* L4: a handler generator yields a call/wait: its task leaves, an owning wait appears, one more count *)
+Lemma EX_gen_to_wait : forall X es gs ss ts q lg t tev g gn f ev0 nw,
+  EXc X es gs ss ts q lg -> NoDup ts -> In t ts -> t_ref t = RGen g -> t_ev t = tev ->
+  (forall u, In u ts -> t_ref u = RGen g -> u = t) ->
+  nth_error gs g = Some gn -> g_tok (f gn) = g_tok gn -> g_atcall (f gn) = true ->
+  (g_rest (f gn) = None -> g_atcall (f gn) = false) ->
+  nth_error es tev = Some ev0 ->
+  s_tevent nw = tev -> s_parent nw = g -> s_resumes nw = O -> s_ph nw = Armed -> s_event nw = None ->
+  (forall e, s_callval nw = Some e -> (e < length es)%nat) ->
+  EXc X (upd_nth tev (add_wait 1) es) (upd_nth g f gs) (ss ++ [nw]) (filter (fun u => negb (task_eqb t u)) ts) q lg.
+Proof.
+  intros X es gs ss ts q lg t tev g gn f ev0 nw [Hq [Hgi [Htask [Hwst [Hown [Hcnt [Hgate [Hqu [Hqd [Hnd [Hfl [Hres Hord]]]]]]]]]]]]
+    ND Hin R Te U Hg F1 F2 F3 H0 N1 N2 N3 N4 N5 N6.
+  assert (Gf : gen_for tev t = true). { unfold gen_for. rewrite Te, Nat.eqb_refl, R. reflexivity. }
+  destruct (active_gate es ss ts tev ev0 Hcnt Hgate H0) as [D G]. { pose proof (cnt_pos_gen tev ts t Hin Gf). lia. }
+  destruct (evt_fields_wait X es ss q lg tev 1 ev0 H0 D G Hgate Hqu Hqd Hfl Hres) as [P1 [P2 [P3 [P4 P5]]]].
+  destruct (Htask t Hin) as [Tr Tg]. destruct (Tg g R) as [gn' [Tg1 [Tg2 Tg3]]]. rewrite Hg in Tg1. inversion Tg1. subst gn'.
+  assert (Own_ne : forall sid st, nth_error ss sid = Some st -> owning st = true -> s_parent st <> g).
+  { intros sid st Hs Ow E. destruct (Hown sid st Hs Ow) as [_ [B _]]. apply (B t Hin). congruence. }
+  assert (Onw : owning nw = true) by (unfold owning; rewrite N3; reflexivity).
+  unfold EXc. rewrite length_upd_nth. repeat match goal with |- _ /\ _ => split end; try assumption.
+  - apply (F_gi_upd gs g f gn); assumption.
+  - intros u Hu. apply In_unreg in Hu. destruct Hu as [Hu Ne]. destruct (Htask u Hu) as [A B]. split; [assumption|].
+    intros g0 R0. destruct (B g0 R0) as [gn0 [C1 C2]]. exists gn0. split; [|assumption].
+    rewrite nth_error_upd_other; [assumption|]. intro E. subst g0. apply Ne. apply U; assumption.
+  - apply F_wst_snoc; [assumption|lia| |assumption]. intros e He. rewrite N5 in He. discriminate.
+  - intros sid st Hs Ow. apply nth_error_snoc in Hs. destruct Hs as [[Hs Hl]|[Hl E]].
+    + destruct (Hown sid st Hs Ow) as [[gn0 [A1 A2]] [B C]]. split; [|split].
+      * exists gn0. split; [|assumption]. rewrite nth_error_upd_other; [assumption|]. intro E. apply (Own_ne sid st Hs Ow). auto.
+      * intros u Hu. apply In_unreg in Hu. apply B. tauto.
+      * intros sid' st' Ne Hs' Ow'. apply nth_error_snoc in Hs'. destruct Hs' as [[Hs' _]|[_ E]]; [eauto|].
+        subst st'. rewrite N2. intro E. apply (Own_ne sid st Hs Ow). auto.
+    + subst st sid. split; [|split].
+      * exists (f gn). rewrite N2. split; [apply nth_error_upd_same; assumption|]. split; [congruence|assumption].
+      * intros u Hu. apply In_unreg in Hu. destruct Hu as [Hu Ne]. rewrite N2. intro E. apply Ne. apply U; assumption.
+      * intros sid' st' Ne Hs' Ow'. apply nth_error_snoc in Hs'. destruct Hs' as [[Hs' _]|[E _]]; [|congruence].
+        rewrite N2. apply (Own_ne sid' st' Hs' Ow').
+  - apply (F_cnt_upd es tev _ ev0 H0 ss ts); [assumption| |].
+    + intros tok Ne. pose proof (cnt_gen_remove tok ts t ND Hin) as C.
+      assert (Gz : gen_for tok t = false). { unfold gen_for. rewrite Te. apply Nat.eqb_neq in Ne. rewrite Nat.eqb_sym, Ne. reflexivity. }
+      rewrite Gz in C. simpl in C. split; [lia|]. rewrite cnt_own_snoc.
+      assert (Oz : owns tok nw = false). { unfold owns. rewrite N1. apply Nat.eqb_neq in Ne. rewrite Nat.eqb_sym, Ne. reflexivity. }
+      rewrite Oz. simpl. lia.
+    + unfold add_wait; cbn [e_waiting]. rewrite (Hcnt tev ev0 H0). pose proof (cnt_gen_remove tev ts t ND Hin) as C. rewrite Gf in C.
+      rewrite cnt_own_snoc. assert (Oz : owns tev nw = true). { unfold owns. rewrite N1, Nat.eqb_refl, Onw. reflexivity. }
+      rewrite Oz. unfold b2n in *. lia.
+  - apply F_flag_snoc; [assumption|]. rewrite N4. discriminate.
+Qed.
+
+(* L5: the generator suspended in an owning wait is stepped and suspends in a call again *)
+Lemma EX_gen_owned_same : forall X es gs ss ts q lg sid st g gn f,
+  EXc X es gs ss ts q lg -> nth_error ss sid = Some st -> owning st = true -> s_parent st = g ->
+  nth_error gs g = Some gn -> g_tok (f gn) = g_tok gn -> g_atcall (f gn) = true ->
+  (g_rest (f gn) = None -> g_atcall (f gn) = false) ->
+  EXc X es (upd_nth g f gs) ss ts q lg.
+Proof.
+  intros X es gs ss ts q lg sid st g gn f [Hq [Hgi [Htask [Hwst [Hown [Hcnt [Hgate [Hqu [Hqd [Hnd [Hfl [Hres Hord]]]]]]]]]]]] Hs Ow Pg Hg F1 F2 F3.
+  destruct (Hown sid st Hs Ow) as [[gn0 [A1 [A2 A3]]] [B C]]. rewrite Pg, Hg in A1. inversion A1. subst gn0.
+  unfold EXc. repeat match goal with |- _ /\ _ => split end; try assumption.
+  - apply (F_gi_upd gs g f gn); assumption.
+  - intros u Hu. destruct (Htask u Hu) as [T1 T2]. split; [assumption|]. intros g0 R0. destruct (T2 g0 R0) as [gn0 [C1 C2]].
+    exists gn0. split; [|assumption]. rewrite nth_error_upd_other; [assumption|]. intro E. subst g0. apply (B u Hu). congruence.
+  - intros sid' st' Hs' Ow'. destruct (Hown sid' st' Hs' Ow') as [[gn0 [D1 [D2 D3]]] [D4 D5]]. split; [|split; assumption].
+    destruct (Nat.eq_dec sid' sid) as [E|E].
+    + subst sid'. rewrite Hs in Hs'. inversion Hs'. subst st'. exists (f gn). rewrite Pg.
+      split; [apply nth_error_upd_same; assumption|]. split; [congruence|assumption].
+    + exists gn0. split; [|auto]. rewrite nth_error_upd_other; [assumption|]. rewrite <- Pg. intro E'. apply (C sid' st' E Hs' Ow'). auto.
+Qed.
+
+Lemma owning_false_upd : forall ss sid R st sid' st', nth_error ss sid = Some st -> owning (R st) = false ->
+  nth_error (upd_nth sid R ss) sid' = Some st' -> owning st' = true -> sid' <> sid /\ nth_error ss sid' = Some st'.
+Proof.
+  intros ss sid R st sid' st' Hs Of H Ow. apply nth_error_upd_inv in H. destruct H as [[E [x [A B]]]|[E A]].
+  - subst. rewrite Hs in A. inversion A. subst. congruence.
+  - auto.
+Qed.
+
+(* L6: the owning wait sid is consumed and its handler immediately suspends in a new wait *)
+Lemma EX_swap_wait : forall X es gs ss ts q lg sid st R nw,
+  EXc X es gs ss ts q lg -> nth_error ss sid = Some st -> owning st = true ->
+  keeps_ids R -> owning (R st) = false -> s_ph (R st) <> Flagged ->
+  s_tevent nw = s_tevent st -> s_parent nw = s_parent st -> s_resumes nw = O -> s_ph nw = Armed -> s_event nw = None ->
+  (forall e, s_callval nw = Some e -> (e < length es)%nat) ->
+  EXc X es gs (upd_nth sid R ss ++ [nw]) ts q lg.
+Proof.
+  intros X es gs ss ts q lg sid st R nw [Hq [Hgi [Htask [Hwst [Hown [Hcnt [Hgate [Hqu [Hqd [Hnd [Hfl [Hres Hord]]]]]]]]]]]]
+    Hs Ow K Of Nf N1 N2 N3 N4 N5 N6.
+  destruct (Hown sid st Hs Ow) as [[gn [A1 [A2 A3]]] [B C]]. destruct (Hwst sid st Hs) as [W1 _].
+  assert (Onw : owning nw = true) by (unfold owning; rewrite N3; reflexivity).
+  unfold EXc. repeat match goal with |- _ /\ _ => split end; try assumption.
+  - apply F_wst_snoc; [apply F_wst_upd; assumption|lia| |assumption]. intros e He. rewrite N5 in He. discriminate.
+  - intros s1 st1 H1 O1. apply nth_error_snoc in H1. destruct H1 as [[H1 L1]|[L1 E1]].
+    + destruct (owning_false_upd ss sid R st s1 st1 Hs Of H1 O1) as [Ne H1']. destruct (Hown s1 st1 H1' O1) as [D1 [D2 D3]].
+      split; [assumption|]. split; [assumption|]. intros s2 st2 Ne2 H2 O2. apply nth_error_snoc in H2. destruct H2 as [[H2 _]|[_ E2]].
+      * destruct (owning_false_upd ss sid R st s2 st2 Hs Of H2 O2) as [_ H2']. eauto.
+      * subst st2. rewrite N2. intro E. apply (C s1 st1 Ne H1' O1). auto.
+    + subst st1 s1. split; [|split].
+      * exists gn. rewrite N2, N1. auto.
+      * rewrite N2. assumption.
+      * intros s2 st2 Ne2 H2 O2. apply nth_error_snoc in H2. destruct H2 as [[H2 L2]|[E2 _]]; [|congruence].
+        destruct (owning_false_upd ss sid R st s2 st2 Hs Of H2 O2) as [Ne H2']. rewrite N2. apply (C s2 st2 Ne H2' O2).
+  - intros tok ev Hev. rewrite (Hcnt tok ev Hev). f_equal. f_equal. f_equal. rewrite cnt_own_snoc.
+    pose proof (cnt_own_upd tok ss sid R st Hs) as U.
+    assert (O1 : owns tok (R st) = false). { unfold owns. rewrite Of. apply andb_false_r. }
+    assert (O2 : owns tok nw = owns tok st). { unfold owns. rewrite N1, Onw, Ow. reflexivity. }
+    rewrite O1 in U. rewrite O2. unfold b2n in *. destruct (owns tok st); lia.
+  - apply F_flag_snoc; [apply (F_flag_upd_wst X es ss q sid R st); assumption|]. rewrite N4. discriminate.
+Qed.
+
+(* L8: the owning wait sid is consumed and its handler goes on as an ordinary task *)
+Lemma EX_wait_to_gen : forall X es gs ss ts q lg sid st R g gn f ev0 tev,
+  EXc X es gs ss ts q lg -> nth_error ss sid = Some st -> owning st = true -> s_parent st = g -> s_tevent st = tev ->
+  keeps_ids R -> owning (R st) = false -> s_ph (R st) <> Flagged ->
+  nth_error gs g = Some gn -> g_tok (f gn) = g_tok gn -> g_atcall (f gn) = false ->
+  nth_error es tev = Some ev0 ->
+  EXc X (upd_nth tev (add_wait (-1)) es) (upd_nth g f gs) (upd_nth sid R ss) (ts ++ [mk_task tev (RGen g) None]) q lg.
+Proof.
+  intros X es gs ss ts q lg sid st R g gn f ev0 tev [Hq [Hgi [Htask [Hwst [Hown [Hcnt [Hgate [Hqu [Hqd [Hnd [Hfl [Hres Hord]]]]]]]]]]]]
+    Hs Ow Pg Te K Of Nf Hg F1 F2 H0.
+  destruct (Hown sid st Hs Ow) as [[gn0 [A1 [A2 A3]]] [B C]]. rewrite Pg, Hg in A1. inversion A1. subst gn0.
+  assert (Ot : owns tev st = true). { unfold owns. rewrite Te, Nat.eqb_refl, Ow. reflexivity. }
+  assert (Pos : (0 < cnt_own tev ss)%nat).
+  { unfold cnt_own. clear -Hs Ot. revert sid Hs. induction ss as [|x r IH]; intros [|sid] Hs; simpl in *; try discriminate.
+    - inversion Hs. subst. rewrite Ot. simpl. lia.
+    - specialize (IH sid Hs). destruct (owns tev x); simpl; lia. }
+  destruct (active_gate es ss ts tev ev0 Hcnt Hgate H0) as [D G]; [lia|].
+  destruct (evt_fields_wait X es ss q lg tev (-1) ev0 H0 D G Hgate Hqu Hqd Hfl Hres) as [P1 [P2 [P3 [P4 P5]]]].
+  destruct (Hwst sid st Hs) as [W1 _].
+  unfold EXc. rewrite length_upd_nth. repeat match goal with |- _ /\ _ => split end; try assumption.
+  - apply (F_gi_upd gs g f gn); [assumption|assumption|auto].
+  - intros u Hu. apply in_app_iff in Hu. destruct Hu as [Hu|[Hu|[]]].
+    + destruct (Htask u Hu) as [T1 T2]. split; [assumption|]. intros g0 R0. destruct (T2 g0 R0) as [gn0 [C1 C2]].
+      exists gn0. split; [|assumption]. rewrite nth_error_upd_other; [assumption|]. intro E. subst g0. apply (B u Hu). congruence.
+    + subst u. simpl. split; [lia|]. intros g0 R0. inversion R0. subst g0. exists (f gn).
+      split; [apply nth_error_upd_same; assumption|]. split; [congruence|assumption].
+  - apply F_wst_upd; assumption.
+  - intros s1 st1 H1 O1. destruct (owning_false_upd ss sid R st s1 st1 Hs Of H1 O1) as [Ne H1'].
+    destruct (Hown s1 st1 H1' O1) as [[gn1 [D1 D2]] [D3 D4]].
+    assert (Pne : s_parent st1 <> g). { rewrite <- Pg. intro E. apply (C s1 st1 Ne H1' O1). auto. }
+    split; [|split].
+    + exists gn1. split; [|assumption]. rewrite nth_error_upd_other; [assumption|congruence].
+    + intros u Hu. apply in_app_iff in Hu. destruct Hu as [Hu|[Hu|[]]]; [auto|]. subst u. simpl. congruence.
+    + intros s2 st2 Ne2 H2 O2. destruct (owning_false_upd ss sid R st s2 st2 Hs Of H2 O2) as [_ H2']. eauto.
+  - apply (F_cnt_upd es tev _ ev0 H0 ss ts); [assumption| |].
+    + intros tok Ne. rewrite cnt_gen_snoc, gen_for_gen. apply Nat.eqb_neq in Ne. rewrite Nat.eqb_sym, Ne. simpl.
+      split; [lia|]. pose proof (cnt_own_upd tok ss sid R st Hs) as U.
+      assert (O1 : owns tok (R st) = false). { unfold owns. rewrite Of. apply andb_false_r. }
+      assert (O2 : owns tok st = false). { unfold owns. rewrite Te, Nat.eqb_sym, Ne. reflexivity. }
+      rewrite O1, O2 in U. simpl in U. lia.
+    + unfold add_wait; cbn [e_waiting]. rewrite (Hcnt tev ev0 H0), cnt_gen_snoc, gen_for_gen, Nat.eqb_refl.
+      pose proof (cnt_own_upd tev ss sid R st Hs) as U.
+      assert (O1 : owns tev (R st) = false). { unfold owns. rewrite Of. apply andb_false_r. }
+      rewrite O1, Ot in U. unfold b2n in *. lia.
+  - apply (F_flag_upd_wst X _ ss q sid R st); assumption.
+Qed.
+
+(* L9: the owning wait sid is consumed and its handler raises while being resumed *)
+Lemma EX_wait_raise : forall X es gs ss ts q lg sid st R g gn f ev0 tev,
+  EXc X es gs ss ts q lg -> nth_error ss sid = Some st -> owning st = true -> s_parent st = g -> s_tevent st = tev ->
+  keeps_ids R -> owning (R st) = false -> s_ph (R st) <> Flagged ->
+  nth_error gs g = Some gn -> g_tok (f gn) = g_tok gn -> g_atcall (f gn) = false ->
+  nth_error es tev = Some ev0 ->
+  EXc X (upd_nth tev (add_wait (-2)) es) (upd_nth g f gs) (upd_nth sid R ss) ts q lg.
+Proof.
+  intros X es gs ss ts q lg sid st R g gn f ev0 tev [Hq [Hgi [Htask [Hwst [Hown [Hcnt [Hgate [Hqu [Hqd [Hnd [Hfl [Hres Hord]]]]]]]]]]]]
+    Hs Ow Pg Te K Of Nf Hg F1 F2 H0.
+  destruct (Hown sid st Hs Ow) as [[gn0 [A1 [A2 A3]]] [B C]]. rewrite Pg, Hg in A1. inversion A1. subst gn0.
+  assert (Ot : owns tev st = true). { unfold owns. rewrite Te, Nat.eqb_refl, Ow. reflexivity. }
+  assert (Pos : (0 < cnt_own tev ss)%nat).
+  { unfold cnt_own. clear -Hs Ot. revert sid Hs. induction ss as [|x r IH]; intros [|sid] Hs; simpl in *; try discriminate.
+    - inversion Hs. subst. rewrite Ot. simpl. lia.
+    - specialize (IH sid Hs). destruct (owns tev x); simpl; lia. }
+  destruct (active_gate es ss ts tev ev0 Hcnt Hgate H0) as [D G]; [lia|].
+  destruct (evt_fields_wait X es ss q lg tev (-2) ev0 H0 D G Hgate Hqu Hqd Hfl Hres) as [P1 [P2 [P3 [P4 P5]]]].
+  unfold EXc. rewrite length_upd_nth. repeat match goal with |- _ /\ _ => split end; try assumption.
+  - apply (F_gi_upd gs g f gn); [assumption|assumption|auto].
+  - intros u Hu. destruct (Htask u Hu) as [T1 T2]. split; [assumption|]. intros g0 R0. destruct (T2 g0 R0) as [gn0 [C1 C2]].
+    exists gn0. split; [|assumption]. rewrite nth_error_upd_other; [assumption|]. intro E. subst g0. apply (B u Hu). congruence.
+  - apply F_wst_upd; assumption.
+  - intros s1 st1 H1 O1. destruct (owning_false_upd ss sid R st s1 st1 Hs Of H1 O1) as [Ne H1'].
+    destruct (Hown s1 st1 H1' O1) as [[gn1 [D1 D2]] [D3 D4]].
+    assert (Pne : s_parent st1 <> g). { rewrite <- Pg. intro E. apply (C s1 st1 Ne H1' O1). auto. }
+    split; [|split].
+    + exists gn1. split; [|assumption]. rewrite nth_error_upd_other; [assumption|congruence].
+    + assumption.
+    + intros s2 st2 Ne2 H2 O2. destruct (owning_false_upd ss sid R st s2 st2 Hs Of H2 O2) as [_ H2']. eauto.
+  - apply (F_cnt_upd es tev _ ev0 H0 ss ts); [assumption| |].
+    + intros tok Ne. split; [reflexivity|]. pose proof (cnt_own_upd tok ss sid R st Hs) as U.
+      assert (O1 : owns tok (R st) = false). { unfold owns. rewrite Of. apply andb_false_r. }
+      assert (O2 : owns tok st = false). { unfold owns. rewrite Te. apply Nat.eqb_neq in Ne. rewrite Nat.eqb_sym, Ne. reflexivity. }
+      rewrite O1, O2 in U. simpl in U. lia.
+    + unfold add_wait; cbn [e_waiting]. rewrite (Hcnt tev ev0 H0).
+      pose proof (cnt_own_upd tev ss sid R st Hs) as U.
+      assert (O1 : owns tev (R st) = false). { unfold owns. rewrite Of. apply andb_false_r. }
+      rewrite O1, Ot in U. unfold b2n in *. lia.
+  - apply (F_flag_upd_wst X _ ss q sid R st); assumption.
+Qed.
+
+(* L10: an event passes its gate: gate counter, <name>_done for waiters, <name>_success *)
+Lemma EX_gate_pass : forall X es gs ss ts q lg tok ev0 (a b : bool),
+  EXc X es gs ss ts q lg -> nth_error es tok = Some ev0 ->
+  e_waiting ev0 = 0 -> e_gate ev0 = O -> e_dispatched ev0 = true ->
+  EXc X (upd_nth tok inc_gate es) gs ss ts
+      (q ++ (if a then [QDone tok] else []) ++ (if b then [QSucc tok] else [])) lg.
+Proof.
+  intros X es gs ss ts q lg tok ev0 a b [Hq [Hgi [Htask [Hwst [Hown [Hcnt [Hgate [Hqu [Hqd [Hnd [Hfl [Hres Hord]]]]]]]]]]]] H0 W G D.
+  set (qs := (if a then [QDone tok] else []) ++ (if b then [QSucc tok] else [])).
+  assert (Qs : forall x, In x qs -> x = QDone tok \/ x = QSucc tok).
+  { intros x Hx. unfold qs in Hx. apply in_app_iff in Hx. destruct a, b; simpl in Hx; intuition. }
+  assert (Pend : forall x, In x (X ++ q ++ qs) -> In x (X ++ q) \/ In x qs).
+  { intros x Hx. rewrite app_assoc in Hx. apply in_app_iff in Hx. assumption. }
+  assert (NotIn : ~ In (QDone tok) (X ++ q)). { intro Hin. specialize (Hqd tok ev0 Hin H0). lia. }
+  unfold EXc. rewrite length_upd_nth. repeat match goal with |- _ /\ _ => split end; try assumption.
+  - intros x Hx. apply Pend in Hx. destruct Hx as [Hx|Hx]; [auto|]. apply nth_error_lt in H0.
+    destruct (Qs x Hx); subst; simpl; assumption.
+  - apply (F_cnt_upd es tok inc_gate ev0 H0 ss ts); [assumption|auto|]. simpl. apply Hcnt. assumption.
+  - apply (F_gate_upd es tok inc_gate ev0 H0); [assumption|]. unfold gate_ok. simpl. rewrite D, W. split; [discriminate|auto].
+  - intros t ev Hin Hev. apply Pend in Hin. destruct Hin as [Hin|Hin]; [|destruct (Qs _ Hin); discriminate].
+    revert t ev Hin Hev. apply (F_quser_upd X es tok inc_gate ev0 H0); [assumption|]. simpl. auto.
+  - intros t ev Hin Hev. apply Pend in Hin. destruct Hin as [Hin|Hin].
+    + revert t ev Hin Hev. apply (F_qdone_upd X es tok inc_gate ev0 H0); [assumption|simpl; lia].
+    + destruct (Qs _ Hin) as [E|E]; [|discriminate]. inversion E. subst t.
+      rewrite (nth_error_upd_same inc_gate es tok ev0 H0) in Hev. inversion Hev. subst. simpl. lia.
+  - unfold F_qnodup in *. rewrite app_assoc, filter_app.
+    assert (Fq : filter udq qs = if a then [QDone tok] else []). { unfold qs. destruct a, b; reflexivity. }
+    rewrite Fq. destruct a; [|rewrite app_nil_r; assumption].
+    apply NoDup_snoc; [assumption|]. intro Hin. apply filter_In in Hin. tauto.
+  - intros sid st Hs Ph. destruct (Hfl sid st Hs Ph) as [e [ev [A [B [C E]]]]].
+    assert (Ne : e <> tok). { intro. subst e. rewrite H0 in B. inversion B. subst. lia. }
+    exists e, ev. split; [assumption|]. split; [rewrite nth_error_upd_other by congruence; assumption|]. split; [assumption|].
+    intro Hin. apply Pend in Hin. destruct Hin as [Hin|Hin]; [contradiction|]. destruct (Qs _ Hin) as [Q|Q]; inversion Q. congruence.
+  - apply (F_res_upd es tok inc_gate ev0 H0); [assumption|]. intro L. lia.
+Qed.
+
+(* wait-state updates that keep identity, ownership and do not flag *)
+Lemma EX_wst_plain : forall X es gs ss ts q lg sid R st,
+  EXc X es gs ss ts q lg -> nth_error ss sid = Some st -> keeps_ids R -> owning (R st) = owning st ->
+  (s_ph (R st) = Flagged -> s_ph st = Flagged) ->
+  EXc X es gs (upd_nth sid R ss) ts q lg.
+Proof.
+  intros X es gs ss ts q lg sid R st [Hq [Hgi [Htask [Hwst [Hown [Hcnt [Hgate [Hqu [Hqd [Hnd [Hfl [Hres Hord]]]]]]]]]]]] Hs K Oe Fl.
+  destruct (K st) as [K1 [K2 [K3 K4]]].
+  assert (Back : forall s1 st1, nth_error (upd_nth sid R ss) s1 = Some st1 -> owning st1 = true ->
+            exists st0, nth_error ss s1 = Some st0 /\ owning st0 = true /\ s_parent st1 = s_parent st0 /\ s_tevent st1 = s_tevent st0).
+  { intros s1 st1 H1 O1. apply nth_error_upd_inv in H1. destruct H1 as [[E [x [A B]]]|[E A]].
+    - subst s1 st1. rewrite Hs in A. inversion A. subst x. exists st. rewrite <- Oe. auto.
+    - exists st1. auto. }
+  unfold EXc. repeat match goal with |- _ /\ _ => split end; try assumption.
+  - apply F_wst_upd; assumption.
+  - intros s1 st1 H1 O1. destruct (Back s1 st1 H1 O1) as [st0 [B1 [B2 [B3 B4]]]].
+    destruct (Hown s1 st0 B1 B2) as [[gn [D1 D2]] [D3 D4]]. rewrite B3, B4. split; [eauto|]. split; [assumption|].
+    intros s2 st2 Ne H2 O2. destruct (Back s2 st2 H2 O2) as [st3 [C1 [C2 [C3 C4]]]]. rewrite C3. eauto.
+  - intros tok ev Hev. rewrite (Hcnt tok ev Hev). f_equal. f_equal. f_equal.
+    pose proof (cnt_own_upd tok ss sid R st Hs) as U.
+    assert (owns tok (R st) = owns tok st) by (unfold owns; rewrite K1, Oe; reflexivity). rewrite H in U. lia.
+  - intros s1 st1 H1 Ph. apply nth_error_upd_inv in H1. destruct H1 as [[E [x [A B]]]|[E A]]; [|eauto].
+    subst s1 st1. rewrite Hs in A. inversion A. subst x. destruct (Hfl sid st Hs (Fl Ph)) as [e [ev [A1 A2]]].
+    exists e, ev. rewrite K3. auto.
+Qed.
+
+(* _on_event: the wait has seen its event *)
+Lemma EX_wst_seen : forall X es gs ss ts q lg sid st tok,
+  EXc X es gs ss ts q lg -> nth_error ss sid = Some st -> (tok < length es)%nat ->
+  EXc X es gs (upd_nth sid (wst_seen tok) ss) ts q lg.
+Proof.
+  intros X es gs ss ts q lg sid st tok [Hq [Hgi [Htask [Hwst [Hown [Hcnt [Hgate [Hqu [Hqd [Hnd [Hfl [Hres Hord]]]]]]]]]]]] Hs Rg.
+  assert (Back : forall s1 st1, nth_error (upd_nth sid (wst_seen tok) ss) s1 = Some st1 -> owning st1 = true ->
+            exists st0, nth_error ss s1 = Some st0 /\ owning st0 = true /\ s_parent st1 = s_parent st0 /\ s_tevent st1 = s_tevent st0).
+  { intros s1 st1 H1 O1. apply nth_error_upd_inv in H1. destruct H1 as [[E [x [A B]]]|[E A]].
+    - subst s1 st1. rewrite Hs in A. inversion A. subst x. exists st. auto.
+    - exists st1. auto. }
+  unfold EXc. repeat match goal with |- _ /\ _ => split end; try assumption.
+  - intros s1 st1 H1. apply nth_error_upd_inv in H1. destruct H1 as [[E [x [A B]]]|[E A]]; [|eauto].
+    subst s1 st1. rewrite Hs in A. inversion A. subst x. destruct (Hwst sid st Hs) as [W1 [W2 W3]]. simpl.
+    split; [assumption|]. split; [|assumption]. intros e He. inversion He. subst. assumption.
+  - intros s1 st1 H1 O1. destruct (Back s1 st1 H1 O1) as [st0 [B1 [B2 [B3 B4]]]].
+    destruct (Hown s1 st0 B1 B2) as [[gn [D1 D2]] [D3 D4]]. rewrite B3, B4. split; [eauto|]. split; [assumption|].
+    intros s2 st2 Ne H2 O2. destruct (Back s2 st2 H2 O2) as [st3 [C1 [C2 [C3 C4]]]]. rewrite C3. eauto.
+  - intros t ev Hev. rewrite (Hcnt t ev Hev). f_equal. f_equal. f_equal.
+    pose proof (cnt_own_upd t ss sid (wst_seen tok) st Hs) as U.
+    assert (owns t (wst_seen tok st) = owns t st) by reflexivity. rewrite H in U. lia.
+  - apply (F_flag_upd_wst X es ss q sid (wst_seen tok) st); [assumption|assumption|discriminate].
+Qed.
+
+(* _on_done: the wait is flagged; its <name>_done event has just been taken from the pending items *)
+Lemma EX_wst_flag : forall X es gs ss ts q lg sid st tok ev,
+  EXc X es gs ss ts q lg -> nth_error ss sid = Some st -> s_event st = Some tok ->
+  nth_error es tok = Some ev -> (1 <= e_gate ev)%nat -> ~ In (QDone tok) (X ++ q) ->
+  EXc X es gs (upd_nth sid (wst_phase Flagged) ss) ts q lg.
+Proof.
+  intros X es gs ss ts q lg sid st tok ev H Hs Ev He G Ni.
+  pose proof H as [Hq [Hgi [Htask [Hwst [Hown [Hcnt [Hgate [Hqu [Hqd [Hnd [Hfl [Hres Hord]]]]]]]]]]]].
+  assert (P : EXc X es gs (upd_nth sid (wst_phase Flagged) ss) ts q lg \/ True) by auto.
+  unfold EXc. repeat match goal with |- _ /\ _ => split end; try assumption.
+  - apply F_wst_upd; [assumption|]. intro s. simpl. auto.
+  - assert (Back : forall s1 st1, nth_error (upd_nth sid (wst_phase Flagged) ss) s1 = Some st1 -> owning st1 = true ->
+            exists st0, nth_error ss s1 = Some st0 /\ owning st0 = true /\ s_parent st1 = s_parent st0 /\ s_tevent st1 = s_tevent st0).
+    { intros s1 st1 H1 O1. apply nth_error_upd_inv in H1. destruct H1 as [[E [x [A B]]]|[E A]].
+      - subst s1 st1. rewrite Hs in A. inversion A. subst x. exists st. auto.
+      - exists st1. auto. }
+    intros s1 st1 H1 O1. destruct (Back s1 st1 H1 O1) as [st0 [B1 [B2 [B3 B4]]]].
+    destruct (Hown s1 st0 B1 B2) as [[gn [D1 D2]] [D3 D4]]. rewrite B3, B4. split; [eauto|]. split; [assumption|].
+    intros s2 st2 Ne H2 O2. destruct (Back s2 st2 H2 O2) as [st3 [C1 [C2 [C3 C4]]]]. rewrite C3. eauto.
+  - intros t ev' Hev. rewrite (Hcnt t ev' Hev). f_equal. f_equal. f_equal.
+    pose proof (cnt_own_upd t ss sid (wst_phase Flagged) st Hs) as U.
+    assert (owns t (wst_phase Flagged st) = owns t st) by reflexivity. rewrite H0 in U. lia.
+  - intros s1 st1 H1 Ph. apply nth_error_upd_inv in H1. destruct H1 as [[E [x [A B]]]|[E A]]; [|eauto].
+    subst s1 st1. rewrite Hs in A. inversion A. subst x. exists tok, ev. simpl. auto.
+Qed.
+
+Lemma upd_nth_comp : forall {A} (f g : A -> A) l i, upd_nth i f (upd_nth i g l) = upd_nth i (fun x => f (g x)) l.
+Proof. intros A f g l. induction l as [|x r IH]; intros [|i]; simpl; try reflexivity. rewrite IH. reflexivity. Qed.
+
+Definition Full (X : list qitem) (w : world) : Prop := bad w = false /\ IC w /\ EX X w.
+
+(* install: projections *)
+Lemma install_evs : forall nm obj tmo cv tev par w, evs (install nm obj tmo cv tev par w) = evs w.
+Proof. intros. unfold install. destruct (0 <=? tmo); reflexivity. Qed.
+Lemma install_gens : forall nm obj tmo cv tev par w, gens (install nm obj tmo cv tev par w) = gens w.
+Proof. intros. unfold install. destruct (0 <=? tmo); reflexivity. Qed.
+Lemma install_queue : forall nm obj tmo cv tev par w, queue (install nm obj tmo cv tev par w) = queue w.
+Proof. intros. unfold install. destruct (0 <=? tmo); reflexivity. Qed.
+Lemma install_wlog : forall nm obj tmo cv tev par w, wlog (install nm obj tmo cv tev par w) = wlog w.
+Proof. intros. unfold install. destruct (0 <=? tmo); reflexivity. Qed.
+
+Lemma reg_task_new : forall t w, ~ In t (tasks w) -> tasks (reg_task t w) = tasks w ++ [t].
+Proof.
+  intros t w H. unfold reg_task. destruct (existsb (task_eqb t) (tasks w)) eqn:E; [|reflexivity].
+  apply existsb_task in E. contradiction.
+Qed.
+Lemma reg_task_evs : forall t w, evs (reg_task t w) = evs w. Proof. intros. unfold reg_task. destruct (existsb _ _); reflexivity. Qed.
+Lemma reg_task_gens : forall t w, gens (reg_task t w) = gens w. Proof. intros. unfold reg_task. destruct (existsb _ _); reflexivity. Qed.
+Lemma reg_task_queue : forall t w, queue (reg_task t w) = queue w. Proof. intros. unfold reg_task. destruct (existsb _ _); reflexivity. Qed.
+Lemma reg_task_wlog : forall t w, wlog (reg_task t w) = wlog w. Proof. intros. unfold reg_task. destruct (existsb _ _); reflexivity. Qed.
+
+(* _eventDone on the world *)
+Lemma event_done_EX : forall X w tok err ev, EX X w -> nth_error (evs w) tok = Some ev ->
+  (e_waiting ev = 0 -> e_gate ev = O /\ e_dispatched ev = true) ->
+  EX X (event_done tok err w) /\ bad (event_done tok err w) = bad w.
+Proof.
+  intros X w tok err ev H H0 G. unfold event_done. rewrite H0.
+  destruct (e_waiting ev =? 0) eqn:W; [|auto]. apply Z.eqb_eq in W. destruct (G W) as [G1 G2].
+  pose proof (EX_gate_pass X _ _ _ _ _ _ tok ev (e_alert ev) (negb (err || e_errors ev)) H H0 W G1 G2) as P.
+  split.
+  - unfold EX. destruct (e_alert ev); destruct (err || e_errors ev); simpl in *; rewrite ?app_nil_r in P; try rewrite <- app_assoc; exact P.
+  - destruct (e_alert ev); destruct (err || e_errors ev); reflexivity.
+Qed.
+
+Lemma cnt_own_pos : forall tev ss sid st, nth_error ss sid = Some st -> owns tev st = true -> (0 < cnt_own tev ss)%nat.
+Proof.
+  intros tev ss. unfold cnt_own. induction ss as [|x r IH]; intros [|sid] st Hs Ot; simpl in *; try discriminate.
+  - inversion Hs. subst. rewrite Ot. simpl. lia.
+  - specialize (IH sid st Hs Ot). destruct (owns tev x); simpl; lia.
+Qed.
+
+(* what processTask does after the waiting handler p has been handed the result / the TimeoutError *)
+Lemma cont_EX : forall X w w0 sid st R t how tev p,
+  EX X w ->
+  nth_error (wsts w) sid = Some st -> owning st = true -> s_parent st = p -> s_tevent st = tev ->
+  keeps_ids R -> owning (R st) = false -> s_ph (R st) <> Flagged -> is_gen (t_ref t) = false ->
+  evs w0 = evs w -> gens w0 = gens w -> wsts w0 = upd_nth sid R (wsts w) ->
+  tasks w0 = filter (fun u => negb (task_eqb t u)) (tasks w) -> queue w0 = queue w -> wlog w0 = wlog w -> bad w0 = false ->
+  (how = RThrow \/ exists e ev, how = RSend e /\ nth_error (evs w) e = Some ev /\ (1 <= e_gate ev)%nat) ->
+  bad (continue_parent tev p how w0) = false /\ EX X (continue_parent tev p how w0).
+Proof.
+  intros X w w0 sid st R t how tev p HX Hs Ow Pg Te K Of Nf Ng E1 E2 E3 E4 E5 E6 B0 Hhow.
+  pose proof HX as [Hq [Hgi [Htask [Hwst [Hown [Hcnt [Hgate [Hqu [Hqd [Hnd [Hfl [Hres Hord]]]]]]]]]]]].
+  destruct (Hown sid st Hs Ow) as [[gn [A1 [A2 A3]]] [NoG Uq]]. rewrite Pg in A1, NoG. rewrite Te in A2.
+  destruct (Hwst sid st Hs) as [W1 _]. rewrite Te in W1.
+  destruct (nth_error (evs w) tev) as [ev0|] eqn:H0; [|apply nth_error_None in H0; lia].
+  assert (Ot : owns tev st = true). { unfold owns. rewrite Te, Nat.eqb_refl, Ow. reflexivity. }
+  destruct (active_gate _ _ _ tev ev0 Hcnt Hgate H0) as [D G]. { pose proof (cnt_own_pos tev _ sid st Hs Ot). lia. }
+  unfold continue_parent. destruct (gen_resume p how w0) as [w1 r] eqn:GR.
+  assert (A1' : nth_error (gens w0) p = Some gn) by (rewrite E2; exact A1).
+  destruct (gen_resume_spec p how w0 w1 r gn GR A1') as [nms [ls [f [Ext [Gs [F1 [F2 [L1 [L2 [Wt Bd]]]]]]]]]].
+  destruct (F2 (Hgi p gn A1)) as [F2a F2b].
+  assert (B1 : bad w1 = false).
+  { rewrite Bd; [assumption| |].
+    - right. destruct Hhow as [Hh|[e [ev [Hh _]]]]; subst how; exact A3.
+    - intros e He. destruct Hhow as [Hh|[e' [ev [Hh [Hev _]]]]]; [congruence|]. rewrite He in Hh. inversion Hh. subst e'.
+      rewrite E1. apply nth_error_lt in Hev. assumption. }
+  destruct Ext as [_ [X2 [X3 [X4 [X5 X6]]]]]. rewrite E1 in X4, X5. rewrite E3 in X2. rewrite E4 in X3. rewrite E5 in X5. rewrite E6 in X6. rewrite E2 in Gs.
+  set (esA := evs w ++ map new_evt nms) in *.
+  assert (PA : EXc X esA (gens w) (wsts w) (tasks w) (queue w ++ map QUser (seq (length (evs w)) (length nms))) (ls ++ wlog w)).
+  { apply (EX_ext X _ _ _ _ _ _ nms ls tev ev0 HX (or_intror (conj H0 G))).
+    - intros x Hx. rewrite <- A2. apply L1. assumption.
+    - intros t' h k e v er Hin. destruct (L2 _ _ _ _ _ _ Hin) as [Hh [ev' [Hev' [V1 V2]]]].
+      destruct Hhow as [Hh'|[e' [ev [Hh' [Hev G']]]]]; [congruence|]. rewrite Hh in Hh'. inversion Hh'. subst e'.
+      rewrite E1, Hev in Hev'. inversion Hev'. subst ev'. exists ev. auto. }
+  assert (H0A : nth_error esA tev = Some ev0) by (apply nth_error_app_old; assumption).
+  pose proof (EX_remove_nongen X _ _ _ _ _ _ t PA Ng) as PB.
+  assert (LenA : length esA = length (evs w1)) by (rewrite X4; reflexivity).
+  destruct r as [v|nm obj tmo cv| |].
+  - (* plain yield *)
+    pose proof (EX_wait_to_gen X _ _ _ _ _ _ sid st R p gn f ev0 tev PB Hs Ow Pg Te K Of Nf A1 F1 F2a H0A) as P1.
+    assert (H0B : nth_error (upd_nth tev (add_wait (-1)) esA) tev = Some (add_wait (-1) ev0)) by (apply nth_error_upd_same; assumption).
+    pose proof (EX_vals X _ _ _ _ _ _ tev (add_oval v) _ P1 H0B (vals_only_oval v) (or_introl G)) as P2.
+    rewrite upd_nth_comp in P2.
+    assert (Nin : ~ In (mk_task tev (RGen p) None) (tasks (mod_evt tev (fun e => add_oval v (add_wait (-1) e)) w1))).
+    { simpl. rewrite X3. intro Hin. apply In_unreg in Hin. destruct Hin as [Hin _]. apply (NoG _ Hin). reflexivity. }
+    split; [rewrite reg_task_bad; exact B1|].
+    unfold EX. rewrite reg_task_evs, reg_task_gens, reg_task_wsts, (reg_task_new _ _ Nin), reg_task_queue, reg_task_wlog.
+    simpl. rewrite X4, Gs, X2, X3, X5, X6. exact P2.
+  - (* another call/wait *)
+    assert (Fw : g_atcall (f gn) = true) by exact F2a.
+    pose proof (EX_gen_owned_same X _ _ _ _ _ _ sid st p gn f PB Hs Ow Pg A1 F1 Fw F2b) as P1.
+    destruct (Wt nm obj tmo cv eq_refl) as [Wo Wc].
+    pose proof (EX_swap_wait X _ _ _ _ _ _ sid st R (new_wst nm obj tmo cv tev p) P1 Hs Ow K Of Nf) as P2.
+    split; [rewrite install_bad; exact B1|].
+    unfold EX. rewrite install_evs, install_gens, install_wsts, install_tasks, install_queue, install_wlog.
+    rewrite X4, Gs, X2, X3, X5, X6. apply P2; simpl; try reflexivity; try congruence.
+    intros e He. rewrite LenA. apply Wc. assumption.
+  - (* returns *)
+    pose proof (EX_wait_to_gen X _ _ _ _ _ _ sid st R p gn f ev0 tev PB Hs Ow Pg Te K Of Nf A1 F1 F2a H0A) as P1.
+    assert (Nin : ~ In (mk_task tev (RGen p) None) (tasks (mod_evt tev (add_wait (-1)) w1))).
+    { simpl. rewrite X3. intro Hin. apply In_unreg in Hin. destruct Hin as [Hin _]. apply (NoG _ Hin). reflexivity. }
+    split; [rewrite reg_task_bad; exact B1|].
+    unfold EX. rewrite reg_task_evs, reg_task_gens, reg_task_wsts, (reg_task_new _ _ Nin), reg_task_queue, reg_task_wlog.
+    simpl. rewrite X4, Gs, X2, X3, X5, X6. exact P1.
+  - (* raises *)
+    pose proof (EX_vals X _ _ _ _ _ _ tev add_err ev0 PB H0A vals_only_err (or_introl G)) as P0.
+    assert (H0B : nth_error (upd_nth tev add_err esA) tev = Some (add_err ev0)) by (apply nth_error_upd_same; assumption).
+    pose proof (EX_wait_raise X _ _ _ _ _ _ sid st R p gn f (add_err ev0) tev P0 Hs Ow Pg Te K Of Nf A1 F1 F2a H0B) as P1.
+    rewrite upd_nth_comp in P1.
+    set (w2 := mod_evt tev (fun e => add_wait (-2) (add_err e)) w1).
+    assert (P2 : EX X w2). { unfold EX, w2. simpl. rewrite X4, Gs, X2, X3, X5, X6. exact P1. }
+    assert (H2 : nth_error (evs w2) tev = Some (add_wait (-2) (add_err ev0))).
+    { unfold w2. simpl. rewrite X4. apply (nth_error_upd_same (fun e => add_wait (-2) (add_err e))). exact H0A. }
+    destruct (event_done_EX X w2 tev true _ P2 H2) as [P3 B3]; [simpl; auto|].
+    split; [rewrite B3; exact B1|exact P3].
+Qed.
+
+Lemma keeps_resumed : keeps_ids wst_resumed. Proof. intro s. simpl. auto. Qed.
+Lemma keeps_thrown : keeps_ids wst_thrown. Proof. intro s. simpl. auto. Qed.
+
+Lemma task_ext : forall a b : task, t_ev a = t_ev b -> t_ref a = t_ref b -> t_parent a = t_parent b -> a = b.
+Proof. intros [e r p] [e2 r2 p2]. simpl. intros. subst. reflexivity. Qed.
+
+Lemma Full_of : forall X w, bad w = false -> Inv w -> EX X w -> Full X w.
+Proof. intros X w B [I|I] E; [congruence|]. split; [assumption|]. split; assumption. Qed.
+
+Lemma ptask_body_EX : forall X t w, Full X w -> In t (tasks w) ->
+  bad (ptask_body t w) = false /\ EX X (ptask_body t w).
+Proof.
+  intros X t w [B0 [HI HX]] Hin.
+  pose proof HX as [Hq [Hgi [Htask [Hwst [Hown [Hcnt [Hgate [Hqu [Hqd [Hnd [Hfl [Hres Hord]]]]]]]]]]]].
+  pose proof HI as [I1 [I2 [I3 [I4 I5]]]]. pose proof (I5 t Hin) as Tok. unfold task_ok in Tok.
+  unfold ptask_body. destruct (t_ref t) as [g|sid|sid] eqn:R.
+  - (* the handler generator itself *)
+    destruct (Htask t Hin) as [Tr Tg]. destruct (Tg g R) as [gn [Hg [Gt Ga]]]. set (tev := t_ev t) in *.
+    assert (Teq : mk_task tev (RGen g) None = t). { apply task_ext; simpl; [reflexivity|congruence|congruence]. }
+    destruct (nth_error (evs w) tev) as [ev0|] eqn:H0; [|apply nth_error_None in H0; lia].
+    assert (Gf : gen_for tev t = true). { unfold gen_for. fold tev. rewrite Nat.eqb_refl, R. reflexivity. }
+    destruct (active_gate _ _ _ tev ev0 Hcnt Hgate H0) as [D G]. { pose proof (cnt_pos_gen tev _ t Hin Gf). lia. }
+    destruct (gen_resume g RNext w) as [w1 r] eqn:GR.
+    destruct (gen_resume_spec g RNext w w1 r gn GR Hg) as [nms [ls [f [Ext [Gs [F1 [F2 [L1 [L2 [Wt Bd]]]]]]]]]].
+    destruct (F2 (Hgi g gn Hg)) as [F2a F2b].
+    assert (B1 : bad w1 = false). { rewrite Bd; [assumption|right; exact Ga|intros e He; discriminate]. }
+    destruct Ext as [_ [X2 [X3 [X4 [X5 X6]]]]].
+    set (esA := evs w ++ map new_evt nms) in *.
+    assert (PA : EXc X esA (gens w) (wsts w) (tasks w) (queue w ++ map QUser (seq (length (evs w)) (length nms))) (ls ++ wlog w)).
+    { apply (EX_ext X _ _ _ _ _ _ nms ls tev ev0 HX (or_intror (conj H0 G))).
+      - intros x Hx. rewrite <- Gt. apply L1. assumption.
+      - intros t' h k e v er Hin'. destruct (L2 _ _ _ _ _ _ Hin') as [Hh _]. discriminate. }
+    assert (H0A : nth_error esA tev = Some ev0) by (apply nth_error_app_old; assumption).
+    assert (LenA : length esA = length (evs w1)) by (rewrite X4; reflexivity).
+    assert (Uq : forall u, In u (tasks w) -> t_ref u = RGen g -> u = t).
+    { intros u Hu Ru. destruct (Htask u Hu) as [_ Ug]. destruct (Ug g Ru) as [gn' [Hg' [Gt' _]]]. rewrite Hg in Hg'. inversion Hg'. subst gn'.
+      pose proof (I5 u Hu) as Uok. unfold task_ok in Uok. rewrite Ru in Uok.
+      apply task_ext; [unfold tev in Gt; congruence|congruence|congruence]. }
+    destruct r as [v|nm obj tmo cv| |].
+    + assert (Fa : g_atcall (f gn) = false) by exact F2a.
+      pose proof (EX_gen_same X _ _ _ _ _ _ g f gn t PA Hin R Hg F1 Fa) as P1.
+      pose proof (EX_vals X _ _ _ _ _ _ tev (add_oval v) ev0 P1 H0A (vals_only_oval v) (or_introl G)) as P2.
+      split; [exact B1|]. unfold EX. simpl. rewrite X4, Gs, X2, X3, X5, X6. exact P2.
+    + assert (Fa : g_atcall (f gn) = true) by exact F2a.
+      destruct (Wt nm obj tmo cv eq_refl) as [Wo Wc].
+      pose proof (EX_gen_to_wait X _ _ _ _ _ _ t tev g gn f ev0 (new_wst nm obj tmo cv tev g) PA I4 Hin R eq_refl Uq Hg F1 Fa F2b H0A) as P1.
+      split; [rewrite install_bad; exact B1|].
+      unfold EX. rewrite install_evs, install_gens, install_wsts, install_tasks, install_queue, install_wlog. simpl.
+      rewrite Teq, X4, Gs, X2, X3, X5, X6. apply P1; simpl; try reflexivity.
+      intros e He. rewrite LenA. apply Wc. assumption.
+    + assert (Fa : g_atcall (f gn) = false) by exact F2a.
+      pose proof (EX_gen_same X _ _ _ _ _ _ g f gn t PA Hin R Hg F1 Fa) as P1.
+      pose proof (EX_task_done X _ _ _ _ _ _ t tev g ev0 P1 I4 Hin R eq_refl H0A) as P2.
+      rewrite Tok.
+      set (w2 := unreg_task t (mod_evt tev (add_wait (-1)) w1)).
+      assert (P3 : EX X w2). { unfold EX, w2. simpl. rewrite X4, Gs, X2, X3, X5, X6. exact P2. }
+      assert (H2 : nth_error (evs w2) tev = Some (add_wait (-1) ev0)).
+      { unfold w2. simpl. rewrite X4. apply nth_error_upd_same. exact H0A. }
+      destruct (event_done_EX X w2 tev false _ P3 H2) as [P4 B4]; [simpl; auto|].
+      split; [rewrite B4; exact B1|exact P4].
+    + assert (Fa : g_atcall (f gn) = false) by exact F2a.
+      pose proof (EX_gen_same X _ _ _ _ _ _ g f gn t PA Hin R Hg F1 Fa) as P1.
+      pose proof (EX_vals X _ _ _ _ _ _ tev add_err ev0 P1 H0A vals_only_err (or_introl G)) as P2.
+      assert (H0B : nth_error (upd_nth tev add_err esA) tev = Some (add_err ev0)) by (apply nth_error_upd_same; assumption).
+      pose proof (EX_task_done X _ _ _ _ _ _ t tev g (add_err ev0) P2 I4 Hin R eq_refl H0B) as P3.
+      rewrite upd_nth_comp in P3. rewrite Tok.
+      set (w2 := mod_evt tev (fun e => add_wait (-1) (add_err e)) (unreg_task t w1)).
+      assert (P4 : EX X w2). { unfold EX, w2. simpl. rewrite X4, Gs, X2, X3, X5, X6. exact P3. }
+      assert (H2 : nth_error (evs w2) tev = Some (add_wait (-1) (add_err ev0))).
+      { unfold w2. simpl. rewrite X4. apply (nth_error_upd_same (fun e => add_wait (-1) (add_err e))). exact H0A. }
+      destruct (event_done_EX X w2 tev true _ P4 H2) as [P5 B5]; [simpl; auto|].
+      split; [rewrite B5; exact B1|exact P5].
+  - (* the wait generator, registered by _on_done *)
+    destruct Tok as [st [Hs [Ph Tq]]]. rewrite Hs.
+    pose proof (I3 sid st Hs) as [O1 O2 O3 O4 O5 O6 O7 O8].
+    assert (Hd : In (THDone sid) (ths w)). { apply O2. rewrite Ph. discriminate. }
+    apply has_th_In in Hd. rewrite Hd.
+    destruct (Hfl sid st Hs Ph) as [e [ev [Ev [He [Ge _]]]]]. rewrite Ev.
+    assert (Tp : t_parent t = Some (s_parent st)) by (rewrite Tq; reflexivity). rewrite Tp.
+    assert (Ow : owning st = true). { unfold owning. rewrite Ph in O7. simpl in O7. apply Nat.eqb_eq. lia. }
+    replace (t_ev t) with (s_tevent st) by (rewrite Tq; reflexivity).
+    apply (cont_EX X w _ sid st wst_resumed t (RSend e) (s_tevent st) (s_parent st) HX Hs Ow eq_refl eq_refl keeps_resumed);
+      try reflexivity; try assumption.
+    + simpl. discriminate.
+    + rewrite R. reflexivity.
+    + right. exists e, ev. auto.
+  - (* the pending TimeoutError *)
+    destruct Tok as [st [Hs Tq]]. assert (Tp : t_parent t = Some (s_parent st)) by (rewrite Tq; reflexivity). rewrite Tp.
+    pose proof (I3 sid st Hs) as [O1 O2 O3 O4 O5 O6 O7 O8].
+    assert (Rt : is_rt sid t = true). { unfold is_rt. rewrite R. simpl. apply Nat.eqb_refl. }
+    assert (C1 : (1 <= count_rt sid (tasks w))%nat).
+    { unfold count_rt. clear -Hin Rt. induction (tasks w) as [|x r IH]; [destruct Hin|]. simpl.
+      destruct Hin as [E|E]; [subst; rewrite Rt; simpl; lia|]. destruct (is_rt sid x); simpl; [lia|auto]. }
+    assert (Ow : owning st = true). { unfold owning. apply Nat.eqb_eq. lia. }
+    assert (Pd : s_ph st = Dead). { destruct (s_ph st); simpl in O7; try lia. reflexivity. }
+    replace (t_ev t) with (s_tevent st) by (rewrite Tq; reflexivity).
+    apply (cont_EX X w _ sid st wst_thrown t RThrow (s_tevent st) (s_parent st) HX Hs Ow eq_refl eq_refl keeps_thrown);
+      try reflexivity; try assumption.
+    + simpl. rewrite Pd. discriminate.
+    + rewrite R. reflexivity.
+    + left. reflexivity.
+Qed.
+
+Lemma ptask_full : forall X t w, Full X w -> In t (tasks w) -> Full X (ptask t w).
+Proof.
+  intros X t w HF Hin. pose proof HF as [B [I E]]. unfold ptask. rewrite B.
+  destruct (ptask_body_EX X t w HF Hin) as [B' E']. apply Full_of; [assumption| |assumption].
+  apply ptask_body_Inv; assumption.
+Qed.
+
+Lemma fold_ptask_full : forall l X w, Full X w -> NoDup l -> (forall u, In u l -> In u (tasks w)) ->
+  Full X (fold_left (fun w t => ptask t w) l w).
+Proof.
+  induction l as [|t r IH]; intros X w HF ND Hin; simpl; [assumption|].
+  inversion ND as [|? ? Hnt NDr]; subst.
+  apply IH; [apply ptask_full; [assumption|apply Hin; left; reflexivity]|assumption|].
+  intros u Hu. apply ptask_keeps; [apply Hin; right; assumption|intro; subst; contradiction|].
+  intros g R. destruct HF as [_ [[_ [_ [_ [_ E]]]] _]].
+  assert (In t (tasks w)) by (apply Hin; left; reflexivity).
+  specialize (E t H). unfold task_ok in E. rewrite R in E. exact E.
+Qed.
+
+(* the head of the pending items is taken *)
+Lemma EX_pop : forall x X es gs ss ts q lg, EXc (x :: X) es gs ss ts q lg -> EXc X es gs ss ts q lg.
+Proof.
+  intros x X es gs ss ts q lg [Hq [Hgi [Htask [Hwst [Hown [Hcnt [Hgate [Hqu [Hqd [Hnd [Hfl [Hres Hord]]]]]]]]]]]].
+  unfold EXc. repeat match goal with |- _ /\ _ => split end; try assumption.
+  - intros y Hy. apply Hq. right. assumption.
+  - intros tok ev Hin. apply Hqu. right. assumption.
+  - intros tok ev Hin. apply Hqd. right. assumption.
+  - unfold F_qnodup in *. simpl in Hnd. destruct (udq x); [inversion Hnd; assumption|assumption].
+  - intros sid st Hs Ph. destruct (Hfl sid st Hs Ph) as [e [ev [A [B [C D]]]]]. exists e, ev. repeat split; try assumption.
+    intro Hin. apply D. right. assumption.
+Qed.
+
+Lemma pop_notin : forall x X q, udq x = true -> F_qnodup (x :: X) q -> ~ In x (X ++ q).
+Proof.
+  intros x X q U H Hin. unfold F_qnodup in H. simpl in H. rewrite U in H. inversion H; subst.
+  apply H2. apply filter_In. auto.
+Qed.
+
+Lemma EX_set_dispatched : forall X es gs ss ts q lg tok ev0,
+  EXc X es gs ss ts q lg -> nth_error es tok = Some ev0 -> e_dispatched ev0 = false -> ~ In (QUser tok) (X ++ q) ->
+  EXc X (upd_nth tok set_dispatched es) gs ss ts q lg.
+Proof.
+  intros X es gs ss ts q lg tok ev0 [Hq [Hgi [Htask [Hwst [Hown [Hcnt [Hgate [Hqu [Hqd [Hnd [Hfl [Hres Hord]]]]]]]]]]]] H0 D Ni.
+  destruct (Hgate tok ev0 H0) as [G1 _]. destruct (G1 D) as [G W].
+  unfold EXc. rewrite length_upd_nth. repeat match goal with |- _ /\ _ => split end; try assumption.
+  - apply (F_cnt_upd es tok _ ev0 H0 ss ts); [assumption|auto|]. simpl. apply Hcnt. assumption.
+  - apply (F_gate_upd es tok _ ev0 H0); [assumption|]. unfold gate_ok. simpl. rewrite G. split; [discriminate|lia].
+  - apply (F_quser_upd X es tok _ ev0 H0); [assumption|]. auto.
+  - apply (F_qdone_upd X es tok _ ev0 H0); [assumption|simpl; lia].
+  - apply (F_flag_upd X es tok _ ev0 H0); [assumption|simpl; lia].
+  - apply (F_res_upd es tok _ ev0 H0); [assumption|]. intro L. lia.
+Qed.
+
+(* one log entry that is not a resumption *)
+Lemma EX_log1 : forall X es gs ss ts q lg x,
+  EXc X es gs ss ts q lg -> not_res x ->
+  (htok x = None \/ exists t0 ev0, htok x = Some t0 /\ nth_error es t0 = Some ev0 /\ e_gate ev0 = O) ->
+  EXc X es gs ss ts q (x :: lg).
+Proof.
+  intros X es gs ss ts q lg x H NR Hh.
+  pose proof H as [Hq [Hgi [Htask [Hwst [Hown [Hcnt [Hgate [Hqu [Hqd [Hnd [Hfl [Hres Hord]]]]]]]]]]]].
+  unfold EXc. repeat match goal with |- _ /\ _ => split end; try assumption.
+  - intros tok hi k e vals err [Hin|Hin]; [exfalso; apply (NR tok hi k e vals err); auto|eauto].
+  - unfold F_ord in *. simpl. split; [|assumption]. intros tok hi k e vals err Hin Hx.
+    destruct Hh as [Hh|[t0 [ev0 [Hh [H0 G]]]]]; [congruence|]. rewrite Hh in Hx. inversion Hx. subst t0.
+    destruct (Hres _ _ _ _ _ _ Hin) as [ev [A [B _]]]. rewrite H0 in A. inversion A. subst. lia.
+Qed.
+
+(* a generator handler is invoked: new generator, its task, one count *)
+Lemma EX_new_gen : forall X es gs ss ts q lg tok ev0 gnew,
+  EXc X es gs ss ts q lg -> nth_error es tok = Some ev0 -> e_dispatched ev0 = true -> e_gate ev0 = O ->
+  g_tok gnew = tok -> g_atcall gnew = false -> g_rest gnew <> None ->
+  EXc X (upd_nth tok (add_wait 1) es) (gs ++ [gnew]) ss (ts ++ [mk_task tok (RGen (length gs)) None]) q lg.
+Proof.
+  intros X es gs ss ts q lg tok ev0 gnew [Hq [Hgi [Htask [Hwst [Hown [Hcnt [Hgate [Hqu [Hqd [Hnd [Hfl [Hres Hord]]]]]]]]]]]] H0 D G N1 N2 N3.
+  destruct (evt_fields_wait X es ss q lg tok 1 ev0 H0 D G Hgate Hqu Hqd Hfl Hres) as [P1 [P2 [P3 [P4 P5]]]].
+  unfold EXc. rewrite length_upd_nth. repeat match goal with |- _ /\ _ => split end; try assumption.
+  - intros g gn Hg Rn. apply nth_error_snoc in Hg. destruct Hg as [[Hg _]|[_ E]]; [eauto|]. subst. contradiction.
+  - intros u Hu. apply in_app_iff in Hu. destruct Hu as [Hu|[Hu|[]]].
+    + destruct (Htask u Hu) as [A B]. split; [assumption|]. intros g R. destruct (B g R) as [gn [C1 C2]].
+      exists gn. split; [apply nth_error_app_old; assumption|assumption].
+    + subst u. simpl. split; [apply nth_error_lt in H0; assumption|]. intros g R. inversion R. subst g.
+      exists gnew. split; [rewrite nth_error_app2 by lia; rewrite Nat.sub_diag; reflexivity|auto].
+  - intros sid st Hs Ow. destruct (Hown sid st Hs Ow) as [[gn [A1 A2]] [B C]]. split; [|split; [|assumption]].
+    + exists gn. split; [apply nth_error_app_old; assumption|assumption].
+    + intros u Hu. apply in_app_iff in Hu. destruct Hu as [Hu|[Hu|[]]]; [auto|]. subst u. simpl. intro E. inversion E.
+      apply nth_error_lt in A1. lia.
+  - apply (F_cnt_upd es tok _ ev0 H0 ss ts); [assumption| |].
+    + intros t Ne. rewrite cnt_gen_snoc, gen_for_gen. apply Nat.eqb_neq in Ne. rewrite Nat.eqb_sym, Ne. simpl. split; [lia|reflexivity].
+    + unfold add_wait; cbn [e_waiting]. rewrite (Hcnt tok ev0 H0), cnt_gen_snoc, gen_for_gen, Nat.eqb_refl. unfold b2n. lia.
+Qed.
+
+Lemma EX_reg_nongen : forall X w t, EX X w -> is_gen (t_ref t) = false -> (t_ev t < length (evs w))%nat -> EX X (reg_task t w).
+Proof.
+  intros X w t H Ng Rg. unfold EX, reg_task. destruct (existsb (task_eqb t) (tasks w)); [exact H|]. simpl.
+  apply EX_add_nongen; assumption.
+Qed.
+
+(* ---------------------------------------------------------------- the handlers of the dispatched event *)
+
+Definition disp_ok (tok : nat) (w : world) : Prop :=
+  exists ev, nth_error (evs w) tok = Some ev /\ e_dispatched ev = true /\ e_gate ev = O.
+
+Lemma run_handlers_EX : forall hs hi X tok w err,
+  bad w = false -> EX X w -> disp_ok tok w ->
+  let w' := fst (run_handlers tok hi hs (w, err)) in
+  bad w' = false /\ EX X w' /\ disp_ok tok w' /\ ths w' = ths w /\ wsts w' = wsts w.
+Proof.
+  induction hs as [|h r IH]; intros hi X tok w err B HX [ev0 [H0 [D G]]]; simpl.
+  - split; [assumption|]. split; [assumption|]. split; [exists ev0; auto|auto].
+  - destruct h as [v raises|c sts].
+    + assert (P1 : EX X (add_log (LPlain tok hi) w)).
+      { unfold EX. simpl. apply EX_log1; [exact HX|intros ? ? ? ? ? ?; discriminate|]. right. exists tok, ev0. auto. }
+      destruct raises.
+      * assert (P2 : EX X (mod_evt tok add_err (add_log (LPlain tok hi) w))).
+        { unfold EX. simpl. apply (EX_vals X _ _ _ _ _ _ tok add_err ev0 P1 H0 vals_only_err (or_introl G)). }
+        destruct (IH (S hi) X tok (mod_evt tok add_err (add_log (LPlain tok hi) w)) true B P2) as [A1 [A2 [A3 [A4 A5]]]].
+        { exists (add_err ev0). split; [simpl; apply nth_error_upd_same; assumption|auto]. }
+        auto.
+      * assert (P2 : EX X (mod_evt tok (add_oval (option_map (tokval tok) v)) (add_log (LPlain tok hi) w))).
+        { unfold EX. simpl. apply (EX_vals X _ _ _ _ _ _ tok _ ev0 P1 H0 (vals_only_oval _) (or_introl G)). }
+        destruct (IH (S hi) X tok (mod_evt tok (add_oval (option_map (tokval tok) v)) (add_log (LPlain tok hi) w)) err B P2) as [A1 [A2 [A3 [A4 A5]]]].
+        { exists (add_oval (option_map (tokval tok) v) ev0). split; [simpl; apply nth_error_upd_same; assumption|].
+          destruct (vals_only_oval (option_map (tokval tok) v) ev0) as [_ [V2 V3]]. rewrite V2, V3. auto. }
+        auto.
+    + set (gnew := {| g_tok := tok; g_hi := hi; g_catch := c; g_k := O; g_cur := O; g_atcall := false; g_rest := Some sts |}).
+      set (tn := mk_task tok (RGen (length (gens w))) None).
+      set (w1 := mod_evt tok (add_wait 1) (set_gens w (gens w ++ [gnew]))).
+      assert (Nin : ~ In tn (tasks w1)).
+      { simpl. intro Hin. destruct HX as [_ [_ [Htask _]]]. destruct (Htask tn Hin) as [_ T]. destruct (T _ eq_refl) as [gn [Hg _]].
+        apply nth_error_lt in Hg. lia. }
+      assert (P2 : EX X (reg_task tn w1)).
+      { unfold EX. rewrite reg_task_evs, reg_task_gens, reg_task_wsts, (reg_task_new _ _ Nin), reg_task_queue, reg_task_wlog. simpl.
+        apply (EX_new_gen X _ _ _ _ _ _ tok ev0 gnew HX H0 D G); [reflexivity|reflexivity|discriminate]. }
+      destruct (IH (S hi) X tok (reg_task tn w1) err) as [A1 [A2 [A3 [A4 A5]]]].
+      * rewrite reg_task_bad. exact B.
+      * exact P2.
+      * exists (add_wait 1 ev0). rewrite reg_task_evs. split; [simpl; apply nth_error_upd_same; assumption|auto].
+      * rewrite reg_task_ths, reg_task_wsts in *. auto.
+Qed.
+
+(* ---------------------------------------------------------------- _on_event *)
+
+Lemma on_event_full : forall X tok w sid ev0, Full X w -> In (THEv sid) (ths w) -> nth_error (evs w) tok = Some ev0 ->
+  Full X (on_event tok w sid) /\
+  (exists ev', nth_error (evs (on_event tok w sid)) tok = Some ev' /\ e_dispatched ev' = e_dispatched ev0 /\
+               e_gate ev' = e_gate ev0 /\ e_waiting ev' = e_waiting ev0) /\
+  (forall s, s <> sid -> In (THEv s) (ths w) -> In (THEv s) (ths (on_event tok w sid))).
+Proof.
+  intros X tok w sid ev0 [B [HI HX]] Hin H0.
+  pose proof (on_event_Inv tok w sid HI) as HInv. revert HInv.
+  unfold on_event. rewrite B.
+  pose proof HI as [_ [I2 _]]. specialize (I2 _ Hin). simpl in I2.
+  destruct (nth_error (wsts w) sid) as [st|] eqn:Hs; [|apply nth_error_None in Hs; lia].
+  destruct (negb (s_run st) && obj_ok (s_obj st) tok).
+  - unfold rem_th_k. apply has_th_In in Hin. rewrite Hin. intro HInv. split; [|split].
+    + apply Full_of; [exact B|exact HInv|].
+      unfold EX. simpl.
+      pose proof (EX_wst_seen X _ _ _ _ _ _ sid st tok HX Hs (nth_error_lt _ _ _ H0)) as P1.
+      apply (EX_vals X _ _ _ _ _ _ tok set_alert ev0 P1 H0 vals_only_alert). right. auto.
+    + exists (set_alert ev0). simpl. split; [apply nth_error_upd_same; assumption|auto].
+    + intros s Ne Hs'. change (In (THEv s) (filter (fun u => negb (th_eqb (THEv sid) u)) (ths w))).
+      apply In_del. split; [assumption|]. intro E. inversion E. contradiction.
+  - intro HInv. split; [split; [assumption|split; assumption]|]. split; [exists ev0; auto|auto].
+Qed.
+
+Lemma fold_on_event_full : forall X tok sids w ev0, Full X w -> NoDup sids ->
+  (forall s, In s sids -> In (THEv s) (ths w)) -> nth_error (evs w) tok = Some ev0 ->
+  Full X (fold_left (on_event tok) sids w) /\
+  exists ev', nth_error (evs (fold_left (on_event tok) sids w)) tok = Some ev' /\ e_dispatched ev' = e_dispatched ev0 /\
+              e_gate ev' = e_gate ev0 /\ e_waiting ev' = e_waiting ev0.
+Proof.
+  intros X tok sids. induction sids as [|s r IH]; intros w ev0 HF ND Hin H0; simpl.
+  - split; [assumption|]. exists ev0. auto.
+  - inversion ND as [|? ? Hns NDr]; subst.
+    destruct (on_event_full X tok w s ev0 HF (Hin s (or_introl eq_refl)) H0) as [F1 [[ev1 [E1 [E2 [E3 E4]]]] Fr]].
+    destruct (IH (on_event tok w s) ev1 F1 NDr) as [G1 [ev2 [G2 [G3 [G4 G5]]]]].
+    + intros s' Hs'. apply Fr; [intro; subst; contradiction|]. apply Hin. right. assumption.
+    + exact E1.
+    + split; [exact G1|]. exists ev2. split; [exact G2|]. split; [congruence|]. split; congruence.
+Qed.
+
+Lemma sids_NoDup : forall (sel : th -> list nat) l,
+  (forall h s, In s (sel h) -> sel h = [s]) -> (forall h h' s, In s (sel h) -> In s (sel h') -> h = h') ->
+  NoDup l -> NoDup (flat_map sel l).
+Proof.
+  intros sel l One Inj ND. induction ND as [|h r Hn ND IH]; simpl; [constructor|].
+  destruct (sel h) as [|s r'] eqn:E; [exact IH|].
+  assert (sel h = [s]) by (apply One; rewrite E; left; reflexivity). rewrite E in H. inversion H. subst r'. simpl.
+  constructor; [|exact IH]. intro Hin. apply in_flat_map in Hin. destruct Hin as [h' [Hh' Hs]].
+  assert (h = h') by (apply (Inj h h' s); [rewrite E; left; reflexivity|assumption]). subst h'. contradiction.
+Qed.
+
+Lemma ev_sids_spec : forall w nm, NoDup (ths w) ->
+  NoDup (ev_sids w nm) /\ forall s, In s (ev_sids w nm) -> In (THEv s) (ths w).
+Proof.
+  intros w nm ND. split.
+  - apply sids_NoDup; [| |assumption].
+    + intros h s Hs. destruct h as [x|x|x]; try destruct Hs. destruct (onat_eqb _ _); [|destruct Hs]. destruct Hs as [E|[]]. subst. reflexivity.
+    + intros h h' s Hs Hs'. destruct h as [x|x|x]; try destruct Hs; destruct h' as [y|y|y]; try destruct Hs'.
+      destruct (onat_eqb (name_of_sid w x) _); [|destruct Hs]. destruct (onat_eqb (name_of_sid w y) _); [|destruct Hs'].
+      destruct Hs as [E|[]]. destruct Hs' as [E'|[]]. congruence.
+  - intros s Hs. unfold ev_sids in Hs. apply in_flat_map in Hs. destruct Hs as [h [Hh Hs]].
+    destruct h as [x|x|x]; try destruct Hs. destruct (onat_eqb _ _); [|destruct Hs]. destruct Hs as [E|[]]. subst. assumption.
+Qed.
+
+(* ---------------------------------------------------------------- _on_done *)
+
+Lemma on_done_full : forall X tok w sid ev, Full X w -> In (THDone sid) (ths w) ->
+  (forall st, nth_error (wsts w) sid = Some st -> s_event st = Some tok -> s_ph st <> Flagged) ->
+  nth_error (evs w) tok = Some ev -> (1 <= e_gate ev)%nat -> ~ In (QDone tok) (X ++ queue w) ->
+  Full X (on_done tok w sid) /\ evs (on_done tok w sid) = evs w /\ queue (on_done tok w sid) = queue w /\
+  (forall s, s <> sid -> nth_error (wsts (on_done tok w sid)) s = nth_error (wsts w) s).
+Proof.
+  intros X tok w sid ev [B [HI HX]] Hin Nf He Ge Ni.
+  pose proof (on_done_Inv tok w sid HI Hin) as HInv. revert HInv.
+  unfold on_done. rewrite B.
+  pose proof HI as [_ [I2 [I3 _]]]. specialize (I2 _ Hin). simpl in I2.
+  destruct (nth_error (wsts w) sid) as [st|] eqn:Hs; [|apply nth_error_None in Hs; lia].
+  destruct (onat_eqb (s_event st) (Some tok)) eqn:Ev.
+  2:{ intro HInv. split; [split; [assumption|split; assumption]|auto]. }
+  apply onat_eqb_eq in Ev. cbv zeta.
+  set (t := mk_task (s_tevent st) (RWait sid) (Some (s_parent st))).
+  pose proof (I3 sid st Hs) as [O1 O2 O3 O4 O5 O6 O7 O8 O9].
+  assert (Ph : s_ph st = Seen).
+  { specialize (Nf st eq_refl Ev). assert (s_ph st <> Dead) by (apply O2; assumption).
+    assert (s_ph st <> Armed) by (intro A; apply O4 in A; destruct A; congruence). destruct (s_ph st); congruence. }
+  assert (P1 : EX X (mod_wst sid (wst_phase Flagged) (reg_task t w))).
+  { pose proof HX as [_ [_ [_ [Hwst _]]]]. destruct (Hwst sid st Hs) as [W1 _].
+    assert (P0 : EX X (reg_task t w)). { apply EX_reg_nongen; [exact HX|reflexivity|exact W1]. }
+    unfold EX. simpl. rewrite reg_task_evs, reg_task_gens, reg_task_wsts, reg_task_queue, reg_task_wlog.
+    unfold EX in P0. rewrite reg_task_evs, reg_task_gens, reg_task_wsts, reg_task_queue, reg_task_wlog in P0.
+    apply (EX_wst_flag X _ _ _ _ _ _ sid st tok ev P0 Hs Ev He Ge Ni). }
+  assert (Fr : forall s, s <> sid -> nth_error (upd_nth sid (wst_phase Flagged) (wsts (reg_task t w))) s = nth_error (wsts w) s).
+  { intros s Ne. rewrite reg_task_wsts. apply nth_error_upd_other. congruence. }
+  destruct (0 <=? s_timeout st) eqn:Tm.
+  - apply Z.leb_le in Tm. unfold rem_th_k.
+    assert (Ht : In (THTick sid) (ths (mod_wst sid (wst_phase Flagged) (reg_task t w)))).
+    { simpl. rewrite reg_task_ths. apply O3. rewrite Ph. auto. }
+    apply has_th_In in Ht. rewrite Ht. intro HInv.
+    split; [apply Full_of; [simpl; rewrite reg_task_bad; exact B|exact HInv|exact P1]|].
+    split; [simpl; apply reg_task_evs|]. split; [simpl; apply reg_task_queue|]. exact Fr.
+  - intro HInv. split; [apply Full_of; [simpl; rewrite reg_task_bad; exact B|exact HInv|exact P1]|].
+    split; [simpl; apply reg_task_evs|]. split; [simpl; apply reg_task_queue|]. exact Fr.
+Qed.
+
+Lemma fold_on_done_full : forall X tok sids w ev, Full X w -> NoDup sids ->
+  (forall s, In s sids -> In (THDone s) (ths w)) ->
+  (forall s st, In s sids -> nth_error (wsts w) s = Some st -> s_event st = Some tok -> s_ph st <> Flagged) ->
+  nth_error (evs w) tok = Some ev -> (1 <= e_gate ev)%nat -> ~ In (QDone tok) (X ++ queue w) ->
+  Full X (fold_left (on_done tok) sids w).
+Proof.
+  intros X tok sids. induction sids as [|s r IH]; intros w ev HF ND Hd Nf He Ge Ni; simpl; [assumption|].
+  inversion ND as [|? ? Hns NDr]; subst.
+  destruct (on_done_full X tok w s ev HF (Hd s (or_introl eq_refl))) as [F1 [E1 [E2 Fr]]]; try assumption.
+  { intros st Hs. apply (Nf s st); [left; reflexivity|assumption]. }
+  apply (IH _ ev); try assumption.
+  - intros s' Hs'. apply on_done_keeps_done. apply Hd. right. assumption.
+  - intros s' st Hs' Hst. rewrite Fr in Hst by (intro; subst; contradiction). apply (Nf s' st); [right; assumption|assumption].
+  - rewrite E1. assumption.
+  - rewrite E2. assumption.
+Qed.
+
+Lemma done_sids_spec : forall w nm, NoDup (ths w) ->
+  NoDup (done_sids w nm) /\ forall s, In s (done_sids w nm) -> In (THDone s) (ths w).
+Proof.
+  intros w nm ND. split.
+  - apply sids_NoDup; [| |assumption].
+    + intros h s Hs. destruct h as [x|x|x]; try destruct Hs. destruct (onat_eqb _ _); [|destruct Hs]. destruct Hs as [E|[]]. subst. reflexivity.
+    + intros h h' s Hs Hs'. destruct h as [x|x|x]; try destruct Hs; destruct h' as [y|y|y]; try destruct Hs'.
+      destruct (onat_eqb (name_of_sid w x) _); [|destruct Hs]. destruct (onat_eqb (name_of_sid w y) _); [|destruct Hs'].
+      destruct Hs as [E|[]]. destruct Hs' as [E'|[]]. congruence.
+  - intros s Hs. apply (done_sids_In w nm s Hs).
+Qed.
+
+(* ---------------------------------------------------------------- _on_tick *)
+
+Lemma keeps_timeout : keeps_ids wst_timeout. Proof. intro s. simpl. auto. Qed.
+Lemma keeps_tick : keeps_ids wst_tick. Proof. intro s. simpl. auto. Qed.
+
+Lemma on_tick_full : forall X w sid, Full X w -> In (THTick sid) (ths w) ->
+  Full X (on_tick w sid) /\ (forall s, s <> sid -> In (THTick s) (ths w) -> In (THTick s) (ths (on_tick w sid))).
+Proof.
+  intros X w sid [B [HI HX]] Hin.
+  pose proof (on_tick_Inv w sid HI) as HInv. revert HInv.
+  unfold on_tick. rewrite B.
+  pose proof HI as [_ [I2 [I3 _]]]. specialize (I2 _ Hin). simpl in I2.
+  destruct (nth_error (wsts w) sid) as [st|] eqn:Hs; [|apply nth_error_None in Hs; lia].
+  pose proof (I3 sid st Hs) as [O1 O2 O3 O4 O5 O6 O7 O8 O9].
+  destruct (proj1 O3 Hin) as [Ph Tm].
+  assert (Hd : In (THDone sid) (ths w)). { apply O2. destruct Ph as [P|P]; rewrite P; discriminate. }
+  destruct (s_timeout st =? 0) eqn:T0.
+  - cbv zeta. set (t := mk_task (s_tevent st) (RTimeout sid) (Some (s_parent st))).
+    assert (P0 : EX X (reg_task t w)).
+    { pose proof HX as [_ [_ [_ [Hwst _]]]]. destruct (Hwst sid st Hs) as [W1 _].
+      apply EX_reg_nongen; [exact HX|reflexivity|exact W1]. }
+    assert (PF : forall w', evs w' = evs w -> gens w' = gens w -> wsts w' = wsts w -> tasks w' = tasks (reg_task t w) ->
+                   queue w' = queue w -> wlog w' = wlog w -> EX X (mod_wst sid wst_timeout w')).
+    { intros w' e1 e2 e3 e4 e5 e6. unfold EX. simpl. rewrite e1, e2, e3, e4, e5, e6.
+      unfold EX in P0. rewrite reg_task_evs, reg_task_gens, reg_task_wsts, reg_task_queue, reg_task_wlog in P0.
+      apply (EX_wst_plain X _ _ _ _ _ _ sid wst_timeout st P0 Hs keeps_timeout); [reflexivity|]. simpl. discriminate. }
+    destruct (s_run st) eqn:Rn.
+    + unfold rem_th_k.
+      assert (H1 : has_th (THDone sid) (reg_task t w) = true) by (apply has_th_In; rewrite reg_task_ths; exact Hd).
+      rewrite H1.
+      assert (H2 : has_th (THTick sid) (del_th (THDone sid) (reg_task t w)) = true).
+      { apply has_th_In. change (In (THTick sid) (filter (fun u => negb (th_eqb (THDone sid) u)) (ths (reg_task t w)))).
+        rewrite reg_task_ths. apply In_del. split; [assumption|discriminate]. }
+      rewrite H2. intro HInv. split.
+      * apply Full_of; [simpl; rewrite reg_task_bad; exact B|exact HInv|].
+        apply PF; simpl; auto using reg_task_evs, reg_task_gens, reg_task_wsts, reg_task_queue, reg_task_wlog.
+      * intros s Ne Hs'.
+        change (In (THTick s) (filter (fun u => negb (th_eqb (THTick sid) u)) (filter (fun u => negb (th_eqb (THDone sid) u)) (ths (reg_task t w))))).
+        rewrite reg_task_ths. apply In_del. split; [apply In_del; split; [assumption|discriminate]|]. intro E. inversion E. contradiction.
+    + assert (Pa : s_ph st = Armed). { destruct Ph as [P|P]; [assumption|]. apply O9 in P. congruence. }
+      assert (He : In (THEv sid) (ths w)) by (apply O1; assumption).
+      unfold rem_th_k.
+      assert (H0 : has_th (THEv sid) (reg_task t w) = true) by (apply has_th_In; rewrite reg_task_ths; exact He).
+      rewrite H0.
+      assert (H1 : has_th (THDone sid) (del_th (THEv sid) (reg_task t w)) = true).
+      { apply has_th_In. change (In (THDone sid) (filter (fun u => negb (th_eqb (THEv sid) u)) (ths (reg_task t w)))).
+        rewrite reg_task_ths. apply In_del. split; [assumption|discriminate]. }
+      rewrite H1.
+      assert (H2 : has_th (THTick sid) (del_th (THDone sid) (del_th (THEv sid) (reg_task t w))) = true).
+      { apply has_th_In.
+        change (In (THTick sid) (filter (fun u => negb (th_eqb (THDone sid) u)) (filter (fun u => negb (th_eqb (THEv sid) u)) (ths (reg_task t w))))).
+        rewrite reg_task_ths. apply In_del. split; [apply In_del; split; [assumption|discriminate]|discriminate]. }
+      rewrite H2. intro HInv. split.
+      * apply Full_of; [simpl; rewrite reg_task_bad; exact B|exact HInv|].
+        apply PF; simpl; auto using reg_task_evs, reg_task_gens, reg_task_wsts, reg_task_queue, reg_task_wlog.
+      * intros s Ne Hs'.
+        change (In (THTick s) (filter (fun u => negb (th_eqb (THTick sid) u)) (filter (fun u => negb (th_eqb (THDone sid) u))
+                  (filter (fun u => negb (th_eqb (THEv sid) u)) (ths (reg_task t w)))))).
+        rewrite reg_task_ths. apply In_del. split; [apply In_del; split; [apply In_del; split; [assumption|discriminate]|discriminate]|].
+        intro E. inversion E. contradiction.
+  - destruct (0 <? s_timeout st) eqn:T1.
+    + intro HInv. split; [|intros s Ne Hs'; exact Hs'].
+      apply Full_of; [exact B|exact HInv|]. unfold EX. simpl.
+      apply (EX_wst_plain X _ _ _ _ _ _ sid wst_tick st HX Hs keeps_tick); [reflexivity|]. simpl. auto.
+    + intro HInv. split; [split; [assumption|split; assumption]|auto].
+Qed.
+
+Lemma fold_on_tick_full : forall X sids w, Full X w -> NoDup sids -> (forall s, In s sids -> In (THTick s) (ths w)) ->
+  Full X (fold_left on_tick sids w).
+Proof.
+  intros X sids. induction sids as [|s r IH]; intros w HF ND Hin; simpl; [assumption|].
+  inversion ND as [|? ? Hns NDr]; subst.
+  destruct (on_tick_full X w s HF (Hin s (or_introl eq_refl))) as [F1 Fr].
+  apply IH; [assumption|assumption|]. intros s' Hs'. apply Fr; [intro; subst; contradiction|apply Hin; right; assumption].
+Qed.
+
+Lemma tick_sids_spec : forall w, NoDup (ths w) -> NoDup (tick_sids w) /\ forall s, In s (tick_sids w) -> In (THTick s) (ths w).
+Proof.
+  intros w ND. split.
+  - apply sids_NoDup; [| |assumption].
+    + intros h s Hs. destruct h as [x|x|x]; try destruct Hs. subst. reflexivity. destruct H.
+    + intros h h' s Hs Hs'. destruct h as [x|x|x]; try destruct Hs; destruct h' as [y|y|y]; try destruct Hs'; try congruence; try contradiction.
+  - intros s Hs. unfold tick_sids in Hs. apply in_flat_map in Hs. destruct Hs as [h [Hh Hs]].
+    destruct h as [x|x|x]; try destruct Hs. subst. assumption. destruct H.
+Qed.
+
+Lemma EX_push_gen : forall X es gs ss ts q lg, EXc X es gs ss ts q lg -> EXc X es gs ss ts (q ++ [QGenEv]) lg.
+Proof.
+  intros X es gs ss ts q lg [Hq [Hgi [Htask [Hwst [Hown [Hcnt [Hgate [Hqu [Hqd [Hnd [Hfl [Hres Hord]]]]]]]]]]]].
+  assert (Pend : forall x, In x (X ++ q ++ [QGenEv]) -> In x (X ++ q) \/ x = QGenEv).
+  { intros x Hx. rewrite app_assoc in Hx. apply in_app_iff in Hx. destruct Hx as [Hx|[Hx|[]]]; auto. }
+  unfold EXc. repeat match goal with |- _ /\ _ => split end; try assumption.
+  - intros x Hx. apply Pend in Hx. destruct Hx as [Hx|Hx]; [auto|subst; exact I].
+  - intros tok ev Hin. apply Pend in Hin. destruct Hin as [Hin|Hin]; [eauto|discriminate].
+  - intros tok ev Hin. apply Pend in Hin. destruct Hin as [Hin|Hin]; [eauto|discriminate].
+  - unfold F_qnodup in *. rewrite app_assoc, filter_app. simpl. rewrite app_nil_r. assumption.
+  - intros sid st Hs Ph. destruct (Hfl sid st Hs Ph) as [e [ev [A [B [C D]]]]]. exists e, ev. repeat split; try assumption.
+    intro Hin. apply Pend in Hin. destruct Hin as [Hin|Hin]; [contradiction|discriminate].
+Qed.
+
+Lemma EXc_pend_eq : forall X q X' q' es gs ss ts lg, X ++ q = X' ++ q' ->
+  EXc X es gs ss ts q lg -> EXc X' es gs ss ts q' lg.
+Proof.
+  intros X q X' q' es gs ss ts lg E. unfold EXc, F_q, F_quser, F_qdone, F_qnodup, F_flag. rewrite E. auto.
+Qed.
+
+Lemma dispatch_full : forall p q0 rest w, Full (q0 :: rest) w -> Full rest (dispatch p w q0).
+Proof.
+  intros p q0 rest w [B [HI HX]].
+  pose proof HX as [Hq [Hgi [Htask [Hwst [Hown [Hcnt [Hgate [Hqu [Hqd [Hnd [Hfl [Hres Hord]]]]]]]]]]]].
+  pose proof (EX_pop _ _ _ _ _ _ _ _ HX) as HP. pose proof HI as [I1 _].
+  unfold dispatch. rewrite B. destruct q0 as [tok|tok|tok|].
+  - (* a user event *)
+    assert (Rg : (tok < length (evs w))%nat) by (apply (Hq (QUser tok)); left; reflexivity).
+    destruct (nth_error (evs w) tok) as [ev|] eqn:H0; [|apply nth_error_None in H0; lia].
+    assert (D : e_dispatched ev = false) by (apply (Hqu tok ev); [left; reflexivity|assumption]).
+    destruct (Hgate tok ev H0) as [G1 _]. destruct (G1 D) as [G W].
+    assert (Ni : ~ In (QUser tok) (rest ++ queue w)) by (apply pop_notin; [reflexivity|assumption]).
+    set (w1 := add_log (LDisp tok) (mod_evt tok set_dispatched w)).
+    assert (P1 : EX rest w1).
+    { unfold EX, w1. simpl. apply EX_log1; [|intros ? ? ? ? ? ?; discriminate|left; reflexivity].
+      apply (EX_set_dispatched rest _ _ _ _ _ _ tok ev HP H0 D Ni). }
+    assert (D1 : disp_ok tok w1).
+    { exists (set_dispatched ev). unfold w1. simpl. split; [apply nth_error_upd_same; assumption|auto]. }
+    pose proof (run_handlers_EX (handlers_of p (e_name ev)) O rest tok w1 false B P1 D1) as RH.
+    pose proof (run_handlers_IC (handlers_of p (e_name ev)) tok O w1 false HI) as RI.
+    destruct (run_handlers tok O (handlers_of p (e_name ev)) (w1, false)) as [w2 err]. simpl in RH, RI.
+    destruct RH as [B2 [P2 [[ev2 [H2 [D2 G2]]] [T2 S2]]]].
+    destruct (ev_sids_spec w (e_name ev) I1) as [ND Hsids].
+    assert (F2 : Full rest w2) by (split; [assumption|split; assumption]).
+    destruct (fold_on_event_full rest tok (ev_sids w (e_name ev)) w2 ev2 F2 ND) as [F3 [ev3 [H3 [D3 [G3 W3]]]]].
+    { intros s Hs. rewrite T2. apply Hsids. assumption. }
+    { exact H2. }
+    destruct F3 as [B3 [I3 P3]].
+    destruct (event_done_EX rest _ tok err ev3 P3 H3) as [P4 B4]. { intros _. split; congruence. }
+    apply Full_of; [rewrite B4; exact B3| |exact P4].
+    apply (quiet_Inv _ (event_done_quiet tok err)). right. exact I3.
+  - (* <name>_done *)
+    assert (Rg : (tok < length (evs w))%nat) by (apply (Hq (QDone tok)); left; reflexivity).
+    destruct (nth_error (evs w) tok) as [ev|] eqn:H0; [|apply nth_error_None in H0; lia].
+    assert (Ge : (1 <= e_gate ev)%nat) by (apply (Hqd tok ev); [left; reflexivity|assumption]).
+    assert (Ni : ~ In (QDone tok) (rest ++ queue w)) by (apply pop_notin; [reflexivity|assumption]).
+    destruct (done_sids_spec w (e_name ev) I1) as [ND Hsids].
+    apply (fold_on_done_full rest tok _ w ev); try assumption.
+    + split; [assumption|split; assumption].
+    + intros s st _ Hs Ev Ph. destruct (Hfl s st Hs Ph) as [e [ev' [A [_ [_ Nq]]]]]. rewrite Ev in A. inversion A. subst e.
+      apply Nq. left. reflexivity.
+  - (* <name>_success *)
+    assert (Rg : (tok < length (evs w))%nat) by (apply (Hq (QSucc tok)); left; reflexivity).
+    destruct (nth_error (evs w) tok) as [ev|] eqn:H0; [|apply nth_error_None in H0; lia].
+    split; [exact B|]. split; [exact HI|].
+    unfold EX. simpl. apply EX_log1; [exact HP|intros ? ? ? ? ? ?; discriminate|left; reflexivity].
+  - (* generate_events *)
+    destruct (tick_sids_spec w I1) as [ND Hsids].
+    apply fold_on_tick_full; [split; [assumption|split; assumption]|assumption|assumption].
+Qed.
+
+Lemma fold_dispatch_full : forall p batch w, Full batch w -> Full [] (fold_left (dispatch p) batch w).
+Proof.
+  intros p batch. induction batch as [|q0 rest IH]; intros w HF; simpl; [assumption|].
+  apply IH. apply dispatch_full. assumption.
+Qed.
+
+Lemma tick_full : forall p g sch t w, Full [] w -> Full [] (tick p g sch t w).
+Proof.
+  intros p g sch t w [B [HI HX]]. unfold tick.
+  set (w0 := add_log (LTick t) w).
+  assert (F0 : Full [] w0).
+  { split; [exact B|]. split; [exact HI|]. unfold EX, w0. simpl.
+    apply EX_log1; [exact HX|intros ? ? ? ? ? ?; discriminate|left; reflexivity]. }
+  destruct (order_by_spec w0 sch (tasks w0)) as [N1 N2]; [destruct HI as [_ [_ [_ [D _]]]]; exact D|].
+  pose proof (fold_ptask_full _ [] w0 F0 N1 N2) as F1.
+  set (w1 := fold_left (fun w t => ptask t w) (order_by w0 sch (tasks w0)) w0) in *.
+  set (w2 := if g then push QGenEv w1 else w1).
+  assert (F2 : Full [] w2).
+  { unfold w2. destruct g; [|exact F1]. destruct F1 as [B1 [I1 P1]]. split; [exact B1|]. split; [exact I1|].
+    unfold EX. simpl. apply EX_push_gen. exact P1. }
+  apply fold_dispatch_full. destruct F2 as [B2 [I2 P2]]. split; [exact B2|]. split; [exact I2|].
+  unfold EX in *. simpl in *. apply (EXc_pend_eq [] (queue w2)); [rewrite app_nil_r; reflexivity|exact P2].
+Qed.
+
+Lemma fire_user_full : forall nm w, Full [] w -> Full [] (fst (fire_user nm O O w)).
+Proof.
+  intros nm w [B [HI HX]]. split; [exact B|]. split; [exact HI|].
+  unfold EX. simpl. apply EX_log1; [|intros ? ? ? ? ? ?; discriminate|left; reflexivity].
+  pose proof (EX_ext [] _ _ _ _ _ _ [nm] [] O (new_evt O) HX (or_introl eq_refl)) as P. simpl in P.
+  apply P; intros; contradiction.
+Qed.
+
+Lemma fire_roots_full : forall roots t w, Full [] w -> Full [] (fire_roots roots t w).
+Proof.
+  intros roots t. unfold fire_roots. induction roots as [|r rs IH]; intros w HF; simpl; [assumption|].
+  apply IH. destruct (Nat.eqb (fst r) t); [|assumption]. apply fire_user_full. assumption.
+Qed.
+
+Lemma run_from_full : forall p g scheds roots n t w, Full [] w -> Full [] (run_from p g scheds roots t n w).
+Proof.
+  intros p g scheds roots n. induction n as [|n IH]; intros t w HF; simpl; [assumption|].
+  apply IH. apply tick_full. apply fire_roots_full. assumption.
+Qed.
+
+Lemma EX_init : EX [] init.
+Proof.
+  unfold EX, init, EXc. simpl. repeat match goal with |- _ /\ _ => split end.
+  - intros x [].
+  - intros g gn H. destruct g; discriminate.
+  - intros t [].
+  - intros sid st H. destruct sid; discriminate.
+  - intros sid st H. destruct sid; discriminate.
+  - intros tok ev H. destruct tok as [|tok]; [|destruct tok; discriminate]. inversion H. subst. reflexivity.
+  - intros tok ev H. destruct tok as [|tok]; [|destruct tok; discriminate]. inversion H. subst. unfold gate_ok. simpl. split; [auto|lia].
+  - intros tok ev [].
+  - intros tok ev [].
+  - constructor.
+  - intros sid st H. destruct sid; discriminate.
+  - intros tok hi k e vals err [].
+  - exact I.
+Qed.
+
+Theorem run_full : forall p g scheds roots n, Full [] (run p g scheds roots n).
+Proof.
+  intros. unfold run. apply run_from_full. split; [reflexivity|]. split; [apply IC_init|apply EX_init].
+Qed.
+
+Theorem run_no_crash : forall p g scheds roots n, bad (run p g scheds roots n) = false.
+Proof. intros. destruct (run_full p g scheds roots n) as [B _]. exact B. Qed.
+
+(* ---------------------------------------------------------------- consequences for the log *)
+
+Lemma ord_ok_split : forall a tok hi k e vals err b, ord_ok (a ++ LRes tok hi k e vals err :: b) ->
+  forall x, In x a -> htok x <> Some e.
+Proof.
+  induction a as [|y r IH]; intros tok hi k e vals err b H x Hx; [destruct Hx|]. simpl in H. destruct H as [H1 H2].
+  destruct Hx as [E|Hx].
+  - subst y. apply (H1 tok hi k e vals err). apply in_app_iff. right. left. reflexivity.
+  - apply (IH tok hi k e vals err b H2 x Hx).
+Qed.
+
+(* the value and error flag delivered at a resumption are those of the event instance e, which has passed its
+   gate and keeps them to the end of the run *)
+Lemma resume_value : forall p g scheds roots n tok hi k e vals err, let w := run p g scheds roots n in
+  In (LRes tok hi k e vals err) (wlog w) ->
+  exists ev, nth_error (evs w) e = Some ev /\ e_vals ev = vals /\ e_errors ev = err /\
+             (1 <= e_gate ev)%nat /\ e_dispatched ev = true /\ e_waiting ev = 0.
+Proof.
+  intros p g scheds roots n tok hi k e vals err w Hin.
+  destruct (run_full p g scheds roots n) as [_ [_ HX]]. fold w in HX.
+  destruct HX as [_ [_ [_ [_ [_ [_ [Hgate [_ [_ [_ [_ [Hres _]]]]]]]]]]]].
+  destruct (Hres _ _ _ _ _ _ Hin) as [ev [A [B [C D]]]]. exists ev. destruct (Hgate e ev A) as [_ G2]. destruct (G2 B).
+  repeat split; assumption.
+Qed.
+
+(* after the entry that resumes a caller with the result of e, no handler of e makes a step any more;
+   e has been dispatched, holds no waitingHandlers count, and none of its handlers is a task or suspended in a wait *)
+Lemma resume_after_finish : forall p g scheds roots n l1 l2 tok hi k e vals err, let w := run p g scheds roots n in
+  rev (wlog w) = l1 ++ LRes tok hi k e vals err :: l2 ->
+  (forall x, In x l2 -> htok x <> Some e) /\
+  (forall t, In t (tasks w) -> t_ev t = e -> is_gen (t_ref t) = false) /\
+  (forall sid st, nth_error (wsts w) sid = Some st -> s_tevent st = e -> s_resumes st <> O).
+Proof.
+  intros p g scheds roots n l1 l2 tok hi k e vals err w Hsplit.
+  destruct (run_full p g scheds roots n) as [_ [_ HX]]. fold w in HX.
+  assert (Hin : In (LRes tok hi k e vals err) (wlog w)).
+  { apply in_rev. rewrite Hsplit. apply in_app_iff. right. left. reflexivity. }
+  destruct (resume_value p g scheds roots n tok hi k e vals err Hin) as [ev [A [_ [_ [G [D W]]]]]]. fold w in A.
+  destruct HX as [_ [_ [_ [_ [_ [Hcnt [_ [_ [_ [_ [_ [_ Hord]]]]]]]]]]]].
+  split; [|split].
+  - assert (E : wlog w = rev l2 ++ LRes tok hi k e vals err :: rev l1).
+    { rewrite <- (rev_involutive (wlog w)), Hsplit, rev_app_distr. simpl. rewrite <- app_assoc. reflexivity. }
+    unfold F_ord in Hord. rewrite E in Hord. intros x Hx. apply (ord_ok_split _ _ _ _ _ _ _ _ Hord). apply in_rev in Hx. exact Hx.
+  - specialize (Hcnt e ev A). rewrite W in Hcnt.
+    intros t Ht Te. destruct (is_gen (t_ref t)) eqn:Ig; [|reflexivity]. exfalso.
+    assert (gen_for e t = true) by (unfold gen_for; rewrite Te, Nat.eqb_refl, Ig; reflexivity).
+    pose proof (cnt_pos_gen e _ t Ht H). lia.
+  - specialize (Hcnt e ev A). rewrite W in Hcnt.
+    intros sid st Hs Te R0.
+    assert (owns e st = true) by (unfold owns, owning; rewrite Te, Nat.eqb_refl, R0; reflexivity).
+    pose proof (cnt_own_pos e _ sid st Hs H). lia.
+Qed.
+
+(* ---------------------------------------------------------------- the earlier results without the no-crash hypothesis *)
+
+Lemma residue_spec_nc : forall p g scheds roots n, let w := run p g scheds roots n in
+  NoDup (ths w) /\ forall h, In h (ths w) <-> exists st, nth_error (wsts w) (sid_of h) = Some st /\ wants h st.
+Proof. intros. apply residue_spec. apply run_no_crash. Qed.
+
+Lemma no_residue_all_dead_nc : forall p g scheds roots n, let w := run p g scheds roots n in
+  (forall sid st, nth_error (wsts w) sid = Some st -> s_ph st = Dead) ->
+  ths w = [] /\ forall t, In t (tasks w) -> forall sid, t_ref t <> RWait sid.
+Proof. intros p g scheds roots n w. apply no_residue_all_dead. apply run_no_crash. Qed.
+
+Lemma resume_accounting_nc : forall p g scheds roots n sid st, let w := run p g scheds roots n in
+  nth_error (wsts w) sid = Some st -> (s_resumes st + alive (s_ph st) + count_rt sid (tasks w) = 1)%nat.
+Proof. intros p g scheds roots n sid st w. apply resume_accounting. apply run_no_crash. Qed.
+
+Lemma resume_at_most_once_nc : forall p g scheds roots n sid st, let w := run p g scheds roots n in
+  nth_error (wsts w) sid = Some st ->
+  (s_resumes st <= 1)%nat /\ (s_resumes st = 1%nat -> s_ph st = Dead /\ count_rt sid (tasks w) = O).
+Proof. intros p g scheds roots n sid st w. apply resume_at_most_once. apply run_no_crash. Qed.
+
+Lemma timeout_not_early_nc : forall p g scheds roots n sid st, let w := run p g scheds roots n in
+  nth_error (wsts w) sid = Some st -> (s_timedout st = true \/ (0 < count_rt sid (tasks w))%nat) ->
+  Z.of_nat (s_ticks st) = s_tmo0 st + 1 /\ s_ph st = Dead.
+Proof. intros p g scheds roots n sid st w. apply timeout_not_early. apply run_no_crash. Qed.
+
+Lemma live_countdown_nc : forall p g scheds roots n sid st, let w := run p g scheds roots n in
+  nth_error (wsts w) sid = Some st -> s_timedout st = false -> 0 <= s_tmo0 st ->
+  0 <= s_timeout st /\ s_timeout st + Z.of_nat (s_ticks st) = s_tmo0 st.
+Proof. intros p g scheds roots n sid st w. apply live_countdown. apply run_no_crash. Qed.
+
+Lemma wait_task_flagged_nc : forall p g scheds roots n t sid, let w := run p g scheds roots n in
+  In t (tasks w) -> t_ref t = RWait sid ->
+  exists st, nth_error (wsts w) sid = Some st /\ s_ph st = Flagged /\ In (THDone sid) (ths w) /\
+             ~ In (THEv sid) (ths w) /\ ~ In (THTick sid) (ths w).
+Proof. intros p g scheds roots n t sid w. apply wait_task_flagged. apply run_no_crash. Qed.
+
+(* ================================================================== third invariant: what a quiet world looks like *)
+
+Section LFields.
+Variables excp exco : option nat.     (* the event instance whose QUser / QDone item is being dispatched right now *)
+Variables (X : list qitem) (es : list evt) (ss : list wst) (ts : list task) (q : list qitem).
+
+Definition L_fl : Prop := forall sid st, nth_error ss sid = Some st -> s_ph st = Flagged ->
+  In (mk_task (s_tevent st) (RWait sid) (Some (s_parent st))) ts.
+Definition L_p : Prop := forall sid st e, nth_error ss sid = Some st -> s_ph st = Armed -> s_obj st = Some e ->
+  Some e <> excp -> In (QUser e) (X ++ q).
+Definition L_o : Prop := forall sid st e ev, nth_error ss sid = Some st -> s_ph st = Seen -> s_event st = Some e ->
+  Some e <> exco -> nth_error es e = Some ev -> 0 < e_waiting ev \/ In (QDone e) (X ++ q).
+Definition L_m : Prop := forall sid st e, nth_error ss sid = Some st -> s_event st = Some e ->
+  exists ev, nth_error es e = Some ev /\ e_name ev = s_name st /\ e_alert ev = true.
+Definition L_m2 : Prop := forall sid st e, nth_error ss sid = Some st -> s_obj st = Some e ->
+  exists ev, nth_error es e = Some ev /\ e_name ev = s_name st.
+Definition L_v : Prop := forall sid st e sid' st', nth_error ss sid = Some st -> s_event st = Some e ->
+  nth_error ss sid' = Some st' -> s_tevent st' = e -> (sid < sid')%nat.
+Definition L_z : Prop := forall sid st, nth_error ss sid = Some st ->
+  exists ev, nth_error es (s_tevent st) = Some ev /\ e_dispatched ev = true.
+Definition L_se : Prop := forall sid st, nth_error ss sid = Some st -> s_ph st = Seen -> s_event st <> None.
+Definition ELc : Prop := L_fl /\ L_p /\ L_o /\ L_m /\ L_m2 /\ L_v /\ L_z /\ L_se.
+End LFields.
+
+Definition EL (excp exco : option nat) (X : list qitem) (w : world) : Prop :=
+  ELc excp exco X (evs w) (wsts w) (tasks w) (queue w).
+
+Ltac elsplit := unfold ELc; repeat match goal with |- _ /\ _ => split end; try assumption.
+
+(* E1: events appended, items pushed *)
+Lemma EL_ext : forall xp xo X es ss ts q news qs, ELc xp xo X es ss ts q -> ELc xp xo X (es ++ news) ss ts (q ++ qs).
+Proof.
+  intros xp xo X es ss ts q news qs [Hfl [Hp [Ho [Hm [Hm2 [Hv [Hz Hse]]]]]]].
+  assert (Sub : forall x, In x (X ++ q) -> In x (X ++ q ++ qs)).
+  { intros x Hx. rewrite app_assoc. apply in_app_iff. left. assumption. }
+  elsplit.
+  - intros sid st e Hs Ph Ob Ne. apply Sub. eauto.
+  - intros sid st e ev Hs Ph Ev Ne Hev. destruct (Hm sid st e Hs Ev) as [ev0 [A _]].
+    rewrite (nth_error_app_old es news e ev0 A) in Hev. inversion Hev. subst ev0.
+    destruct (Ho sid st e ev Hs Ph Ev Ne A) as [L|L]; [left; assumption|right; apply Sub; assumption].
+  - intros sid st e Hs Ev. destruct (Hm sid st e Hs Ev) as [ev [A B]]. exists ev. split; [apply nth_error_app_old; assumption|assumption].
+  - intros sid st e Hs Ob. destruct (Hm2 sid st e Hs Ob) as [ev [A B]]. exists ev. split; [apply nth_error_app_old; assumption|assumption].
+  - intros sid st Hs. destruct (Hz sid st Hs) as [ev [A B]]. exists ev. split; [apply nth_error_app_old; assumption|assumption].
+Qed.
+
+(* E2: one event record updated *)
+Lemma EL_evt : forall xp xo X es ss ts q tev F ev0, ELc xp xo X es ss ts q -> nth_error es tev = Some ev0 ->
+  e_name (F ev0) = e_name ev0 -> (e_alert ev0 = true -> e_alert (F ev0) = true) ->
+  (e_dispatched ev0 = true -> e_dispatched (F ev0) = true) ->
+  (xo = Some tev \/ (0 < e_waiting ev0 -> 0 < e_waiting (F ev0))) ->
+  ELc xp xo X (upd_nth tev F es) ss ts q.
+Proof.
+  intros xp xo X es ss ts q tev F ev0 [Hfl [Hp [Ho [Hm [Hm2 [Hv [Hz Hse]]]]]]] H0 Fn Fa Fd Fw.
+  assert (Look : forall e ev, nth_error es e = Some ev -> exists ev', nth_error (upd_nth tev F es) e = Some ev' /\
+            e_name ev' = e_name ev /\ (e_alert ev = true -> e_alert ev' = true) /\ (e_dispatched ev = true -> e_dispatched ev' = true)).
+  { intros e ev He. destruct (Nat.eq_dec e tev) as [E|E].
+    - subst e. rewrite H0 in He. inversion He. subst ev. exists (F ev0). split; [apply nth_error_upd_same; assumption|auto].
+    - exists ev. split; [rewrite nth_error_upd_other by congruence; assumption|auto]. }
+  elsplit.
+  - intros sid st e ev Hs Ph Ev Ne Hev. destruct (Nat.eq_dec e tev) as [E|E].
+    + subst e. rewrite (nth_error_upd_same F es tev ev0 H0) in Hev. inversion Hev. subst ev.
+      destruct Fw as [Fw|Fw]; [congruence|]. destruct (Ho sid st tev ev0 Hs Ph Ev Ne H0) as [L|L]; [left; auto|right; assumption].
+    + rewrite nth_error_upd_other in Hev by congruence. eauto.
+  - intros sid st e Hs Ev. destruct (Hm sid st e Hs Ev) as [ev [A [B C]]]. destruct (Look e ev A) as [ev' [A' [B' [C' _]]]].
+    exists ev'. split; [assumption|]. split; [congruence|auto].
+  - intros sid st e Hs Ob. destruct (Hm2 sid st e Hs Ob) as [ev [A B]]. destruct (Look e ev A) as [ev' [A' [B' _]]].
+    exists ev'. split; [assumption|congruence].
+  - intros sid st Hs. destruct (Hz sid st Hs) as [ev [A B]]. destruct (Look _ ev A) as [ev' [A' [_ [_ D']]]]. exists ev'. auto.
+Qed.
+
+(* E3/E4: the task set *)
+Lemma EL_tasks : forall xp xo X es ss ts ts' q, ELc xp xo X es ss ts q ->
+  (forall sid st, nth_error ss sid = Some st -> s_ph st = Flagged ->
+     In (mk_task (s_tevent st) (RWait sid) (Some (s_parent st))) ts -> In (mk_task (s_tevent st) (RWait sid) (Some (s_parent st))) ts') ->
+  ELc xp xo X es ss ts' q.
+Proof.
+  intros xp xo X es ss ts ts' q [Hfl [Hp [Ho [Hm [Hm2 [Hv [Hz Hse]]]]]]] Sub. elsplit.
+  intros sid st Hs Ph. apply (Sub sid st Hs Ph). apply Hfl; assumption.
+Qed.
+
+Definition keeps_all (R : wst -> wst) : Prop :=
+  forall st, s_tevent (R st) = s_tevent st /\ s_parent (R st) = s_parent st /\ s_event (R st) = s_event st /\
+             s_obj (R st) = s_obj st /\ s_name (R st) = s_name st.
+
+(* E5: a wait state changes phase without becoming armed / seen / flagged *)
+Lemma EL_wst_upd : forall xp xo X es ss ts q sid R st, ELc xp xo X es ss ts q -> nth_error ss sid = Some st -> keeps_all R ->
+  (s_ph (R st) = Flagged -> s_ph st = Flagged) -> (s_ph (R st) = Armed -> s_ph st = Armed) -> (s_ph (R st) = Seen -> s_ph st = Seen) ->
+  ELc xp xo X es (upd_nth sid R ss) ts q.
+Proof.
+  intros xp xo X es ss ts q sid R st [Hfl [Hp [Ho [Hm [Hm2 [Hv [Hz Hse]]]]]]] Hs K P1 P2 P3.
+  destruct (K st) as [K1 [K2 [K3 [K4 K5]]]].
+  assert (Back : forall s1 st1, nth_error (upd_nth sid R ss) s1 = Some st1 ->
+     exists st0, nth_error ss s1 = Some st0 /\ s_tevent st1 = s_tevent st0 /\ s_parent st1 = s_parent st0 /\ s_event st1 = s_event st0 /\
+                 s_obj st1 = s_obj st0 /\ s_name st1 = s_name st0 /\
+                 (s_ph st1 = Flagged -> s_ph st0 = Flagged) /\ (s_ph st1 = Armed -> s_ph st0 = Armed) /\ (s_ph st1 = Seen -> s_ph st0 = Seen)).
+  { intros s1 st1 H1. apply nth_error_upd_inv in H1. destruct H1 as [[E [x [A B]]]|[E A]].
+    - subst s1 st1. rewrite Hs in A. inversion A. subst x. exists st. auto 12.
+    - exists st1. auto 12. }
+  elsplit.
+  - intros s1 st1 H1 Ph. destruct (Back s1 st1 H1) as [st0 [B0 [B1 [B2 [B3 [B4 [B5 [B6 [B7 B8]]]]]]]]]. rewrite B1, B2. apply Hfl; auto.
+  - intros s1 st1 e H1 Ph Ob Ne. destruct (Back s1 st1 H1) as [st0 [B0 [B1 [B2 [B3 [B4 [B5 [B6 [B7 B8]]]]]]]]]. apply (Hp s1 st0 e); auto. congruence.
+  - intros s1 st1 e ev H1 Ph Ev Ne Hev. destruct (Back s1 st1 H1) as [st0 [B0 [B1 [B2 [B3 [B4 [B5 [B6 [B7 B8]]]]]]]]]. apply (Ho s1 st0 e ev); auto. congruence.
+  - intros s1 st1 e H1 Ev. destruct (Back s1 st1 H1) as [st0 [B0 [B1 [B2 [B3 [B4 [B5 _]]]]]]]. rewrite B5. apply (Hm s1 st0 e); auto. congruence.
+  - intros s1 st1 e H1 Ob. destruct (Back s1 st1 H1) as [st0 [B0 [B1 [B2 [B3 [B4 [B5 _]]]]]]]. rewrite B5. apply (Hm2 s1 st0 e); auto. congruence.
+  - intros s1 st1 e s2 st2 H1 Ev H2 Te. destruct (Back s1 st1 H1) as [st0 [B0 [B1 [B2 [B3 _]]]]]. destruct (Back s2 st2 H2) as [st3 [C0 [C1 _]]].
+    apply (Hv s1 st0 e s2 st3); auto; congruence.
+  - intros s1 st1 H1. destruct (Back s1 st1 H1) as [st0 [B0 [B1 _]]]. rewrite B1. eauto.
+  - intros s1 st1 H1 Ph. destruct (Back s1 st1 H1) as [st0 [B0 [B1 [B2 [B3 [B4 [B5 [B6 [B7 B8]]]]]]]]]. rewrite B3. eauto.
+Qed.
+
+(* E6: _on_event *)
+Lemma EL_wst_seen : forall xp X es ss ts q sid st tok ev, ELc xp (Some tok) X es ss ts q -> nth_error ss sid = Some st ->
+  nth_error es tok = Some ev -> e_name ev = s_name st -> e_alert ev = true ->
+  (forall s' st', nth_error ss s' = Some st' -> s_tevent st' <> tok) ->
+  ELc xp (Some tok) X es (upd_nth sid (wst_seen tok) ss) ts q.
+Proof.
+  intros xp X es ss ts q sid st tok ev [Hfl [Hp [Ho [Hm [Hm2 [Hv [Hz Hse]]]]]]] Hs He Nm Al NoT.
+  assert (Back : forall s1 st1, nth_error (upd_nth sid (wst_seen tok) ss) s1 = Some st1 ->
+     (s1 = sid /\ st1 = wst_seen tok st) \/ (s1 <> sid /\ nth_error ss s1 = Some st1)).
+  { intros s1 st1 H1. apply nth_error_upd_inv in H1. destruct H1 as [[E [x [A B]]]|[E A]].
+    - left. subst. rewrite Hs in A. inversion A. auto.
+    - right. auto. }
+  elsplit.
+  - intros s1 st1 H1 Ph. destruct (Back s1 st1 H1) as [[E1 E2]|[E1 E2]]; [subst; discriminate|auto].
+  - intros s1 st1 e H1 Ph Ob Ne. destruct (Back s1 st1 H1) as [[E1 E2]|[E1 E2]]; [subst; discriminate|eauto].
+  - intros s1 st1 e ev' H1 Ph Ev Ne Hev. destruct (Back s1 st1 H1) as [[E1 E2]|[E1 E2]]; [subst; simpl in Ev; congruence|eauto].
+  - intros s1 st1 e H1 Ev. destruct (Back s1 st1 H1) as [[E1 E2]|[E1 E2]]; [|eauto].
+    subst. simpl in Ev. inversion Ev; subst. exists ev. auto.
+  - intros s1 st1 e H1 Ob. destruct (Back s1 st1 H1) as [[E1 E2]|[E1 E2]]; [subst; simpl in *; eauto|eauto].
+  - intros s1 st1 e s2 st2 H1 Ev H2 Te.
+    assert (T2 : exists st3, nth_error ss s2 = Some st3 /\ s_tevent st3 = e).
+    { destruct (Back s2 st2 H2) as [[E1 E2]|[E1 E2]]; [subst; exists st; auto|exists st2; auto]. }
+    destruct T2 as [st3 [T2 T3]].
+    destruct (Back s1 st1 H1) as [[E1 E2]|[E1 E2]].
+    + subst s1 st1. simpl in Ev. exfalso. apply (NoT s2 st3 T2). congruence.
+    + apply (Hv s1 st1 e s2 st3); auto.
+  - intros s1 st1 H1. destruct (Back s1 st1 H1) as [[E1 E2]|[E1 E2]]; [subst; simpl; eauto|eauto].
+  - intros s1 st1 H1 Ph. destruct (Back s1 st1 H1) as [[E1 E2]|[E1 E2]]; [subst; simpl; discriminate|eauto].
+Qed.
+
+(* E7: _on_done *)
+Lemma EL_wst_flag : forall xp xo X es ss ts q sid st, ELc xp xo X es ss ts q -> nth_error ss sid = Some st ->
+  In (mk_task (s_tevent st) (RWait sid) (Some (s_parent st))) ts ->
+  ELc xp xo X es (upd_nth sid (wst_phase Flagged) ss) ts q.
+Proof.
+  intros xp xo X es ss ts q sid st [Hfl [Hp [Ho [Hm [Hm2 [Hv [Hz Hse]]]]]]] Hs Hin.
+  assert (Back : forall s1 st1, nth_error (upd_nth sid (wst_phase Flagged) ss) s1 = Some st1 ->
+     (s1 = sid /\ st1 = wst_phase Flagged st) \/ (s1 <> sid /\ nth_error ss s1 = Some st1)).
+  { intros s1 st1 H1. apply nth_error_upd_inv in H1. destruct H1 as [[E [x [A B]]]|[E A]].
+    - left. subst. rewrite Hs in A. inversion A. auto.
+    - right. auto. }
+  elsplit.
+  - intros s1 st1 H1 Ph. destruct (Back s1 st1 H1) as [[E1 E2]|[E1 E2]]; [subst; simpl; assumption|auto].
+  - intros s1 st1 e H1 Ph Ob Ne. destruct (Back s1 st1 H1) as [[E1 E2]|[E1 E2]]; [subst; discriminate|eauto].
+  - intros s1 st1 e ev' H1 Ph Ev Ne Hev. destruct (Back s1 st1 H1) as [[E1 E2]|[E1 E2]]; [subst; discriminate|eauto].
+  - intros s1 st1 e H1 Ev. destruct (Back s1 st1 H1) as [[E1 E2]|[E1 E2]]; [subst; simpl in *; eauto|eauto].
+  - intros s1 st1 e H1 Ob. destruct (Back s1 st1 H1) as [[E1 E2]|[E1 E2]]; [subst; simpl in *; eauto|eauto].
+  - intros s1 st1 e s2 st2 H1 Ev H2 Te.
+    assert (T1 : exists st0, nth_error ss s1 = Some st0 /\ s_event st0 = Some e).
+    { destruct (Back s1 st1 H1) as [[E1 E2]|[E1 E2]]; [subst; exists st; auto|exists st1; auto]. }
+    assert (T2 : exists st3, nth_error ss s2 = Some st3 /\ s_tevent st3 = e).
+    { destruct (Back s2 st2 H2) as [[E1 E2]|[E1 E2]]; [subst; exists st; auto|exists st2; auto]. }
+    destruct T1 as [st0 [A1 A2]]. destruct T2 as [st3 [A3 A4]]. apply (Hv s1 st0 e s2 st3); auto.
+  - intros s1 st1 H1. destruct (Back s1 st1 H1) as [[E1 E2]|[E1 E2]]; [subst; simpl; eauto|eauto].
+  - intros s1 st1 H1 Ph. destruct (Back s1 st1 H1) as [[E1 E2]|[E1 E2]]; [subst; discriminate|eauto].
+Qed.
+
+(* E8: a new wait is installed *)
+Lemma EL_wst_new : forall xp xo X es ss ts q nw, ELc xp xo X es ss ts q ->
+  s_ph nw = Armed -> s_event nw = None ->
+  (forall e, s_obj nw = Some e -> In (QUser e) (X ++ q) /\ exists ev, nth_error es e = Some ev /\ e_name ev = s_name nw) ->
+  (exists ev, nth_error es (s_tevent nw) = Some ev /\ e_dispatched ev = true) ->
+  ELc xp xo X es (ss ++ [nw]) ts q.
+Proof.
+  intros xp xo X es ss ts q nw [Hfl [Hp [Ho [Hm [Hm2 [Hv [Hz Hse]]]]]]] N1 N2 N3 N4.
+  elsplit.
+  - intros s1 st1 H1 Ph. apply nth_error_snoc in H1. destruct H1 as [[H1 _]|[_ E]]; [auto|subst; congruence].
+  - intros s1 st1 e H1 Ph Ob Ne. apply nth_error_snoc in H1. destruct H1 as [[H1 _]|[_ E]]; [eauto|]. subst. apply N3. assumption.
+  - intros s1 st1 e ev H1 Ph Ev Ne Hev. apply nth_error_snoc in H1. destruct H1 as [[H1 _]|[_ E]]; [eauto|subst; congruence].
+  - intros s1 st1 e H1 Ev. apply nth_error_snoc in H1. destruct H1 as [[H1 _]|[_ E]]; [eauto|subst; congruence].
+  - intros s1 st1 e H1 Ob. apply nth_error_snoc in H1. destruct H1 as [[H1 _]|[_ E]]; [eauto|]. subst. apply N3. assumption.
+  - intros s1 st1 e s2 st2 H1 Ev H2 Te. apply nth_error_snoc in H1. destruct H1 as [[H1 L1]|[_ E]]; [|subst; congruence].
+    apply nth_error_snoc in H2. destruct H2 as [[H2 _]|[L2 _]]; [eauto|lia].
+  - intros s1 st1 H1. apply nth_error_snoc in H1. destruct H1 as [[H1 _]|[_ E]]; [eauto|subst; assumption].
+  - intros s1 st1 H1 Ph. apply nth_error_snoc in H1. destruct H1 as [[H1 _]|[_ E]]; [eauto|subst; congruence].
+Qed.
+
+(* E9: the head of the pending items is taken *)
+Definition pexc (x : qitem) : option nat := match x with QUser t => Some t | _ => None end.
+Definition oexc (x : qitem) : option nat := match x with QDone t => Some t | _ => None end.
+
+Lemma EL_pop : forall x X es ss ts q, ELc None None (x :: X) es ss ts q -> ELc (pexc x) (oexc x) X es ss ts q.
+Proof.
+  intros x X es ss ts q [Hfl [Hp [Ho [Hm [Hm2 [Hv [Hz Hse]]]]]]]. elsplit.
+  - intros sid st e Hs Ph Ob Ne. assert (N : Some e <> None) by discriminate.
+    destruct (Hp sid st e Hs Ph Ob N) as [E|E]; [|assumption]. subst x. simpl in Ne. congruence.
+  - intros sid st e ev Hs Ph Ev Ne Hev. assert (N : Some e <> None) by discriminate.
+    destruct (Ho sid st e ev Hs Ph Ev N Hev) as [L|[E|E]]; [left; assumption| |right; assumption]. subst x. simpl in Ne. congruence.
+Qed.
+
+(* weaken the exceptions *)
+Lemma EL_weaken : forall xp xo xp' xo' X es ss ts q, ELc xp xo X es ss ts q ->
+  (xp = None \/ xp = xp') -> (xo = None \/ xo = xo') -> ELc xp' xo' X es ss ts q.
+Proof.
+  intros xp xo xp' xo' X es ss ts q [Hfl [Hp [Ho [Hm [Hm2 [Hv [Hz Hse]]]]]]] A B. elsplit.
+  - intros sid st e Hs Ph Ob Ne. apply (Hp sid st e); auto. destruct A; subst; [discriminate|assumption].
+  - intros sid st e ev Hs Ph Ev Ne Hev. apply (Ho sid st e ev); auto. destruct B; subst; [discriminate|assumption].
+Qed.
+
+(* E11: the exceptions are discharged *)
+Lemma EL_close : forall xp xo X es ss ts q, ELc xp xo X es ss ts q ->
+  (forall sid st e, xp = Some e -> nth_error ss sid = Some st -> s_ph st = Armed -> s_obj st = Some e -> In (QUser e) (X ++ q)) ->
+  (forall sid st e ev, xo = Some e -> nth_error ss sid = Some st -> s_ph st = Seen -> s_event st = Some e -> nth_error es e = Some ev ->
+     0 < e_waiting ev \/ In (QDone e) (X ++ q)) ->
+  ELc None None X es ss ts q.
+Proof.
+  intros xp xo X es ss ts q [Hfl [Hp [Ho [Hm [Hm2 [Hv [Hz Hse]]]]]]] A B. elsplit.
+  - intros sid st e Hs Ph Ob _. destruct xp as [e'|]; [destruct (Nat.eq_dec e e') as [E|E]|].
+    + subst. eapply A; eauto.
+    + apply (Hp sid st e); auto. congruence.
+    + apply (Hp sid st e); auto. discriminate.
+  - intros sid st e ev Hs Ph Ev _ Hev. destruct xo as [e'|]; [destruct (Nat.eq_dec e e') as [E|E]|].
+    + subst. eapply B; eauto.
+    + apply (Ho sid st e ev); auto. congruence.
+    + apply (Ho sid st e ev); auto. discriminate.
+Qed.
+
+Lemma run_steps_wait : forall sts tok hi k w w' nm obj tmo cv k' rest,
+  run_steps tok hi k sts w = (w', GWait nm obj tmo cv, k', rest) ->
+  forall t, obj = Some t -> In (QUser t) (queue w') /\ nth_error (evs w') t = Some (new_evt nm).
+Proof.
+  induction sts as [|s sts IH]; intros tok hi k w w' nm obj tmo cv k' rest H t Ht; simpl in H; [discriminate|].
+  destruct s as [v|nm0 tmo0|nm0|nm0 tmo0 fire| |nm0]; try discriminate.
+  - subst obj. inversion H; subst. simpl. split.
+    + apply in_app_iff. right. left. reflexivity.
+    + rewrite nth_error_app2 by lia. rewrite Nat.sub_diag. reflexivity.
+  - subst obj. inversion H; subst. simpl. split.
+    + apply in_app_iff. right. left. reflexivity.
+    + rewrite nth_error_app2 by lia. rewrite Nat.sub_diag. reflexivity.
+  - destruct fire; inversion H; subst; discriminate.
+  - eapply IH; eauto.
+Qed.
+
+Lemma gen_resume_wait : forall gid how w w1 nm obj tmo cv, gen_resume gid how w = (w1, GWait nm obj tmo cv) ->
+  forall t, obj = Some t -> In (QUser t) (queue w1) /\ nth_error (evs w1) t = Some (new_evt nm).
+Proof.
+  intros gid how w w1 nm obj tmo cv H t Ht. unfold gen_resume in H.
+  destruct (nth_error (gens w) gid) as [gn|]; [|discriminate].
+  destruct (g_rest gn) as [sts|]; [|destruct how; discriminate].
+  set (w0 := match how with
+             | RNext => if g_atcall gn then set_bad w else w
+             | RSend _ => if g_atcall gn then w else set_bad w
+             | RThrow => if g_atcall gn then w else set_bad w end) in *.
+  destruct how as [|e|].
+  - destruct (run_steps (g_tok gn) (g_hi gn) (g_k gn) sts w0) as [[[w2 r2] k2] rest2] eqn:Run.
+    injection H as Hw Hr. subst w1 r2. exact (run_steps_wait _ _ _ _ _ _ _ _ _ _ _ _ Run t Ht).
+  - destruct (nth_error (evs w0) e) as [ev|].
+    + destruct (run_steps (g_tok gn) (g_hi gn) (g_k gn) sts _) as [[[w2 r2] k2] rest2] eqn:Run.
+      injection H as Hw Hr. subst w1 r2. exact (run_steps_wait _ _ _ _ _ _ _ _ _ _ _ _ Run t Ht).
+    + destruct (run_steps (g_tok gn) (g_hi gn) (g_k gn) sts _) as [[[w2 r2] k2] rest2] eqn:Run.
+      injection H as Hw Hr. subst w1 r2. exact (run_steps_wait _ _ _ _ _ _ _ _ _ _ _ _ Run t Ht).
+  - destruct (g_catch gn); [|discriminate].
+    destruct (run_steps (g_tok gn) (g_hi gn) (g_k gn) sts _) as [[[w2 r2] k2] rest2] eqn:Run.
+    injection H as Hw Hr. subst w1 r2. exact (run_steps_wait _ _ _ _ _ _ _ _ _ _ _ _ Run t Ht).
+Qed.
+
+Lemma EL_close_o : forall xp xo X es ss ts q, ELc xp xo X es ss ts q ->
+  (forall sid st e ev, xo = Some e -> nth_error ss sid = Some st -> s_ph st = Seen -> s_event st = Some e -> nth_error es e = Some ev ->
+     0 < e_waiting ev \/ In (QDone e) (X ++ q)) ->
+  ELc xp None X es ss ts q.
+Proof.
+  intros xp xo X es ss ts q [Hfl [Hp [Ho [Hm [Hm2 [Hv [Hz Hse]]]]]]] B. elsplit.
+  intros sid st e ev Hs Ph Ev _ Hev. destruct xo as [e'|]; [destruct (Nat.eq_dec e e') as [E|E]|].
+  - subst. eapply B; eauto.
+  - apply (Ho sid st e ev); auto. congruence.
+  - apply (Ho sid st e ev); auto. discriminate.
+Qed.
+
+Lemma EL_close_p : forall xp xo X es ss ts q, ELc xp xo X es ss ts q ->
+  (forall sid st e, xp = Some e -> nth_error ss sid = Some st -> s_ph st = Armed -> s_obj st = Some e -> In (QUser e) (X ++ q)) ->
+  ELc None xo X es ss ts q.
+Proof.
+  intros xp xo X es ss ts q [Hfl [Hp [Ho [Hm [Hm2 [Hv [Hz Hse]]]]]]] A. elsplit.
+  intros sid st e Hs Ph Ob _. destruct xp as [e'|]; [destruct (Nat.eq_dec e e') as [E|E]|].
+  - subst. eapply A; eauto.
+  - apply (Hp sid st e); auto. congruence.
+  - apply (Hp sid st e); auto. discriminate.
+Qed.
+
+Lemma waiting_nonneg : forall X w tok ev, EX X w -> nth_error (evs w) tok = Some ev -> 0 <= e_waiting ev.
+Proof. intros X w tok ev [_ [_ [_ [_ [_ [Hcnt _]]]]]] H. rewrite (Hcnt tok ev H). lia. Qed.
+
+(* _eventDone discharges the exception for its event *)
+Lemma event_done_waiting : forall w tok err ev, nth_error (evs w) tok = Some ev ->
+  exists ev', nth_error (evs (event_done tok err w)) tok = Some ev' /\ e_waiting ev' = e_waiting ev.
+Proof.
+  intros w tok err ev H0. unfold event_done. rewrite H0. destruct (e_waiting ev =? 0); [|eauto].
+  exists (inc_gate ev). split; [|reflexivity].
+  destruct (e_alert ev); destruct (err || e_errors ev); simpl; apply nth_error_upd_same; assumption.
+Qed.
+
+Lemma event_done_EL : forall xp X w tok err ev, 0 <= e_waiting ev -> EL xp (Some tok) X w -> nth_error (evs w) tok = Some ev ->
+  EL xp None X (event_done tok err w).
+Proof.
+  intros xp X w tok err ev NN HL H0.
+  unfold event_done. rewrite H0. destruct (e_waiting ev =? 0) eqn:W.
+  - apply Z.eqb_eq in W.
+    set (qs := (if e_alert ev then [QDone tok] else []) ++ (if err || e_errors ev then [] else [QSucc tok])).
+    assert (P : ELc xp (Some tok) X (upd_nth tok inc_gate (evs w)) (wsts w) (tasks w) (queue w ++ qs)).
+    { pose proof (EL_evt xp (Some tok) X _ _ _ _ tok inc_gate ev HL H0 eq_refl (fun a => a) (fun a => a) (or_introl eq_refl)) as P1.
+      pose proof (EL_ext _ _ _ _ _ _ _ [] qs P1) as P2. rewrite app_nil_r in P2. exact P2. }
+    assert (P' : ELc xp None X (upd_nth tok inc_gate (evs w)) (wsts w) (tasks w) (queue w ++ qs)).
+    { apply (EL_close_o _ _ _ _ _ _ _ P). intros sid st e ev' E Hs Ph Ev Hev. inversion E. subst e.
+      destruct HL as [_ [_ [_ [Hm _]]]]. destruct (Hm sid st tok Hs Ev) as [ev0 [A [_ Al]]]. rewrite H0 in A. inversion A. subst ev0.
+      right. rewrite app_assoc. apply in_app_iff. right. unfold qs. rewrite Al. left. reflexivity. }
+    unfold EL. unfold qs in P'. destruct (e_alert ev); destruct (err || e_errors ev); simpl in *; rewrite ?app_nil_r in P'; try rewrite <- app_assoc; exact P'.
+  - apply Z.eqb_neq in W. apply (EL_close_o _ _ _ _ _ _ _ HL). intros sid st e ev' E Hs Ph Ev Hev. inversion E. subst e.
+    rewrite H0 in Hev. inversion Hev. subst ev'. left. lia.
+Qed.
+
+Lemma keeps_all_resumed : keeps_all wst_resumed. Proof. intro s. simpl. auto. Qed.
+Lemma keeps_all_thrown : keeps_all wst_thrown. Proof. intro s. simpl. auto. Qed.
+Lemma keeps_all_timeout : keeps_all wst_timeout. Proof. intro s. simpl. auto. Qed.
+Lemma keeps_all_tick : keeps_all wst_tick. Proof. intro s. simpl. auto. Qed.
+
+Lemma pos_of_task : forall X w tev ev t, EX X w -> nth_error (evs w) tev = Some ev -> In t (tasks w) -> gen_for tev t = true ->
+  0 < e_waiting ev.
+Proof.
+  intros X w tev ev t [_ [_ [_ [_ [_ [Hcnt _]]]]]] H Hin G. rewrite (Hcnt tev ev H). pose proof (cnt_pos_gen tev _ t Hin G). lia.
+Qed.
+
+Lemma cont_EL : forall X w w0 sid st R t how tev p,
+  EX X w -> EL None None X w ->
+  nth_error (wsts w) sid = Some st -> owning st = true -> s_parent st = p -> s_tevent st = tev ->
+  keeps_all R -> s_ph (R st) = Dead ->
+  (forall s st', nth_error (wsts w) s = Some st' -> s <> sid -> mk_task (s_tevent st') (RWait s) (Some (s_parent st')) <> t) ->
+  evs w0 = evs w -> gens w0 = gens w -> wsts w0 = upd_nth sid R (wsts w) ->
+  tasks w0 = filter (fun u => negb (task_eqb t u)) (tasks w) -> queue w0 = queue w ->
+  EX X (continue_parent tev p how w0) ->
+  EL None None X (continue_parent tev p how w0).
+Proof.
+  intros X w w0 sid st R t how tev p HX HL Hs Ow Pg Te K Pd Nt E1 E2 E3 E4 E5 HXf.
+  pose proof HX as [Hq [Hgi [Htask [Hwst [Hown [Hcnt [Hgate _]]]]]]].
+  destruct (Hown sid st Hs Ow) as [[gn [A1 [A2 A3]]] [NoG Uq]]. rewrite Pg in A1, NoG. rewrite Te in A2.
+  destruct (Hwst sid st Hs) as [W1 _]. rewrite Te in W1.
+  destruct (nth_error (evs w) tev) as [ev0|] eqn:H0; [|apply nth_error_None in H0; lia].
+  revert HXf. unfold continue_parent. destruct (gen_resume p how w0) as [w1 r] eqn:GR. intro HXf.
+  assert (A1' : nth_error (gens w0) p = Some gn) by (rewrite E2; exact A1).
+  destruct (gen_resume_spec p how w0 w1 r gn GR A1') as [nms [ls [f [Ext _]]]].
+  destruct Ext as [_ [X2 [X3 [X4 [X5 X6]]]]]. rewrite E1 in X4, X5. rewrite E3 in X2. rewrite E4 in X3. rewrite E5 in X5.
+  set (esA := evs w ++ map new_evt nms) in *. set (qA := queue w ++ map QUser (seq (length (evs w)) (length nms))) in *.
+  assert (H0A : nth_error esA tev = Some ev0) by (apply nth_error_app_old; assumption).
+  (* extension, the wait consumed, its task removed *)
+  pose proof (EL_ext None None X _ _ _ _ (map new_evt nms) (map QUser (seq (length (evs w)) (length nms))) HL) as PA.
+  fold esA qA in PA.
+  assert (PB : ELc None None X esA (upd_nth sid R (wsts w)) (tasks w) qA).
+  { apply (EL_wst_upd None None X esA _ _ qA sid R st PA Hs K); rewrite Pd; discriminate. }
+  assert (PC : ELc None None X esA (upd_nth sid R (wsts w)) (filter (fun u => negb (task_eqb t u)) (tasks w)) qA).
+  { apply (EL_tasks _ _ _ _ _ _ _ _ PB). intros s st' Hs' Ph Hin. apply In_unreg. split; [assumption|].
+    apply nth_error_upd_inv in Hs'. destruct Hs' as [[E [x [A B]]]|[E A]].
+    - subst s st'. rewrite Hs in A. inversion A. subst x. rewrite Pd in Ph. discriminate.
+    - apply (Nt s st' A). congruence. }
+  assert (Zt : exists ev, nth_error esA tev = Some ev /\ e_dispatched ev = true).
+  { destruct HL as [_ [_ [_ [_ [_ [_ [Hz _]]]]]]]. destruct (Hz sid st Hs) as [ev [B1 B2]]. rewrite Te in B1. exists ev.
+    split; [apply nth_error_app_old; assumption|assumption]. }
+  destruct r as [v|nm obj tmo cv| |].
+  - (* plain yield: the handler goes on as a task *)
+    set (Fv := fun e => add_oval v (add_wait (-1) e)).
+    assert (P1 : ELc None (Some tev) X (upd_nth tev Fv esA) (upd_nth sid R (wsts w))
+                   (filter (fun u => negb (task_eqb t u)) (tasks w)) qA).
+    { apply (EL_evt None (Some tev) X esA _ _ qA tev Fv ev0); auto.
+      - apply (EL_weaken None None _ _ _ _ _ _ _ PC); auto.
+      - unfold Fv. destruct v; reflexivity.
+      - unfold Fv. destruct v; simpl; auto.
+      - unfold Fv. destruct v; simpl; auto. }
+    set (tn := mk_task tev (RGen p) None).
+    assert (Nin : ~ In tn (tasks (mod_evt tev Fv w1))).
+    { simpl. rewrite X3. intro Hin. apply In_unreg in Hin. destruct Hin as [Hin _]. apply (NoG _ Hin). reflexivity. }
+    assert (Tk : tasks (reg_task tn (mod_evt tev Fv w1)) = filter (fun u => negb (task_eqb t u)) (tasks w) ++ [tn]).
+    { rewrite (reg_task_new _ _ Nin). simpl. rewrite X3. reflexivity. }
+    assert (P2 : ELc None (Some tev) X (upd_nth tev Fv esA) (upd_nth sid R (wsts w))
+                   (filter (fun u => negb (task_eqb t u)) (tasks w) ++ [tn]) qA).
+    { apply (EL_tasks _ _ _ _ _ _ _ _ P1). intros. apply in_app_iff. left. assumption. }
+    unfold EL. rewrite reg_task_evs, reg_task_wsts, Tk, reg_task_queue. simpl. rewrite X4, X2, X5.
+    apply (EL_close_o _ _ _ _ _ _ _ P2). intros s st' e ev' E Hs' Ph Ev Hev. inversion E. subst e. left.
+    apply (pos_of_task X (reg_task tn (mod_evt tev Fv w1)) tev ev' tn HXf).
+    + rewrite reg_task_evs. simpl. rewrite X4. exact Hev.
+    + rewrite Tk. apply in_app_iff. right. left. reflexivity.
+    + unfold tn. rewrite gen_for_gen. apply Nat.eqb_refl.
+  - (* another call/wait *)
+    destruct Zt as [evz [Z1 Z2]].
+    assert (P1 : ELc None None X esA (upd_nth sid R (wsts w) ++ [new_wst nm obj tmo cv tev p])
+                   (filter (fun u => negb (task_eqb t u)) (tasks w)) qA).
+    { apply (EL_wst_new None None X esA _ _ qA _ PC); simpl; try reflexivity.
+      - intros e Ob. destruct (gen_resume_wait p how w0 w1 nm obj tmo cv GR e Ob) as [G1 G2]. rewrite X5 in G1. rewrite X4 in G2.
+        split; [apply in_app_iff; right; exact G1|]. exists (new_evt nm). auto.
+      - exists evz. auto. }
+    unfold EL. rewrite install_evs, install_wsts, install_tasks, install_queue. rewrite X4, X2, X3, X5. exact P1.
+  - (* returns: one more step as a task *)
+    assert (P1 : ELc None (Some tev) X (upd_nth tev (add_wait (-1)) esA) (upd_nth sid R (wsts w))
+                   (filter (fun u => negb (task_eqb t u)) (tasks w)) qA).
+    { apply (EL_evt None (Some tev) X esA _ _ qA tev (add_wait (-1)) ev0); auto.
+      apply (EL_weaken None None _ _ _ _ _ _ _ PC); auto. }
+    set (tn := mk_task tev (RGen p) None).
+    assert (Nin : ~ In tn (tasks (mod_evt tev (add_wait (-1)) w1))).
+    { simpl. rewrite X3. intro Hin. apply In_unreg in Hin. destruct Hin as [Hin _]. apply (NoG _ Hin). reflexivity. }
+    assert (Tk : tasks (reg_task tn (mod_evt tev (add_wait (-1)) w1)) = filter (fun u => negb (task_eqb t u)) (tasks w) ++ [tn]).
+    { rewrite (reg_task_new _ _ Nin). simpl. rewrite X3. reflexivity. }
+    assert (P2 : ELc None (Some tev) X (upd_nth tev (add_wait (-1)) esA) (upd_nth sid R (wsts w))
+                   (filter (fun u => negb (task_eqb t u)) (tasks w) ++ [tn]) qA).
+    { apply (EL_tasks _ _ _ _ _ _ _ _ P1). intros. apply in_app_iff. left. assumption. }
+    unfold EL. rewrite reg_task_evs, reg_task_wsts, Tk, reg_task_queue. simpl. rewrite X4, X2, X5.
+    apply (EL_close_o _ _ _ _ _ _ _ P2). intros s st' e ev' E Hs' Ph Ev Hev. inversion E. subst e. left.
+    apply (pos_of_task X (reg_task tn (mod_evt tev (add_wait (-1)) w1)) tev ev' tn HXf).
+    + rewrite reg_task_evs. simpl. rewrite X4. exact Hev.
+    + rewrite Tk. apply in_app_iff. right. left. reflexivity.
+    + unfold tn. rewrite gen_for_gen. apply Nat.eqb_refl.
+  - (* raises *)
+    set (Fr := fun e => add_wait (-2) (add_err e)).
+    set (w2 := mod_evt tev Fr w1).
+    assert (P1 : EL None (Some tev) X w2).
+    { unfold EL, w2. simpl. rewrite X4, X2, X3, X5.
+      apply (EL_evt None (Some tev) X esA _ _ qA tev Fr ev0); auto.
+      apply (EL_weaken None None _ _ _ _ _ _ _ PC); auto. }
+    assert (H2 : nth_error (evs w2) tev = Some (Fr ev0)).
+    { unfold w2. simpl. rewrite X4. apply nth_error_upd_same. exact H0A. }
+    destruct (event_done_waiting w2 tev true _ H2) as [ev' [H3 W3]].
+    apply (event_done_EL None X w2 tev true (Fr ev0)); [|exact P1|exact H2].
+    rewrite <- W3. apply (waiting_nonneg X _ tev ev' HXf H3).
+Qed.
+
+Lemma ptask_body_EL : forall X t w, Full X w -> EL None None X w -> In t (tasks w) -> EL None None X (ptask_body t w).
+Proof.
+  intros X t w HF HL Hin. destruct (ptask_body_EX X t w HF Hin) as [_ HXf]. destruct HF as [B0 [HI HX]].
+  pose proof HX as [Hq [Hgi [Htask [Hwst [Hown [Hcnt [Hgate _]]]]]]].
+  pose proof HI as [I1 [I2 [I3 [I4 I5]]]]. pose proof (I5 t Hin) as Tok. unfold task_ok in Tok.
+  revert HXf. unfold ptask_body. destruct (t_ref t) as [g|sid|sid] eqn:R.
+  - destruct (Htask t Hin) as [Tr Tg]. destruct (Tg g R) as [gn [Hg [Gt Ga]]]. set (tev := t_ev t) in *.
+    assert (Teq : mk_task tev (RGen g) None = t). { apply task_ext; simpl; [reflexivity|congruence|congruence]. }
+    destruct (nth_error (evs w) tev) as [ev0|] eqn:H0; [|apply nth_error_None in H0; lia].
+    assert (Gf : gen_for tev t = true). { unfold gen_for. fold tev. rewrite Nat.eqb_refl, R. reflexivity. }
+    destruct (active_gate _ _ _ tev ev0 Hcnt Hgate H0) as [D G]. { pose proof (cnt_pos_gen tev _ t Hin Gf). lia. }
+    destruct (gen_resume g RNext w) as [w1 r] eqn:GR.
+    destruct (gen_resume_spec g RNext w w1 r gn GR Hg) as [nms [ls [f [Ext _]]]].
+    destruct Ext as [_ [X2 [X3 [X4 [X5 X6]]]]].
+    set (esA := evs w ++ map new_evt nms) in *. set (qA := queue w ++ map QUser (seq (length (evs w)) (length nms))) in *.
+    assert (H0A : nth_error esA tev = Some ev0) by (apply nth_error_app_old; assumption).
+    pose proof (EL_ext None None X _ _ _ _ (map new_evt nms) (map QUser (seq (length (evs w)) (length nms))) HL) as PA.
+    fold esA qA in PA.
+    assert (Rm : forall ts', (forall u, In u (tasks w) -> u <> t -> In u ts') ->
+              forall xo es', ELc None xo X es' (wsts w) (tasks w) qA -> ELc None xo X es' (wsts w) ts' qA).
+    { intros ts' Sub xo es' P. apply (EL_tasks _ _ _ _ _ _ _ _ P). intros s st' Hs' Ph Hi. apply Sub; [assumption|].
+      intro E. rewrite <- E in R. discriminate. }
+    destruct r as [v|nm obj tmo cv| |]; intro HXf.
+    + unfold EL. simpl. rewrite X4, X2, X3, X5.
+      apply (EL_evt None None X esA _ _ qA tev (add_oval v) ev0 PA H0A); try (destruct v; reflexivity); try (destruct v; simpl; auto).
+    + unfold EL. rewrite install_evs, install_wsts, install_tasks, install_queue. simpl. rewrite Teq, X4, X2, X3, X5.
+      apply (EL_wst_new None None X _ _ _ qA); simpl; try reflexivity.
+      * apply Rm; [intros u Hu Ne; apply In_unreg; auto|].
+        apply (EL_evt None None X esA _ _ qA tev (add_wait 1) ev0 PA H0A); auto. right. simpl. lia.
+      * intros e Ob. destruct (gen_resume_wait g RNext w w1 nm obj tmo cv GR e Ob) as [G1 G2]. rewrite X5 in G1. rewrite X4 in G2.
+        split; [apply in_app_iff; right; exact G1|]. exists (new_evt nm).
+        split; [|reflexivity]. rewrite nth_error_upd_other; [exact G2|]. intro E. subst e. fold esA in G2. rewrite H0A in G2.
+        inversion G2. subst ev0. simpl in D. discriminate.
+      * exists (add_wait 1 ev0). split; [apply nth_error_upd_same; assumption|assumption].
+    + rewrite Tok in *.
+      set (w2 := unreg_task t (mod_evt tev (add_wait (-1)) w1)) in *.
+      assert (P1 : EL None (Some tev) X w2).
+      { unfold EL, w2. simpl. rewrite X4, X2, X3, X5. apply Rm; [intros u Hu Ne; apply In_unreg; auto|].
+        apply (EL_evt None (Some tev) X esA _ _ qA tev (add_wait (-1)) ev0); auto. apply (EL_weaken None None _ _ _ _ _ _ _ PA); auto. }
+      assert (H2 : nth_error (evs w2) tev = Some (add_wait (-1) ev0)).
+      { unfold w2. simpl. rewrite X4. apply nth_error_upd_same. exact H0A. }
+      destruct (event_done_waiting w2 tev false _ H2) as [ev' [H3 W3]].
+      apply (event_done_EL None X w2 tev false (add_wait (-1) ev0)); [|exact P1|exact H2]. rewrite <- W3. apply (waiting_nonneg X _ tev ev' HXf H3).
+    + set (d := match t_parent t with Some _ => -2 | None => -1 end) in *.
+      set (w2 := mod_evt tev (fun e => add_wait d (add_err e)) (unreg_task t w1)) in *.
+      assert (P1 : EL None (Some tev) X w2).
+      { unfold EL, w2. simpl. rewrite X4, X2, X3, X5. apply Rm; [intros u Hu Ne; apply In_unreg; auto|].
+        apply (EL_evt None (Some tev) X esA _ _ qA tev (fun e => add_wait d (add_err e)) ev0); auto.
+        apply (EL_weaken None None _ _ _ _ _ _ _ PA); auto. }
+      assert (H2 : nth_error (evs w2) tev = Some (add_wait d (add_err ev0))).
+      { unfold w2. simpl. rewrite X4. apply (nth_error_upd_same (fun e => add_wait d (add_err e))). exact H0A. }
+      destruct (event_done_waiting w2 tev true _ H2) as [ev' [H3 W3]].
+      apply (event_done_EL None X w2 tev true (add_wait d (add_err ev0))); [|exact P1|exact H2]. rewrite <- W3. apply (waiting_nonneg X _ tev ev' HXf H3).
+  - destruct Tok as [st [Hs [Ph Tq]]]. rewrite Hs.
+    pose proof (I3 sid st Hs) as [O1 O2 O3 O4 O5 O6 O7 O8 O9].
+    assert (Hd : In (THDone sid) (ths w)). { apply O2. rewrite Ph. discriminate. }
+    apply has_th_In in Hd. rewrite Hd.
+    pose proof HX as [_ [_ [_ [_ [_ [_ [_ [_ [_ [_ [Hfl _]]]]]]]]]]].
+    destruct (Hfl sid st Hs Ph) as [e [ev [Ev _]]]. rewrite Ev.
+    assert (Tp : t_parent t = Some (s_parent st)) by (rewrite Tq; reflexivity). rewrite Tp.
+    assert (Ow : owning st = true). { unfold owning. rewrite Ph in O7. simpl in O7. apply Nat.eqb_eq. lia. }
+    replace (t_ev t) with (s_tevent st) by (rewrite Tq; reflexivity).
+    intro HXf.
+    apply (cont_EL X w _ sid st wst_resumed t (RSend e) (s_tevent st) (s_parent st)); try reflexivity; try assumption.
+    + apply keeps_all_resumed.
+    + intros s st' Hs' Ne E. rewrite Tq in E. inversion E. contradiction.
+  - destruct Tok as [st [Hs Tq]]. assert (Tp : t_parent t = Some (s_parent st)) by (rewrite Tq; reflexivity). rewrite Tp.
+    pose proof (I3 sid st Hs) as [O1 O2 O3 O4 O5 O6 O7 O8 O9].
+    assert (Rt : is_rt sid t = true). { unfold is_rt. rewrite R. simpl. apply Nat.eqb_refl. }
+    assert (C1 : (1 <= count_rt sid (tasks w))%nat).
+    { unfold count_rt. clear -Hin Rt. induction (tasks w) as [|x r IH]; [destruct Hin|]. simpl.
+      destruct Hin as [E|E]; [subst; rewrite Rt; simpl; lia|]. destruct (is_rt sid x); simpl; [lia|auto]. }
+    assert (Ow : owning st = true). { unfold owning. apply Nat.eqb_eq. lia. }
+    assert (Pd : s_ph st = Dead). { destruct (s_ph st); simpl in O7; try lia. reflexivity. }
+    replace (t_ev t) with (s_tevent st) by (rewrite Tq; reflexivity).
+    intro HXf.
+    apply (cont_EL X w _ sid st wst_thrown t RThrow (s_tevent st) (s_parent st)); try reflexivity; try assumption.
+    + apply keeps_all_thrown.
+    + intros s st' Hs' Ne E. rewrite Tq in E. inversion E.
+Qed.
+
+Lemma ptask_EL : forall X t w, Full X w -> EL None None X w -> In t (tasks w) -> EL None None X (ptask t w).
+Proof.
+  intros X t w HF HL Hin. unfold ptask. destruct HF as [B R]. rewrite B. apply ptask_body_EL; [split; assumption|assumption|assumption].
+Qed.
+
+Lemma fold_ptask_EL : forall l X w, Full X w -> EL None None X w -> NoDup l -> (forall u, In u l -> In u (tasks w)) ->
+  EL None None X (fold_left (fun w t => ptask t w) l w).
+Proof.
+  induction l as [|t r IH]; intros X w HF HL ND Hin; simpl; [assumption|].
+  inversion ND as [|? ? Hnt NDr]; subst.
+  assert (Ht : In t (tasks w)) by (apply Hin; left; reflexivity).
+  apply IH; [apply ptask_full; assumption|apply ptask_EL; assumption|assumption|].
+  intros u Hu. apply ptask_keeps; [apply Hin; right; assumption|intro; subst; contradiction|].
+  intros g R. destruct HF as [_ [[_ [_ [_ [_ E]]]] _]]. specialize (E t Ht). unfold task_ok in E. rewrite R in E. exact E.
+Qed.
+
+Lemma run_handlers_EL : forall hs hi xp X tok w err,
+  EL xp (Some tok) X w -> (exists ev, nth_error (evs w) tok = Some ev) ->
+  EL xp (Some tok) X (fst (run_handlers tok hi hs (w, err))).
+Proof.
+  induction hs as [|h r IH]; intros hi xp X tok w err HL [ev0 H0]; simpl; [assumption|].
+  destruct h as [v raises|c sts].
+  - destruct raises.
+    + apply IH.
+      * unfold EL. simpl. apply (EL_evt xp (Some tok) X _ _ _ _ tok add_err ev0 HL H0); auto.
+      * exists (add_err ev0). simpl. apply nth_error_upd_same. assumption.
+    + apply IH.
+      * unfold EL. simpl. apply (EL_evt xp (Some tok) X _ _ _ _ tok _ ev0 HL H0); auto; destruct (option_map (tokval tok) v); simpl; auto.
+      * eexists. simpl. apply nth_error_upd_same. eassumption.
+  - apply IH.
+    + unfold EL. rewrite reg_task_evs, reg_task_wsts, reg_task_queue. simpl.
+      apply (EL_tasks xp (Some tok) X _ _ (tasks w)).
+      * apply (EL_evt xp (Some tok) X _ _ _ _ tok (add_wait 1) ev0 HL H0); auto.
+      * intros sid st Hs Ph Hin. unfold reg_task. destruct (existsb _ _); [exact Hin|]. simpl. apply in_app_iff. left. exact Hin.
+    + exists (add_wait 1 ev0). rewrite reg_task_evs. simpl. apply nth_error_upd_same. assumption.
+Qed.
+
+(* _on_event *)
+Lemma on_event_EL : forall xp X tok w sid ev nm, Full X w -> EL xp (Some tok) X w -> In (THEv sid) (ths w) ->
+  nth_error (evs w) tok = Some ev -> e_name ev = nm ->
+  (forall st, nth_error (wsts w) sid = Some st -> s_name st = nm) ->
+  (forall s' st', nth_error (wsts w) s' = Some st' -> s_tevent st' <> tok) ->
+  EL xp (Some tok) X (on_event tok w sid) /\
+  (forall s st, s <> sid -> nth_error (wsts (on_event tok w sid)) s = Some st -> nth_error (wsts w) s = Some st) /\
+  (forall s st, nth_error (wsts (on_event tok w sid)) s = Some st ->
+     exists st0, nth_error (wsts w) s = Some st0 /\ s_tevent st = s_tevent st0 /\ s_name st = s_name st0) /\
+  (forall st, nth_error (wsts (on_event tok w sid)) sid = Some st -> s_ph st = Armed -> s_obj st <> Some tok).
+Proof.
+  intros xp X tok w sid ev nm [B [HI HX]] HL Hin H0 Nm Hnm NoT.
+  unfold on_event. rewrite B.
+  pose proof HI as [_ [I2 [I3 _]]]. specialize (I2 _ Hin). simpl in I2.
+  destruct (nth_error (wsts w) sid) as [st|] eqn:Hs; [|apply nth_error_None in Hs; lia].
+  pose proof (I3 sid st Hs) as [O1 O2 O3 O4 O5 O6 O7 O8 O9].
+  assert (Pa : s_ph st = Armed) by (apply O1; assumption). destruct (O4 Pa) as [Rn _].
+  destruct (negb (s_run st) && obj_ok (s_obj st) tok) eqn:Gd.
+  - unfold rem_th_k. apply has_th_In in Hin. rewrite Hin. split; [|split; [|split]].
+    + unfold EL. simpl.
+      pose proof (EL_evt xp (Some tok) X _ _ _ _ tok set_alert ev HL H0 eq_refl (fun _ => eq_refl) (fun a => a) (or_introl eq_refl)) as P1.
+      apply (EL_wst_seen xp X _ _ _ _ sid st tok (set_alert ev) P1 Hs); auto.
+      * apply nth_error_upd_same. assumption.
+      * simpl. rewrite Nm. symmetry. apply Hnm. reflexivity.
+    + intros s st' Ne Hs'. simpl in Hs'. rewrite nth_error_upd_other in Hs' by congruence. exact Hs'.
+    + intros s st' Hs'. simpl in Hs'. apply nth_error_upd_inv in Hs'. destruct Hs' as [[E [x [A C]]]|[E A]].
+      * subst. rewrite Hs in A. inversion A. subst x. exists st. auto.
+      * exists st'. auto.
+    + intros st' Hs' Ph. simpl in Hs'. rewrite (nth_error_upd_same (wst_seen tok) _ _ _ Hs) in Hs'. inversion Hs'. subst st'. discriminate.
+  - split; [assumption|]. split; [auto|]. split; [eauto|].
+    intros st' Hs' Ph Ob. rewrite Hs in Hs'. inversion Hs'. subst st'. rewrite Rn, Ob in Gd. simpl in Gd. rewrite Nat.eqb_refl in Gd. discriminate.
+Qed.
+
+Lemma fold_on_event_EL : forall xp X tok nm sids w ev0, Full X w -> EL xp (Some tok) X w -> NoDup sids ->
+  (forall s, In s sids -> In (THEv s) (ths w)) -> nth_error (evs w) tok = Some ev0 -> e_name ev0 = nm ->
+  (forall s st, In s sids -> nth_error (wsts w) s = Some st -> s_name st = nm) ->
+  (forall s' st', nth_error (wsts w) s' = Some st' -> s_tevent st' <> tok) ->
+  (forall s st, nth_error (wsts w) s = Some st -> s_ph st = Armed -> s_obj st = Some tok -> In s sids) ->
+  let w' := fold_left (on_event tok) sids w in
+  EL xp (Some tok) X w' /\
+  (forall s st, nth_error (wsts w') s = Some st -> s_ph st = Armed -> s_obj st <> Some tok).
+Proof.
+  intros xp X tok nm sids. induction sids as [|s r IH]; intros w ev0 HF HL ND Hin H0 Nm Hnm NoT Harm; simpl.
+  - split; [assumption|]. intros s st Hs Ph Ob. apply (Harm s st Hs Ph Ob).
+  - inversion ND as [|? ? Hns NDr]; subst.
+    destruct (on_event_full X tok w s ev0 HF (Hin s (or_introl eq_refl)) H0) as [F1 [[ev1 [E1 [E2 [E3 E4]]]] Fr]].
+    destruct (on_event_EL xp X tok w s ev0 (e_name ev0) HF HL (Hin s (or_introl eq_refl)) H0 eq_refl) as [L1 [Fo [Fn Fs]]].
+    { intros st Hs. apply (Hnm s st); [left; reflexivity|assumption]. }
+    { exact NoT. }
+    assert (Nm1 : e_name ev1 = e_name ev0).
+    { destruct L1 as [_ [_ [_ [_ _]]]]. revert E1. unfold on_event. destruct HF as [B _]. rewrite B.
+      destruct (nth_error (wsts w) s) as [st|]; [|simpl; intro E; rewrite H0 in E; inversion E; reflexivity].
+      destruct (negb (s_run st) && obj_ok (s_obj st) tok); [|intro E; rewrite H0 in E; inversion E; reflexivity].
+      unfold rem_th_k. destruct (has_th (THEv s) w); simpl; intro E.
+      - rewrite (nth_error_upd_same set_alert _ _ _ H0) in E. inversion E. reflexivity.
+      - rewrite H0 in E. inversion E. reflexivity. }
+    apply (IH (on_event tok w s) ev1); try assumption.
+    + intros s' Hs'. apply Fr; [intro; subst; contradiction|]. apply Hin. right. assumption.
+    + intros s' st Hs' Hst. destruct (Fn s' st Hst) as [st0 [A [_ C]]]. rewrite C. apply (Hnm s' st0); [right; assumption|assumption].
+    + intros s' st' Hs'. destruct (Fn s' st' Hs') as [st0 [A [Bt _]]]. rewrite Bt. apply (NoT s' st0 A).
+    + intros s' st Hs' Ph Ob. destruct (Nat.eq_dec s' s) as [E|E].
+      * subst s'. exfalso. apply (Fs st Hs' Ph). exact Ob.
+      * pose proof (Fo s' st E Hs') as Hold. destruct (Harm s' st Hold Ph Ob) as [E'|E']; [congruence|assumption].
+Qed.
+
+Lemma ev_sids_names : forall w nm s, In s (ev_sids w nm) -> name_of_sid w s = Some nm.
+Proof.
+  intros w nm s Hs. unfold ev_sids in Hs. apply in_flat_map in Hs. destruct Hs as [h [Hh Hs]].
+  destruct h as [x|x|x]; try destruct Hs. destruct (onat_eqb (name_of_sid w x) (Some nm)) eqn:E; [|destruct Hs].
+  destruct Hs as [E'|[]]. subst. apply onat_eqb_eq. assumption.
+Qed.
+
+Lemma ev_sids_complete : forall w nm s, In (THEv s) (ths w) -> name_of_sid w s = Some nm -> In s (ev_sids w nm).
+Proof.
+  intros w nm s Hin Hn. unfold ev_sids. apply in_flat_map. exists (THEv s). split; [assumption|].
+  rewrite Hn. assert (onat_eqb (Some nm) (Some nm) = true) by (apply onat_eqb_eq; reflexivity). rewrite H. left. reflexivity.
+Qed.
+
+(* _on_done *)
+Lemma on_done_EL : forall xp xo X tok w sid, Full X w -> EL xp xo X w -> In (THDone sid) (ths w) ->
+  EL xp xo X (on_done tok w sid) /\
+  (forall st, nth_error (wsts (on_done tok w sid)) sid = Some st -> s_ph st = Seen -> s_event st <> Some tok).
+Proof.
+  intros xp xo X tok w sid [B [HI HX]] HL Hin. unfold on_done. rewrite B.
+  pose proof HI as [_ [I2 _]]. specialize (I2 _ Hin). simpl in I2.
+  destruct (nth_error (wsts w) sid) as [st|] eqn:Hs; [|apply nth_error_None in Hs; lia].
+  destruct (onat_eqb (s_event st) (Some tok)) eqn:Ev.
+  2:{ split; [assumption|]. intros st' Hs' Ph E. rewrite Hs in Hs'. inversion Hs'. subst st'.
+      assert (onat_eqb (s_event st) (Some tok) = true) by (apply onat_eqb_eq; assumption). congruence. }
+  cbv zeta. set (t := mk_task (s_tevent st) (RWait sid) (Some (s_parent st))).
+  assert (P1 : ELc xp xo X (evs w) (upd_nth sid (wst_phase Flagged) (wsts w)) (tasks (reg_task t w)) (queue w)).
+  { apply (EL_wst_flag xp xo X _ _ _ _ sid st); [|assumption|].
+    - apply (EL_tasks _ _ _ _ _ (tasks w)); [exact HL|]. intros s st' Hs' Ph Hi. apply In_reg_task. exact Hi.
+    - unfold reg_task. destruct (existsb (task_eqb t) (tasks w)) eqn:E; [apply existsb_task in E; exact E|].
+      simpl. apply in_app_iff. right. left. reflexivity. }
+  assert (Fs : forall st', nth_error (upd_nth sid (wst_phase Flagged) (wsts (reg_task t w))) sid = Some st' -> s_ph st' = Seen -> s_event st' <> Some tok).
+  { intros st' Hs' Ph. rewrite reg_task_wsts in Hs'. rewrite (nth_error_upd_same _ _ _ _ Hs) in Hs'. inversion Hs'. subst st'. discriminate. }
+  destruct (0 <=? s_timeout st).
+  - unfold rem_th_k. destruct (has_th _ _).
+    + split; [|exact Fs]. unfold EL. simpl. rewrite reg_task_evs, reg_task_wsts, reg_task_queue. exact P1.
+    + split; [|exact Fs]. unfold EL. simpl. rewrite reg_task_evs, reg_task_wsts, reg_task_queue. exact P1.
+  - split; [|exact Fs]. unfold EL. simpl. rewrite reg_task_evs, reg_task_wsts, reg_task_queue. exact P1.
+Qed.
+
+Lemma fold_on_done_EL : forall xp X tok sids w ev, Full X w -> EL xp (Some tok) X w -> NoDup sids ->
+  (forall s, In s sids -> In (THDone s) (ths w)) ->
+  (forall s st, In s sids -> nth_error (wsts w) s = Some st -> s_event st = Some tok -> s_ph st <> Flagged) ->
+  nth_error (evs w) tok = Some ev -> (1 <= e_gate ev)%nat -> ~ In (QDone tok) (X ++ queue w) ->
+  (forall s st, nth_error (wsts w) s = Some st -> s_ph st = Seen -> s_event st = Some tok -> In s sids) ->
+  let w' := fold_left (on_done tok) sids w in
+  EL xp (Some tok) X w' /\ (forall s st, nth_error (wsts w') s = Some st -> s_ph st = Seen -> s_event st <> Some tok).
+Proof.
+  intros xp X tok sids. induction sids as [|s r IH]; intros w ev HF HL ND Hd Nf He Ge Ni Hseen; simpl.
+  - split; [assumption|]. intros s st Hs Ph Ev. apply (Hseen s st Hs Ph Ev).
+  - inversion ND as [|? ? Hns NDr]; subst.
+    destruct (on_done_full X tok w s ev HF (Hd s (or_introl eq_refl))) as [F1 [E1 [E2 Fr]]]; try assumption.
+    { intros st Hs. apply (Nf s st); [left; reflexivity|assumption]. }
+    destruct (on_done_EL xp (Some tok) X tok w s HF HL (Hd s (or_introl eq_refl))) as [L1 Fs].
+    apply (IH _ ev); try assumption.
+    + intros s' Hs'. apply on_done_keeps_done. apply Hd. right. assumption.
+    + intros s' st Hs' Hst. rewrite Fr in Hst by (intro; subst; contradiction). apply (Nf s' st); [right; assumption|assumption].
+    + rewrite E1. assumption.
+    + rewrite E2. assumption.
+    + intros s' st Hs' Ph Ev. destruct (Nat.eq_dec s' s) as [E|E].
+      * subst s'. exfalso. apply (Fs st Hs' Ph). exact Ev.
+      * rewrite Fr in Hs' by assumption. destruct (Hseen s' st Hs' Ph Ev) as [E'|E']; [congruence|assumption].
+Qed.
+
+Lemma done_sids_complete : forall w nm s, In (THDone s) (ths w) -> name_of_sid w s = Some nm -> In s (done_sids w nm).
+Proof.
+  intros w nm s Hin Hn. unfold done_sids. apply in_flat_map. exists (THDone s). split; [assumption|].
+  rewrite Hn. assert (onat_eqb (Some nm) (Some nm) = true) by (apply onat_eqb_eq; reflexivity). rewrite H. left. reflexivity.
+Qed.
+
+(* _on_tick *)
+Lemma on_tick_EL : forall xp xo X w sid, Full X w -> EL xp xo X w -> In (THTick sid) (ths w) -> EL xp xo X (on_tick w sid).
+Proof.
+  intros xp xo X w sid [B [HI HX]] HL Hin. unfold on_tick. rewrite B.
+  pose proof HI as [_ [I2 _]]. specialize (I2 _ Hin). simpl in I2.
+  destruct (nth_error (wsts w) sid) as [st|] eqn:Hs; [|apply nth_error_None in Hs; lia].
+  destruct (s_timeout st =? 0).
+  - cbv zeta. set (t := mk_task (s_tevent st) (RTimeout sid) (Some (s_parent st))).
+    assert (P0 : ELc xp xo X (evs w) (wsts w) (tasks (reg_task t w)) (queue w)).
+    { apply (EL_tasks _ _ _ _ _ (tasks w)); [exact HL|]. intros s st' Hs' Ph Hi. apply In_reg_task. exact Hi. }
+    assert (PF : forall w', evs w' = evs w -> wsts w' = wsts w -> tasks w' = tasks (reg_task t w) -> queue w' = queue w ->
+                   EL xp xo X (mod_wst sid wst_timeout w')).
+    { intros w' e1 e2 e3 e4. unfold EL. simpl. rewrite e1, e2, e3, e4.
+      apply (EL_wst_upd xp xo X _ _ _ _ sid wst_timeout st P0 Hs keeps_all_timeout); simpl; discriminate. }
+    assert (PB : forall w', evs w' = evs w -> wsts w' = wsts w -> tasks w' = tasks (reg_task t w) -> queue w' = queue w ->
+                   EL xp xo X (set_bad w')).
+    { intros w' e1 e2 e3 e4. unfold EL. simpl. rewrite e1, e2, e3, e4. exact P0. }
+    destruct (s_run st); unfold rem_th_k;
+      repeat match goal with |- context [if has_th ?h ?w0 then _ else _] => destruct (has_th h w0) end;
+      first [apply PF | apply PB]; simpl; auto using reg_task_evs, reg_task_wsts, reg_task_queue.
+  - destruct (0 <? s_timeout st); [|assumption]. unfold EL. simpl.
+    apply (EL_wst_upd xp xo X _ _ _ _ sid wst_tick st HL Hs keeps_all_tick); simpl; auto.
+Qed.
+
+Lemma fold_on_tick_EL : forall xp xo X sids w, Full X w -> EL xp xo X w -> NoDup sids -> (forall s, In s sids -> In (THTick s) (ths w)) ->
+  EL xp xo X (fold_left on_tick sids w).
+Proof.
+  intros xp xo X sids. induction sids as [|s r IH]; intros w HF HL ND Hin; simpl; [assumption|].
+  inversion ND as [|? ? Hns NDr]; subst.
+  destruct (on_tick_full X w s HF (Hin s (or_introl eq_refl))) as [F1 Fr].
+  apply IH; [assumption|apply on_tick_EL; [assumption|assumption|apply Hin; left; reflexivity]|assumption|].
+  intros s' Hs'. apply Fr; [intro; subst; contradiction|apply Hin; right; assumption].
+Qed.
+
+Lemma run_handlers_name : forall hs hi tok w err ev, nth_error (evs w) tok = Some ev ->
+  exists ev', nth_error (evs (fst (run_handlers tok hi hs (w, err)))) tok = Some ev' /\ e_name ev' = e_name ev.
+Proof.
+  induction hs as [|h r IH]; intros hi tok w err ev H0; simpl; [eauto|].
+  destruct h as [v raises|c sts].
+  - destruct raises.
+    + destruct (IH (S hi) tok (mod_evt tok add_err (add_log (LPlain tok hi) w)) true (add_err ev)) as [ev' [A B]];
+        [simpl; apply nth_error_upd_same; assumption|]. eauto.
+    + destruct (IH (S hi) tok (mod_evt tok (add_oval (option_map (tokval tok) v)) (add_log (LPlain tok hi) w)) err
+                   (add_oval (option_map (tokval tok) v) ev)) as [ev' [A B]];
+        [simpl; apply nth_error_upd_same; assumption|]. exists ev'. split; [assumption|]. rewrite B. destruct (option_map (tokval tok) v); reflexivity.
+  - match goal with |- context [run_handlers tok (S hi) r (?w1, err)] =>
+      destruct (IH (S hi) tok w1 err (add_wait 1 ev)) as [ev' [A B]] end.
+    + rewrite reg_task_evs. simpl. apply nth_error_upd_same. assumption.
+    + eauto.
+Qed.
+
+Lemma event_done_wsts : forall tok err w, wsts (event_done tok err w) = wsts w.
+Proof. intros. destruct (event_done_quiet tok err w) as [T _]. unfold triple in T. inversion T. reflexivity. Qed.
+
+Lemma name_of_sid_wsts : forall w w' s, wsts w' = wsts w -> name_of_sid w' s = name_of_sid w s.
+Proof. intros. unfold name_of_sid. rewrite H. reflexivity. Qed.
+
+Lemma dispatch_EL : forall p q0 rest w, Full (q0 :: rest) w -> EL None None (q0 :: rest) w -> EL None None rest (dispatch p w q0).
+Proof.
+  intros p q0 rest w HF HL. pose proof (dispatch_full p q0 rest w HF) as HFin. revert HFin.
+  destruct HF as [B [HI HX]].
+  pose proof HX as [Hq [Hgi [Htask [Hwst [Hown [Hcnt [Hgate [Hqu [Hqd [Hnd [Hfl [Hres Hord]]]]]]]]]]]].
+  pose proof (EX_pop _ _ _ _ _ _ _ _ HX) as HP. pose proof HI as [I1 [_ [I3 _]]].
+  pose proof (EL_pop q0 rest _ _ _ _ HL) as LP.
+  unfold dispatch. rewrite B. destruct q0 as [tok|tok|tok|]; simpl in LP.
+  - assert (Rg : (tok < length (evs w))%nat) by (apply (Hq (QUser tok)); left; reflexivity).
+    destruct (nth_error (evs w) tok) as [ev|] eqn:H0; [|apply nth_error_None in H0; lia].
+    assert (D : e_dispatched ev = false) by (apply (Hqu tok ev); [left; reflexivity|assumption]).
+    destruct (Hgate tok ev H0) as [G1 _]. destruct (G1 D) as [G W].
+    assert (Ni : ~ In (QUser tok) (rest ++ queue w)) by (apply pop_notin; [reflexivity|assumption]).
+    set (w1 := add_log (LDisp tok) (mod_evt tok set_dispatched w)).
+    assert (P1 : EX rest w1).
+    { unfold EX, w1. simpl. apply EX_log1; [|intros ? ? ? ? ? ?; discriminate|left; reflexivity].
+      apply (EX_set_dispatched rest _ _ _ _ _ _ tok ev HP H0 D Ni). }
+    assert (D1 : disp_ok tok w1).
+    { exists (set_dispatched ev). unfold w1. simpl. split; [apply nth_error_upd_same; assumption|auto]. }
+    assert (L1 : EL (Some tok) (Some tok) rest w1).
+    { unfold EL, w1. simpl. apply (EL_evt (Some tok) (Some tok) rest _ _ _ _ tok set_dispatched ev); auto.
+      apply (EL_weaken (Some tok) None _ _ _ _ _ _ _ LP); auto. }
+    assert (H1 : nth_error (evs w1) tok = Some (set_dispatched ev)) by (unfold w1; simpl; apply nth_error_upd_same; assumption).
+    pose proof (run_handlers_EX (handlers_of p (e_name ev)) O rest tok w1 false B P1 D1) as RH.
+    pose proof (run_handlers_IC (handlers_of p (e_name ev)) tok O w1 false HI) as RI.
+    pose proof (run_handlers_EL (handlers_of p (e_name ev)) O (Some tok) rest tok w1 false L1 (ex_intro _ _ H1)) as RL.
+    pose proof (run_handlers_name (handlers_of p (e_name ev)) O tok w1 false _ H1) as RN.
+    destruct (run_handlers tok O (handlers_of p (e_name ev)) (w1, false)) as [w2 err]. simpl in RH, RI, RL, RN.
+    destruct RH as [B2 [P2 [_ [T2 S2]]]]. destruct RN as [ev2 [H2 N2]]. simpl in N2.
+    destruct (ev_sids_spec w (e_name ev) I1) as [ND Hsids].
+    assert (F2 : Full rest w2) by (split; [assumption|split; assumption]).
+    destruct (fold_on_event_full rest tok (ev_sids w (e_name ev)) w2 ev2 F2 ND) as [F3 [ev3 [H3 _]]].
+    { intros s Hs. rewrite T2. apply Hsids. assumption. }
+    { exact H2. }
+    destruct LP as [_ [_ [_ [_ [Lm2 [_ [Lz _]]]]]]].
+    destruct (fold_on_event_EL (Some tok) rest tok (e_name ev) (ev_sids w (e_name ev)) w2 ev2 F2 RL ND) as [L3 NoArm].
+    { intros s Hs. rewrite T2. apply Hsids. assumption. }
+    { exact H2. }
+    { exact N2. }
+    { intros s st Hs Hst. apply ev_sids_names in Hs. unfold name_of_sid in Hs. rewrite S2 in Hst. simpl in Hst. rewrite Hst in Hs. inversion Hs. reflexivity. }
+    { intros s' st' Hs' E. rewrite S2 in Hs'. simpl in Hs'. destruct (Lz s' st' Hs') as [ev' [A1 A2]]. rewrite E, H0 in A1. inversion A1. subst. congruence. }
+    { intros s st Hs Ph Ob. rewrite S2 in Hs. simpl in Hs. apply ev_sids_complete.
+      - apply (I3 s st Hs). assumption.
+      - destruct (Lm2 s st tok Hs Ob) as [ev' [A1 A2]]. rewrite H0 in A1. inversion A1. subst ev'. unfold name_of_sid. rewrite Hs. congruence. }
+    intro HFin.
+    assert (NN : 0 <= e_waiting ev3) by (destruct F3 as [_ [_ P3]]; apply (waiting_nonneg rest _ tok ev3 P3 H3)).
+    pose proof (event_done_EL (Some tok) rest _ tok err ev3 NN L3 H3) as L4.
+    apply (EL_close_p _ _ _ _ _ _ _ L4). intros sid st e E Hs Ph Ob. inversion E. subst e. exfalso.
+    rewrite event_done_wsts in Hs. apply (NoArm sid st Hs Ph). exact Ob.
+  - assert (Rg : (tok < length (evs w))%nat) by (apply (Hq (QDone tok)); left; reflexivity).
+    destruct (nth_error (evs w) tok) as [ev|] eqn:H0; [|apply nth_error_None in H0; lia].
+    assert (Ge : (1 <= e_gate ev)%nat) by (apply (Hqd tok ev); [left; reflexivity|assumption]).
+    assert (Ni : ~ In (QDone tok) (rest ++ queue w)) by (apply pop_notin; [reflexivity|assumption]).
+    destruct (done_sids_spec w (e_name ev) I1) as [ND Hsids].
+    pose proof LP as [_ [_ [_ [Lm _]]]].
+    destruct (fold_on_done_EL None rest tok (done_sids w (e_name ev)) w ev) as [L3 NoSeen]; try assumption.
+    + split; [assumption|split; assumption].
+    + intros s st _ Hs Ev Ph. destruct (Hfl s st Hs Ph) as [e [ev' [A [_ [_ Nq]]]]]. rewrite Ev in A. inversion A. subst e.
+      apply Nq. left. reflexivity.
+    + intros s st Hs Ph Ev. apply done_sids_complete.
+      * apply (I3 s st Hs). rewrite Ph. discriminate.
+      * destruct (Lm s st tok Hs Ev) as [ev' [A1 [A2 _]]]. rewrite H0 in A1. inversion A1. subst ev'. unfold name_of_sid. rewrite Hs. congruence.
+    + intros _. apply (EL_close_o _ _ _ _ _ _ _ L3). intros sid st e ev' E Hs Ph Ev. inversion E. subst e. exfalso. apply (NoSeen sid st Hs Ph Ev).
+  - assert (Rg : (tok < length (evs w))%nat) by (apply (Hq (QSucc tok)); left; reflexivity).
+    destruct (nth_error (evs w) tok) as [ev|] eqn:H0; [|apply nth_error_None in H0; lia]. intros _. exact LP.
+  - destruct (tick_sids_spec w I1) as [ND Hsids]. intros _.
+    apply fold_on_tick_EL; [split; [assumption|split; assumption]|exact LP|assumption|assumption].
+Qed.
+
+Lemma ELc_pend_eq : forall xp xo X q X' q' es ss ts, X ++ q = X' ++ q' -> ELc xp xo X es ss ts q -> ELc xp xo X' es ss ts q'.
+Proof. intros xp xo X q X' q' es ss ts E. unfold ELc, L_p, L_o. rewrite E. auto. Qed.
+
+Lemma fold_dispatch_EL : forall p batch w, Full batch w -> EL None None batch w -> EL None None [] (fold_left (dispatch p) batch w).
+Proof.
+  intros p batch. induction batch as [|q0 rest IH]; intros w HF HL; simpl; [assumption|].
+  apply IH; [apply dispatch_full; assumption|apply dispatch_EL; assumption].
+Qed.
+
+Lemma tick_EL : forall p g sch t w, Full [] w -> EL None None [] w -> EL None None [] (tick p g sch t w).
+Proof.
+  intros p g sch t w HF HL. pose proof HF as [B [HI HX]]. unfold tick.
+  set (w0 := add_log (LTick t) w).
+  assert (F0 : Full [] w0).
+  { split; [exact B|]. split; [exact HI|]. unfold EX, w0. simpl.
+    apply EX_log1; [exact HX|intros ? ? ? ? ? ?; discriminate|left; reflexivity]. }
+  assert (L0 : EL None None [] w0) by exact HL.
+  destruct (order_by_spec w0 sch (tasks w0)) as [N1 N2]; [destruct HI as [_ [_ [_ [D _]]]]; exact D|].
+  pose proof (fold_ptask_full _ [] w0 F0 N1 N2) as F1.
+  pose proof (fold_ptask_EL _ [] w0 F0 L0 N1 N2) as L1.
+  set (w1 := fold_left (fun w t => ptask t w) (order_by w0 sch (tasks w0)) w0) in *.
+  set (w2 := if g then push QGenEv w1 else w1).
+  assert (F2 : Full [] w2).
+  { unfold w2. destruct g; [|exact F1]. destruct F1 as [B1 [I1 P1]]. split; [exact B1|]. split; [exact I1|].
+    unfold EX. simpl. apply EX_push_gen. exact P1. }
+  assert (L2 : EL None None [] w2).
+  { unfold w2. destruct g; [|exact L1]. unfold EL. simpl.
+    pose proof (EL_ext None None [] _ _ _ _ [] [QGenEv] L1) as P. rewrite app_nil_r in P. exact P. }
+  apply fold_dispatch_EL.
+  - destruct F2 as [B2 [I2 P2]]. split; [exact B2|]. split; [exact I2|].
+    unfold EX in *. simpl in *. apply (EXc_pend_eq [] (queue w2)); [rewrite app_nil_r; reflexivity|exact P2].
+  - unfold EL in *. simpl in *. apply (ELc_pend_eq None None [] (queue w2)); [rewrite app_nil_r; reflexivity|exact L2].
+Qed.
+
+Lemma fire_roots_EL : forall roots t w, Full [] w -> EL None None [] w ->
+  Full [] (fire_roots roots t w) /\ EL None None [] (fire_roots roots t w).
+Proof.
+  intros roots t. unfold fire_roots. induction roots as [|r rs IH]; intros w HF HL; simpl; [auto|].
+  destruct (Nat.eqb (fst r) t); [|apply IH; assumption].
+  apply IH; [apply fire_user_full; assumption|]. unfold EL. simpl.
+  apply (EL_ext None None [] _ _ _ _ [new_evt (snd r)] [QUser (length (evs w))] HL).
+Qed.
+
+Lemma run_from_EL : forall p g scheds roots n t w, Full [] w -> EL None None [] w ->
+  EL None None [] (run_from p g scheds roots t n w).
+Proof.
+  intros p g scheds roots n. induction n as [|n IH]; intros t w HF HL; simpl; [assumption|].
+  destruct (fire_roots_EL roots t w HF HL) as [F1 L1].
+  apply IH; [apply tick_full; assumption|apply tick_EL; assumption].
+Qed.
+
+Lemma EL_init : EL None None [] init.
+Proof.
+  unfold EL, init, ELc. simpl. repeat match goal with |- _ /\ _ => split end;
+    try (intros sid st; intros; destruct sid; discriminate).
+Qed.
+
+Lemma run_EL : forall p g scheds roots n, EL None None [] (run p g scheds roots n).
+Proof. intros. unfold run. apply run_from_EL; [split; [reflexivity|split; [apply IC_init|apply EX_init]]|apply EL_init]. Qed.
+
+(* ---------------------------------------------------------------- a quiet world *)
+
+Lemma cnt_own_witness : forall tok ss, (0 < cnt_own tok ss)%nat -> exists sid st, nth_error ss sid = Some st /\ owns tok st = true.
+Proof.
+  intros tok ss. unfold cnt_own. induction ss as [|x r IH]; simpl; [lia|].
+  destruct (owns tok x) eqn:E.
+  - intros _. exists O, x. auto.
+  - intro H. destruct (IH H) as [sid [st [A B]]]. exists (S sid), st. auto.
+Qed.
+
+Lemma cnt_gen_nil : forall tok, cnt_gen tok [] = O. Proof. reflexivity. Qed.
+
+(* if the run has gone quiet (no queued event, no task) then every wait that is still live waits, by name, for an
+   event that was never dispatched to it; if there is no such wait, every call/wait has resumed its caller exactly once *)
+Theorem quiescent_all_resumed : forall p g scheds roots n, let w := run p g scheds roots n in
+  queue w = [] -> tasks w = [] ->
+  (forall sid st, nth_error (wsts w) sid = Some st -> s_ph st = Armed -> s_obj st <> None) ->
+  forall sid st, nth_error (wsts w) sid = Some st -> s_ph st = Dead /\ s_resumes st = 1%nat.
+Proof.
+  intros p g scheds roots n w Q T NoName.
+  destruct (run_full p g scheds roots n) as [_ [HI HX]]. fold w in HI, HX.
+  pose proof (run_EL p g scheds roots n) as HL. fold w in HL.
+  destruct HL as [Lfl [Lp [Lo [Lm [Lm2 [Lv [Lz Lse]]]]]]]. rewrite Q in Lp, Lo. rewrite T in Lfl. simpl in Lp, Lo.
+  destruct HX as [_ [_ [_ [_ [_ [Hcnt _]]]]]]. rewrite T in Hcnt.
+  destruct HI as [_ [_ [I3 _]]]. rewrite T in I3.
+  assert (Dead_all : forall k sid st, (length (wsts w) - sid <= k)%nat -> nth_error (wsts w) sid = Some st -> s_ph st = Dead).
+  { induction k as [|k IH]; intros sid st Hk Hs.
+    - apply nth_error_lt in Hs. lia.
+    - destruct (s_ph st) eqn:Ph; [| | |reflexivity]; exfalso.
+      + destruct (s_obj st) as [e|] eqn:Ob; [|apply (NoName sid st Hs Ph Ob)].
+        apply (Lp sid st e Hs Ph Ob). discriminate.
+      + destruct (I3 sid st Hs) as [_ _ _ _ _ _ _ _ O9]. 
+        destruct (s_event st) as [e|] eqn:Ev.
+        * destruct (Lm sid st e Hs Ev) as [ev [He _]].
+          destruct (Lo sid st e ev Hs Ph Ev) as [W|[]]; [discriminate|assumption|].
+          rewrite (Hcnt e ev He), cnt_gen_nil in W.
+          destruct (cnt_own_witness e (wsts w)) as [s' [st' [Hs' Ow]]]; [lia|].
+          unfold owns in Ow. apply andb_prop in Ow. destruct Ow as [Te Ow]. apply Nat.eqb_eq in Te.
+          pose proof (Lv sid st e s' st' Hs Ev Hs' Te) as Lt.
+          assert (Pd : s_ph st' = Dead). { apply (IH s' st'); [apply nth_error_lt in Hs'; lia|assumption]. }
+          destruct (I3 s' st' Hs') as [_ _ _ _ _ _ O7 _ _]. rewrite Pd in O7. simpl in O7. unfold count_rt in O7. simpl in O7.
+          unfold owning in Ow. apply Nat.eqb_eq in Ow. lia.
+        * apply (Lse sid st Hs Ph Ev).
+      + apply (Lfl sid st Hs Ph). }
+  intros sid st Hs. assert (Pd : s_ph st = Dead) by (apply (Dead_all (length (wsts w)) sid st); [lia|assumption]).
+  split; [assumption|]. destruct (I3 sid st Hs) as [_ _ _ _ _ _ O7 _ _]. rewrite Pd in O7. simpl in O7. unfold count_rt in O7. simpl in O7. lia.
+Qed.
